@@ -145,3 +145,3620 @@ Proof.
   intros m g g' H. unfold indicate_branches in H. apply bind_ok in H. destruct H as (ts & H1 & H2).
   inversion H2; subst. apply graph_top_mk_gen. intro T. rewrite T in H1. simpl in H1. congruence.
 Qed.
+
+(* ------------------------------------------------------------------ *)
+(** * Totality (C12, the F9 clause): no exception on any graph *)
+
+Lemma reifiable_rows : forall m r, is_role_reifiable m r = true ->
+  exists c sr tr rest, reif_rows m r = (c, sr, tr) :: rest.
+Proof.
+  intros m r H. unfold is_role_reifiable in H. destruct (reif_rows m r) as [|[[c sr] tr] rest]; [discriminate|].
+  eauto.
+Qed.
+
+Lemma reify_ok : forall m t vars, is_role_reifiable m (trole t) = true ->
+  exists c sr tr rest, reif_rows m (trole t) = (c, sr, tr) :: rest /\
+    reify m t vars = Ok ((AStr (match vars with [] => USCORE | _ => fresh_var vars end), sr, tsrc t),
+                         (AStr (match vars with [] => USCORE | _ => fresh_var vars end), INSTANCE, AStr c),
+                         (AStr (match vars with [] => USCORE | _ => fresh_var vars end), tr, ttgt t)).
+Proof.
+  intros m t vars H. destruct (reifiable_rows _ _ H) as (c & sr & tr & rest & E).
+  exists c, sr, tr, rest. split; auto. unfold reify. rewrite E. reflexivity.
+Qed.
+
+Lemma reify_edges_loop_total : forall m g ts vars ed,
+  exists r, reify_edges_loop m g ts vars ed = Ok r.
+Proof.
+  intros m g ts. induction ts as [|t ts IH]; intros vars ed; simpl.
+  - eauto.
+  - destruct (is_role_reifiable m (trole t)) eqn:R.
+    + destruct (reify_ok m t vars R) as (c & sr & tr & rest & _ & E). rewrite E. simpl.
+      match goal with |- context [epi_pop ?a ?b] => destruct (epi_pop a b) as [old ed2] end.
+      destruct (edge_markers old) as [ne oe].
+      match goal with |- context [reify_edges_loop m g ts ?v ?e] => destruct (IH v e) as ([r1 r2] & E2); rewrite E2 end.
+      simpl. eauto.
+    + destruct (IH vars ed) as ([r1 r2] & E2). rewrite E2. simpl. eauto.
+Qed.
+
+Lemma reify_edges_total : forall m g, exists g', reify_edges m g = Ok g'.
+Proof.
+  intros. unfold reify_edges.
+  destruct (reify_edges_loop_total m g (triples g) (used_names g) (epidata g)) as ([ts ed] & E).
+  rewrite E. simpl. eauto.
+Qed.
+
+(* --- dict facts --- *)
+Section DictFacts.
+  Context {K V : Type} (keq : K -> K -> bool).
+  Hypothesis keq_refl : forall k, keq k k = true.
+  Hypothesis keq_sym : forall a b, keq a b = keq b a.
+  Hypothesis keq_trans : forall a b c, keq a b = true -> keq b c = true -> keq a c = true.
+
+  Lemma keq_congr_l : forall a b c, keq a b = true -> keq a c = keq b c.
+  Proof.
+    intros a b c H. destruct (keq b c) eqn:E.
+    - eapply keq_trans; eauto.
+    - destruct (keq a c) eqn:E2; auto.
+      rewrite keq_sym in H. rewrite (keq_trans _ _ _ H E2) in E. discriminate.
+  Qed.
+
+  Lemma dget_congr : forall (d : dict K V) a b, keq a b = true -> dget keq a d = dget keq b d.
+  Proof.
+    induction d as [|[k v] d IH]; intros a b H; simpl; auto.
+    rewrite (keq_congr_l a b k H). destruct (keq b k); auto.
+  Qed.
+
+  Lemma dget_some_in : forall (d : dict K V) k v, dget keq k d = Some v ->
+    exists k', In (k', v) d /\ keq k k' = true.
+  Proof.
+    induction d as [|[k0 v0] d IH]; intros k v H; simpl in H; [discriminate|].
+    destruct (keq k k0) eqn:E.
+    - inversion H; subst. exists k0. split; auto. left; auto.
+    - destruct (IH _ _ H) as (k' & I & E'). exists k'. split; auto. right; auto.
+  Qed.
+
+  Lemma keq_congr_r : forall a b c, keq a b = true -> keq c a = keq c b.
+  Proof. intros. rewrite (keq_sym c a), (keq_sym c b). apply keq_congr_l; auto. Qed.
+
+  Lemma dget_dset : forall (d : dict K V) k k' v,
+    dget keq k (dset keq k' v d) = if keq k k' then Some v else dget keq k d.
+  Proof.
+    induction d as [|[k0 v0] d IH]; intros k k' v; simpl.
+    - destruct (keq k k'); auto.
+    - destruct (keq k' k0) eqn:E; simpl.
+      + rewrite (keq_congr_r k' k0 k E). destruct (keq k k0); auto.
+      + rewrite IH. destruct (keq k k0) eqn:E2; auto.
+        destruct (keq k k') eqn:E3; auto.
+        rewrite keq_sym in E3. rewrite (keq_trans _ _ _ E3 E2) in E. discriminate.
+  Qed.
+
+  Lemma in_dset : forall (d : dict K V) k v k' v',
+    In (k', v') (dset keq k v d) -> In (k', v') d \/ (v' = v /\ keq k k' = true).
+  Proof.
+    induction d as [|[k0 v0] d IH]; intros k v k' v' H; simpl in H.
+    - destruct H as [H|[]]. inversion H; subst. right. split; auto.
+    - destruct (keq k k0) eqn:E.
+      + destruct H as [H|H].
+        * inversion H; subst. right. split; auto.
+        * left. right. auto.
+      + destruct H as [H|H].
+        * left. left. auto.
+        * destruct (IH _ _ _ _ H) as [I|I]; auto. left. right. auto.
+  Qed.
+
+  (* keys *)
+  Lemma dkeys_dset : forall (d : dict K V) k v,
+    dkeys (dset keq k v d) = if dmem keq k d then dkeys d else dkeys d ++ [k].
+  Proof.
+    unfold dmem. induction d as [|[k0 v0] d IH]; intros k v; simpl; auto.
+    destruct (keq k k0) eqn:E; simpl; auto.
+    unfold dkeys in *. simpl. rewrite IH. destruct (dget keq k d); auto.
+  Qed.
+
+  Lemma dmem_mem : forall (d : dict K V) k, dmem keq k d = mem keq k (dkeys d).
+  Proof.
+    unfold dmem. induction d as [|[k0 v0] d IH]; intros k; simpl; auto.
+    destruct (keq k k0); simpl; auto.
+  Qed.
+
+  Lemma mem_congr : forall l a b, keq a b = true -> mem keq a l = mem keq b l.
+  Proof.
+    induction l as [|x l IH]; intros a b H; simpl; auto.
+    rewrite (keq_congr_l a b x H), (IH a b H). auto.
+  Qed.
+
+  Lemma nodup_b_snoc : forall l k, nodup_b keq l = true -> mem keq k l = false ->
+    nodup_b keq (l ++ [k]) = true.
+  Proof.
+    induction l as [|x l IH]; intros k H E; simpl in *; auto.
+    apply andb_true_iff in H. destruct H as [H1 H2].
+    apply orb_false_iff in E. destruct E as [E1 E2].
+    rewrite IH by auto. rewrite mem_app. simpl. rewrite orb_false_r.
+    apply negb_true_iff in H1. rewrite H1. simpl. rewrite keq_sym, E1. auto.
+  Qed.
+
+  Lemma nodup_dset : forall (d : dict K V) k v,
+    nodup_b keq (dkeys d) = true -> nodup_b keq (dkeys (dset keq k v d)) = true.
+  Proof.
+    intros d k v H. rewrite dkeys_dset. destruct (dmem keq k d) eqn:E; auto.
+    rewrite dmem_mem in E. apply nodup_b_snoc; auto.
+  Qed.
+
+  Lemma mem_ddel_keys : forall (d : dict K V) k x,
+    mem keq x (dkeys (ddel keq k d)) = true -> mem keq x (dkeys d) = true.
+  Proof.
+    induction d as [|[k0 v0] d IH]; intros k x H; simpl in *; auto.
+    destruct (keq k k0); simpl in *.
+    - rewrite H. apply orb_true_r.
+    - destruct (keq x k0); simpl in *; auto. eapply IH; eauto.
+  Qed.
+
+  Lemma nodup_ddel : forall (d : dict K V) k,
+    nodup_b keq (dkeys d) = true -> nodup_b keq (dkeys (ddel keq k d)) = true.
+  Proof.
+    induction d as [|[k0 v0] d IH]; intros k H; simpl in *; auto.
+    apply andb_true_iff in H. destruct H as [H1 H2].
+    destruct (keq k k0); simpl; auto.
+    rewrite IH by auto. rewrite andb_true_r.
+    apply negb_true_iff. apply negb_true_iff in H1.
+    destruct (mem keq k0 (dkeys (ddel keq k d))) eqn:E; auto.
+    apply mem_ddel_keys in E. unfold dkeys in *. congruence.
+  Qed.
+
+  Lemma dget_none_notmem : forall (d : dict K V) k, dget keq k d = None <-> mem keq k (dkeys d) = false.
+  Proof.
+    intros. rewrite <- dmem_mem. unfold dmem. destruct (dget keq k d); split; intro; congruence.
+  Qed.
+
+  Lemma dget_ddel : forall (d : dict K V) k k', nodup_b keq (dkeys d) = true ->
+    dget keq k (ddel keq k' d) = if keq k k' then None else dget keq k d.
+  Proof.
+    induction d as [|[k0 v0] d IH]; intros k k' H; simpl in *.
+    - destruct (keq k k'); auto.
+    - apply andb_true_iff in H. destruct H as [H1 H2]. apply negb_true_iff in H1.
+      destruct (keq k' k0) eqn:E; simpl.
+      + destruct (keq k k') eqn:E2.
+        * apply dget_none_notmem. rewrite (mem_congr _ k k0); auto. eapply keq_trans; eauto.
+        * destruct (keq k k0) eqn:E3; auto.
+          rewrite keq_sym in E. rewrite (keq_trans _ _ _ E3 E) in E2. discriminate.
+      + rewrite IH by auto. destruct (keq k k0) eqn:E3; auto.
+        destruct (keq k k') eqn:E2; auto.
+        rewrite keq_sym in E2. rewrite (keq_trans _ _ _ E2 E3) in E. discriminate.
+  Qed.
+End DictFacts.
+
+(* specialisations to the two key types in use *)
+Definition A_dget_congr {V} := @dget_congr atom V atom_eqb atom_eqb_sym atom_eqb_trans.
+Definition A_dget_dset {V} := @dget_dset atom V atom_eqb atom_eqb_sym atom_eqb_trans.
+Definition A_dget_ddel {V} := @dget_ddel atom V atom_eqb atom_eqb_sym atom_eqb_trans.
+Definition A_in_dset {V} := @in_dset atom V atom_eqb atom_eqb_refl.
+Definition A_nodup_dset {V} := @nodup_dset atom V atom_eqb atom_eqb_sym.
+Definition A_mem_congr := @mem_congr atom atom_eqb atom_eqb_sym atom_eqb_trans.
+Definition T_dget_congr {V} := @dget_congr triple V triple_eqb triple_eqb_sym triple_eqb_trans.
+Definition T_dget_dset {V} := @dget_dset triple V triple_eqb triple_eqb_sym triple_eqb_trans.
+Definition T_dget_ddel {V} := @dget_ddel triple V triple_eqb triple_eqb_sym triple_eqb_trans.
+Definition T_in_dset {V} := @in_dset triple V triple_eqb triple_eqb_refl.
+Definition T_nodup_dset {V} := @nodup_dset triple V triple_eqb triple_eqb_sym.
+Definition T_mem_congr := @mem_congr triple triple_eqb triple_eqb_sym triple_eqb_trans.
+
+
+(* --- the agenda scan --- *)
+Definition scan_inv (s : agenda_scan) : Prop :=
+  let '(inst, other, fixed) := s in
+  (forall k t, In (k, t) inst -> is_inst t = true /\ atom_eqb (tsrc t) k = true) /\
+  (forall k l, In (k, l) other -> forall t, In t l -> atom_eqb (tsrc t) k = true).
+
+Lemma scan_step_inv : forall s t, scan_inv s -> scan_inv (agenda_scan_step s t).
+Proof.
+  intros [[inst other] fixed] t [H1 H2]. unfold agenda_scan_step.
+  fold (is_inst t). destruct (is_inst t) eqn:I; split; auto.
+  - intros k t' HI. apply A_in_dset in HI. destruct HI as [HI|[E1 E2]]; auto. subst. auto.
+  - intros k l HI t' Ht'. destruct (dget atom_eqb (tsrc t) other) as [l0|] eqn:G.
+    + apply A_in_dset in HI. destruct HI as [HI|[E1 E2]]; [eapply H2; eauto|]. subst.
+      apply in_app_or in Ht'. destruct Ht' as [Ht'|[Ht'|[]]].
+      * apply (dget_some_in atom_eqb) in G. destruct G as (k' & I' & E').
+        specialize (H2 _ _ I' _ Ht'). eapply atom_eqb_trans; eauto.
+        eapply atom_eqb_trans; [|eauto]. rewrite atom_eqb_sym. auto.
+      * subst. auto.
+    + apply A_in_dset in HI. destruct HI as [HI|[E1 E2]]; [eapply H2; eauto|]. subst.
+      destruct Ht' as [Ht'|[]]. subst. auto.
+Qed.
+
+Lemma scan_all_inv : forall ts s, scan_inv s -> scan_inv (fold_left agenda_scan_step ts s).
+Proof. induction ts; simpl; intros; auto. apply IHts. apply scan_step_inv. auto. Qed.
+
+
+(* which role and orientation Model.dereify picks, as a function of the concept and the two roles *)
+Definition dereify_pick (m : model) (c ra rb : str) : option (str * bool) :=
+  match find (fun '(r, s, t) => str_eqb s ra && str_eqb t rb) (deif_rows m c) with
+  | Some (r, _, _) => Some (r, true)
+  | None =>
+      match find (fun '(r, s, t) => str_eqb t ra && str_eqb s rb) (deif_rows m c) with
+      | Some (r, _, _) => Some (r, false)
+      | None => None
+      end
+  end.
+
+Lemma dereify_spec : forall m i a b,
+  is_inst i = true -> atom_eqb (tsrc i) (tsrc a) = true -> atom_eqb (tsrc a) (tsrc b) = true ->
+  dereify m i a b =
+  match ttgt i with
+  | AStr c =>
+      match dereify_pick m c (trole a) (trole b) with
+      | Some (r, true) => Ok (ttgt a, r, ttgt b)
+      | Some (r, false) => Ok (ttgt b, r, ttgt a)
+      | None => ModelErr
+      end
+  | _ => ModelErr
+  end.
+Proof.
+  intros m i a b H1 H2 H3. unfold dereify. unfold is_inst in H1. rewrite H1, H2, H3.
+  cbv [negb andb]. destruct (ttgt i); auto. unfold dereify_pick.
+  destruct (deif_rows m s) as [|p l]; [reflexivity|].
+  destruct (find _ (p :: l)) as [[[r ?] ?]|]; auto.
+  destruct (find _ (p :: l)) as [[[r ?] ?]|]; auto.
+Qed.
+
+Lemma dereify_outcomes : forall m i a b,
+  is_inst i = true -> atom_eqb (tsrc i) (tsrc a) = true -> atom_eqb (tsrc a) (tsrc b) = true ->
+  (exists t, dereify m i a b = Ok t) \/ dereify m i a b = ModelErr.
+Proof.
+  intros m i a b H1 H2 H3. rewrite dereify_spec by auto.
+  destruct (ttgt i); auto. destruct (dereify_pick m s (trole a) (trole b)) as [[r [|]]|]; eauto.
+Qed.
+
+Lemma agenda_item_total : forall m g other fixed var instance,
+  is_inst instance = true -> atom_eqb (tsrc instance) var = true ->
+  (forall k l, In (k, l) other -> forall t, In t l -> atom_eqb (tsrc t) k = true) ->
+  exists r, agenda_item m g other fixed var instance = Ok r.
+Proof.
+  intros m g other fixed var instance HI HS HO. unfold agenda_item.
+  destruct (mem atom_eqb var fixed); eauto.
+  destruct (dget atom_eqb var other) as [l|] eqn:G; eauto.
+  destruct l as [|o1 [|o2 [|o3 l]]]; eauto.
+  destruct (is_concept_dereifiable m (ttgt instance)); eauto.
+  apply (dget_some_in atom_eqb) in G. destruct G as (k' & I' & E').
+  assert (S1 : atom_eqb (tsrc o1) k' = true) by (eapply HO; eauto; simpl; auto).
+  assert (S2 : atom_eqb (tsrc o2) k' = true) by (eapply HO; eauto; simpl; auto).
+  assert (A1 : atom_eqb (tsrc instance) (tsrc o1) = true).
+  { eapply atom_eqb_trans; eauto. eapply atom_eqb_trans; eauto. rewrite atom_eqb_sym; auto. }
+  assert (A2 : atom_eqb (tsrc instance) (tsrc o2) = true).
+  { eapply atom_eqb_trans; eauto. eapply atom_eqb_trans; eauto. rewrite atom_eqb_sym; auto. }
+  assert (A3 : atom_eqb (tsrc o1) (tsrc o2) = true).
+  { eapply atom_eqb_trans; eauto. rewrite atom_eqb_sym; auto. }
+  destruct (atom_eqb (pushed_value g o2) var).
+  - destruct (dereify_outcomes m instance o2 o1 HI A2) as [[t E]|E]; try rewrite E; eauto.
+    + rewrite atom_eqb_sym; auto.
+    + destruct (negb (is_var g (tsrc t))); eauto.
+  - destruct (dereify_outcomes m instance o1 o2 HI A1 A3) as [[t E]|E]; rewrite E; eauto.
+    destruct (negb (is_var g (tsrc t))); eauto.
+Qed.
+
+Lemma agenda_items_total : forall m g other fixed inst,
+  (forall k t, In (k, t) inst -> is_inst t = true /\ atom_eqb (tsrc t) k = true) ->
+  (forall k l, In (k, l) other -> forall t, In t l -> atom_eqb (tsrc t) k = true) ->
+  exists r, agenda_items m g other fixed inst = Ok r.
+Proof.
+  intros m g other fixed inst. induction inst as [|[var instance] inst IH]; intros H1 H2; simpl; eauto.
+  destruct (H1 var instance) as [A B]; [left; auto|].
+  destruct (agenda_item_total m g other fixed var instance A B H2) as [r E]. rewrite E. simpl.
+  destruct IH as [r' E']; auto. { intros. apply H1. right. auto. }
+  rewrite E'. simpl. eauto.
+Qed.
+
+Lemma dereify_agenda_total : forall m g, exists ag, dereify_agenda m g = Ok ag.
+Proof.
+  intros. unfold dereify_agenda. unfold agenda_scan_all.
+  assert (I : scan_inv (fold_left agenda_scan_step (triples g) ([], [], [top_atom g]))).
+  { apply scan_all_inv. simpl. split; intros ? ? []. }
+  destruct (fold_left agenda_scan_step (triples g) ([], [], [top_atom g])) as [[inst other] fixed].
+  destruct I. apply agenda_items_total; auto.
+Qed.
+
+Lemma dereify_edges_total : forall m g, exists g', dereify_edges m g = Ok g'.
+Proof.
+  intros. unfold dereify_edges. destruct (dereify_agenda_total m g) as [ag E]. rewrite E. simpl.
+  destruct (dereify_edges_loop ag (triples g) (epidata g)). eauto.
+Qed.
+
+
+(* ------------------------------------------------------------------ *)
+(** * Fresh names: [N_to_str] is injective, the search always succeeds *)
+
+Definition dstep (acc c : N) : N := (acc * 10 + (c - 48))%N.
+Lemma digits_to_N_eq : forall s, digits_to_N s = fold_left dstep s 0%N.
+Proof. reflexivity. Qed.
+
+Lemma N_to_str_fuel_val : forall f n acc, (n < 10 ^ N.of_nat f)%N ->
+  fold_left dstep (N_to_str_fuel f n acc) 0%N = fold_left dstep acc n.
+Proof.
+  induction f as [|f IH]; intros n acc H.
+  - simpl in *. assert (n = 0)%N by lia. subst. reflexivity.
+  - simpl N_to_str_fuel.
+    assert (D : (n = 10 * (n / 10) + n mod 10)%N) by (apply N.div_mod; lia).
+    assert (M : (n mod 10 < 10)%N) by (apply N.mod_lt; lia).
+    destruct (N.eqb (n / 10) 0) eqn:Q.
+    + apply N.eqb_eq in Q. simpl. unfold dstep at 2. unfold digit_char.
+      f_equal. clear H IH. rewrite Q in D. lia.
+    + apply N.eqb_neq in Q. rewrite IH.
+      * simpl. unfold dstep at 2. unfold digit_char. f_equal. clear H IH.
+        remember (n / 10)%N as q. remember (n mod 10)%N as r. lia.
+      * rewrite Nat2N.inj_succ, N.pow_succ_r' in H.
+        apply N.div_lt_upper_bound; [lia|]. exact H.
+Qed.
+
+Lemma N_to_str_val : forall n, digits_to_N (N_to_str n) = n.
+Proof.
+  intros n. rewrite digits_to_N_eq. unfold N_to_str. rewrite N_to_str_fuel_val; [reflexivity|].
+  rewrite Nat2N.inj_succ, N2Nat.id.
+  destruct (N.eq_dec n 0) as [->|NZ]; [simpl; lia|].
+  assert (L := N.log2_spec n ltac:(lia)). destruct L as [_ L].
+  eapply N.lt_le_trans; [exact L|]. apply N.pow_le_mono_l. lia.
+Qed.
+
+Lemma N_to_str_inj : forall a b, N_to_str a = N_to_str b -> a = b.
+Proof. intros a b H. rewrite <- (N_to_str_val a), <- (N_to_str_val b). congruence. Qed.
+
+Lemma N_to_str_fuel_nonempty : forall f n acc, acc <> [] -> N_to_str_fuel f n acc <> [].
+Proof.
+  induction f; intros n acc H; simpl; auto.
+  destruct (N.eqb (n / 10) 0); [discriminate|]. apply IHf. discriminate.
+Qed.
+Lemma N_to_str_nonempty : forall n, N_to_str n <> [].
+Proof.
+  intros n. unfold N_to_str. simpl. destruct (N.eqb (n / 10) 0); [discriminate|].
+  apply N_to_str_fuel_nonempty. discriminate.
+Qed.
+
+Definition fname (k : N) : str := USCORE ++ N_to_str k.
+Lemma fname_inj : forall a b, fname a = fname b -> a = b.
+Proof. unfold fname. intros a b H. apply app_inv_head in H. apply N_to_str_inj; auto. Qed.
+Lemma fname_not_uscore : forall k, fname k <> USCORE.
+Proof.
+  unfold fname, USCORE. intros k H. simpl in H. inversion H as [H1].
+  apply (N_to_str_nonempty k). auto.
+Qed.
+Lemma fname_uscore : forall k, startswith (fname k) USCORE = true.
+Proof. intros. apply startswith_iff. exists (N_to_str k). reflexivity. Qed.
+
+(* a generated name: _ or _k *)
+Definition gen_name (s : str) : Prop := s = USCORE \/ exists k, s = fname k.
+
+Lemma mem_astr_in : forall s l, mem atom_eqb (AStr s) l = true -> In (AStr s) l.
+Proof.
+  intros s l H. apply mem_atom_true in H. destruct H as (b & I & E).
+  apply atom_eqb_astr in E. subst. auto.
+Qed.
+
+(* pigeonhole: [seen] are distinct members of [vars]; with fuel >= the rest the loop finds a free name *)
+Lemma attr_fresh_loop_some : forall f vars var i seen,
+  NoDup seen -> incl seen vars ->
+  (forall x, In x seen -> x <> AStr var /\ forall k, (i <= k)%N -> x <> AStr (fname k)) ->
+  (forall k, (i <= k)%N -> var <> fname k) ->
+  length vars <= length seen + f ->
+  exists r, attr_fresh_loop f vars var i = Some r.
+Proof.
+  induction f as [|f IH]; intros vars var i seen ND INC OLD CUR LEN; simpl.
+  - destruct (mem atom_eqb (AStr var) vars) eqn:M; eauto.
+    exfalso. apply mem_astr_in in M.
+    assert (ND' : NoDup (AStr var :: seen)).
+    { constructor; auto. intro I. destruct (OLD _ I) as [N _]. congruence. }
+    assert (INC' : incl (AStr var :: seen) vars).
+    { intros x [<-|I]; auto. }
+    pose proof (NoDup_incl_length ND' INC') as L. simpl in L. lia.
+  - destruct (mem atom_eqb (AStr var) vars) eqn:M; eauto.
+    apply mem_astr_in in M.
+    apply IH with (seen := AStr var :: seen).
+    + constructor; auto. intro I. destruct (OLD _ I) as [N _]. congruence.
+    + intros x [<-|I]; auto.
+    + intros x [<-|I].
+      * split.
+        -- intro E. inversion E as [E']. apply (CUR i); auto. lia.
+        -- intros k Hk E. inversion E as [E']. apply (CUR k); auto. lia.
+      * destruct (OLD _ I) as [N1 N2]. split.
+        -- apply N2. lia.
+        -- intros k Hk. apply N2. lia.
+    + intros k Hk E. apply fname_inj in E. lia.
+    + simpl. lia.
+Qed.
+
+Lemma attr_fresh_some : forall vars i, exists r, attr_fresh vars i = Some r.
+Proof.
+  intros. unfold attr_fresh. apply attr_fresh_loop_some with (seen := []).
+  - constructor.
+  - intros x [].
+  - intros x [].
+  - intros k _ E. symmetry in E. apply fname_not_uscore in E. auto.
+  - simpl. lia.
+Qed.
+
+Lemma attr_fresh_loop_spec : forall f vars var i v i',
+  attr_fresh_loop f vars var i = Some (v, i') -> gen_name var ->
+  mem atom_eqb (AStr v) vars = false /\ gen_name v.
+Proof.
+  induction f as [|f IH]; intros vars var i v i' H G; simpl in H.
+  - destruct (mem atom_eqb (AStr var) vars) eqn:M; [discriminate|]. inversion H; subst. auto.
+  - destruct (mem atom_eqb (AStr var) vars) eqn:M.
+    + eapply IH; eauto. right. eexists. reflexivity.
+    + inversion H; subst. auto.
+Qed.
+Lemma attr_fresh_spec : forall vars i v i',
+  attr_fresh vars i = Some (v, i') -> mem atom_eqb (AStr v) vars = false /\ gen_name v.
+Proof. intros. eapply attr_fresh_loop_spec; eauto. left. reflexivity. Qed.
+
+(* Model.reify's variable *)
+Lemma fresh_loop_O : forall vars i, fresh_loop 0 vars i = fname i.
+Proof. reflexivity. Qed.
+Lemma fresh_loop_S : forall f vars i, fresh_loop (S f) vars i =
+  if mem atom_eqb (AStr (fname i)) vars then fresh_loop f vars (i + 1)%N else fname i.
+Proof. reflexivity. Qed.
+Lemma fresh_loop_spec : forall f vars i seen,
+  NoDup seen -> incl seen vars ->
+  (forall x, In x seen -> forall k, (i <= k)%N -> x <> AStr (fname k)) ->
+  length vars <= length seen + f ->
+  mem atom_eqb (AStr (fresh_loop f vars i)) vars = false /\ gen_name (fresh_loop f vars i).
+Proof.
+  induction f as [|f IH]; intros vars i seen ND INC OLD LEN.
+  - rewrite fresh_loop_O. split; [|right; eexists; reflexivity].
+    destruct (mem atom_eqb (AStr (fname i)) vars) eqn:M; auto.
+    exfalso. apply mem_astr_in in M.
+    assert (ND' : NoDup (AStr (fname i) :: seen)).
+    { constructor; auto. intro I. apply (OLD _ I i); auto. lia. }
+    assert (INC' : incl (AStr (fname i) :: seen) vars) by (intros x [<-|I]; auto).
+    pose proof (NoDup_incl_length ND' INC') as L. simpl in L. lia.
+  - rewrite fresh_loop_S. destruct (mem atom_eqb (AStr (fname i)) vars) eqn:M.
+    + apply mem_astr_in in M. apply IH with (seen := AStr (fname i) :: seen).
+      * constructor; auto. intro I. apply (OLD _ I i); auto. lia.
+      * intros x [<-|I]; auto.
+      * intros x [<-|I] k Hk.
+        -- intro E. assert (E' : fname i = fname k) by congruence. apply fname_inj in E'. lia.
+        -- apply (OLD _ I). lia.
+      * simpl. lia.
+    + split; auto. right. eexists. reflexivity.
+Qed.
+
+Lemma fresh_var_spec : forall vars,
+  mem atom_eqb (AStr (fresh_var vars)) vars = false /\ gen_name (fresh_var vars).
+Proof.
+  intros vars. unfold fresh_var. destruct (mem atom_eqb (AStr USCORE) vars) eqn:M.
+  - apply mem_astr_in in M. apply fresh_loop_spec with (seen := [AStr USCORE]).
+    + constructor; auto. constructor.
+    + intros x [<-|[]]; auto.
+    + intros x [<-|[]] k _ E. assert (E' : fname k = USCORE) by congruence.
+      apply fname_not_uscore in E'. auto.
+    + simpl. lia.
+  - split; auto. left. reflexivity.
+Qed.
+
+
+(* ------------------------------------------------------------------ *)
+(** * Names chosen along a loop *)
+
+(* each name is generated, not yet used, and then joins the used set *)
+Fixpoint names_ok (used : list atom) (vs : list str) : Prop :=
+  match vs with
+  | [] => True
+  | v :: vs' => mem atom_eqb (AStr v) used = false /\ gen_name v /\ names_ok (used ++ [AStr v]) vs'
+  end.
+
+Lemma names_ok_notin : forall vs used v, names_ok used vs -> In v vs ->
+  mem atom_eqb (AStr v) used = false /\ gen_name v.
+Proof.
+  induction vs as [|w vs IH]; intros used v H I; [destruct I|].
+  destruct H as (H1 & H2 & H3). destruct I as [<-|I]; auto.
+  destruct (IH _ _ H3 I) as [A B]. split; auto.
+  rewrite mem_app in A. apply orb_false_iff in A. tauto.
+Qed.
+
+Lemma names_ok_nodup : forall vs used, names_ok used vs -> NoDup vs.
+Proof.
+  induction vs as [|w vs IH]; intros used H; [constructor|].
+  destruct H as (H1 & H2 & H3). constructor; eauto.
+  intro I. destruct (names_ok_notin _ _ _ H3 I) as [A _].
+  rewrite mem_app in A. apply orb_false_iff in A. destruct A as [_ A].
+  simpl in A. rewrite str_eqb_refl in A. discriminate.
+Qed.
+
+(* ------------------------------------------------------------------ *)
+(** * Pure form of reify_edges (names given) *)
+
+Definition reif_row (m : model) (r : str) : str * str * str :=
+  match reif_rows m r with x :: _ => x | [] => ([], [], []) end.
+
+(* the three triples in LIST order: (first, node, third) *)
+Definition rexpand (m : model) (g : graph) (t : triple) (v : str) : triple * triple * triple :=
+  let '(c, sr, tr) := reif_row m (trole t) in
+  let i0 := (AStr v, sr, tsrc t) in
+  let o0 := (AStr v, tr, ttgt t) in
+  if reify_swaps g t then (o0, (AStr v, INSTANCE, AStr c), i0)
+  else (i0, (AStr v, INSTANCE, AStr c), o0).
+
+Fixpoint rloop (m : model) (g : graph) (ts : list triple) (vs : list str)
+  (ed : dict triple (list epi)) : list triple * dict triple (list epi) :=
+  match ts with
+  | [] => ([], ed)
+  | t :: ts' =>
+      if is_role_reifiable m (trole t) then
+        match vs with
+        | v :: vs' =>
+            let '(i, n, o) := rexpand m g t v in
+            let ed1 := dset triple_eqb i [Push (AStr v)] ed in
+            let '(old, ed2) := epi_pop t ed1 in
+            let '(ne, oe) := edge_markers old in
+            let ed4 := dset triple_eqb o oe (dset triple_eqb n ne ed2) in
+            let '(rest, edf) := rloop m g ts' vs' ed4 in
+            (i :: n :: o :: rest, edf)
+        | [] => ([], ed)
+        end
+      else
+        let '(rest, edf) := rloop m g ts' vs ed in (t :: rest, edf)
+  end.
+
+Definition count_reif (m : model) (ts : list triple) : nat :=
+  length (filter (fun t => is_role_reifiable m (trole t)) ts).
+
+Lemma fresh_var_match : forall vars,
+  match vars with [] => USCORE | _ => fresh_var vars end = fresh_var vars.
+Proof. destruct vars; reflexivity. Qed.
+
+Lemma reify_edges_loop_cons : forall m g t ts' vars ed,
+  reify_edges_loop m g (t :: ts') vars ed =
+      if is_role_reifiable m (trole t) then
+        '(in0, node_triple, out0) <- reify m t vars ;;
+        let swap := negb (atom_eqb (tsrc t) (ttgt t)) && appears_inverted g t in
+        let in_triple := if swap then out0 else in0 in
+        let out_triple := if swap then in0 else out0 in
+        let var := tsrc node_triple in
+        let ed1 := dset triple_eqb in_triple [Push var] ed in
+        let '(old_epis, ed2) := epi_pop t ed1 in
+        let '(node_epis, out_epis) := edge_markers old_epis in
+        let ed3 := dset triple_eqb node_triple node_epis ed2 in
+        let ed4 := dset triple_eqb out_triple out_epis ed3 in
+        '(rest, edf) <- reify_edges_loop m g ts' (vars ++ [var]) ed4 ;;
+        Ok (in_triple :: node_triple :: out_triple :: rest, edf)
+      else
+        '(rest, edf) <- reify_edges_loop m g ts' vars ed ;;
+        Ok (t :: rest, edf).
+Proof. reflexivity. Qed.
+
+Lemma reify_edges_loop_pure : forall m g ts vars ed,
+  exists vs, reify_edges_loop m g ts vars ed = Ok (rloop m g ts vs ed) /\
+             names_ok vars vs /\ length vs = count_reif m ts.
+Proof.
+  intros m g ts. induction ts as [|t ts IH]; intros vars ed.
+  - exists []. simpl. auto.
+  - rewrite reify_edges_loop_cons. unfold count_reif. simpl filter. cbn [rloop].
+    destruct (is_role_reifiable m (trole t)) eqn:R.
+    + destruct (reify_ok m t vars R) as (c & sr & tr & rest & RR & E). rewrite E.
+      rewrite fresh_var_match. set (v := fresh_var vars).
+      destruct (fresh_var_spec vars) as [F1 F2].
+      cbv beta iota zeta. unfold bind at 1. cbv beta iota zeta.
+      assert (RX : rexpand m g t v =
+        (if negb (atom_eqb (tsrc t) (ttgt t)) && appears_inverted g t return triple then (AStr v, tr, ttgt t) else (AStr v, sr, tsrc t),
+         (AStr v, INSTANCE, AStr c),
+         if negb (atom_eqb (tsrc t) (ttgt t)) && appears_inverted g t return triple then (AStr v, sr, tsrc t) else (AStr v, tr, ttgt t))).
+      { unfold rexpand, reif_row, reify_swaps. rewrite RR.
+        destruct (negb (atom_eqb (tsrc t) (ttgt t)) && appears_inverted g t); reflexivity. }
+      set (i := if negb (atom_eqb (tsrc t) (ttgt t)) && appears_inverted g t return triple then (AStr v, tr, ttgt t) else (AStr v, sr, tsrc t)) in *.
+      set (o := if negb (atom_eqb (tsrc t) (ttgt t)) && appears_inverted g t return triple then (AStr v, sr, tsrc t) else (AStr v, tr, ttgt t)) in *.
+      change (tsrc (AStr v, INSTANCE, AStr c)) with (AStr v).
+      destruct (epi_pop t (dset triple_eqb i [Push (AStr v)] ed)) as [old ed2] eqn:EP.
+      destruct (edge_markers old) as [ne oe] eqn:EM.
+      destruct (IH (vars ++ [AStr v]) (dset triple_eqb o oe (dset triple_eqb (AStr v, INSTANCE, AStr c) ne ed2)))
+        as (vs & E2 & N & L).
+      exists (v :: vs). rewrite RX. rewrite EP, EM. rewrite E2.
+      destruct (rloop m g ts vs _) as [r1 r2]. simpl.
+      split; [reflexivity|]. split; [split; auto|]. f_equal. exact L.
+    + destruct (IH vars ed) as (vs & E2 & N & L). exists vs. rewrite E2.
+      destruct (rloop m g ts vs ed) as [r1 r2]. simpl. auto.
+Qed.
+
+(* only the triples *)
+Fixpoint rtriples (m : model) (g : graph) (ts : list triple) (vs : list str) : list triple :=
+  match ts with
+  | [] => []
+  | t :: ts' =>
+      if is_role_reifiable m (trole t) then
+        match vs with
+        | v :: vs' => let '(i, n, o) := rexpand m g t v in i :: n :: o :: rtriples m g ts' vs'
+        | [] => []
+        end
+      else t :: rtriples m g ts' vs
+  end.
+
+Lemma rloop_triples : forall m g ts vs ed, fst (rloop m g ts vs ed) = rtriples m g ts vs.
+Proof.
+  intros m g ts. induction ts as [|t ts IH]; intros vs ed; cbn [rloop rtriples]; auto.
+  destruct (is_role_reifiable m (trole t)).
+  - destruct vs as [|v vs]; auto. destruct (rexpand m g t v) as [[i n] o].
+    destruct (epi_pop t (dset triple_eqb i [Push (AStr v)] ed)) as [old ed2].
+    destruct (edge_markers old) as [ne oe].
+    specialize (IH vs (dset triple_eqb o oe (dset triple_eqb n ne ed2))).
+    destruct (rloop m g ts vs (dset triple_eqb o oe (dset triple_eqb n ne ed2))). simpl in *. rewrite IH. auto.
+  - specialize (IH vs ed). destruct (rloop m g ts vs ed). simpl in *. rewrite IH. auto.
+Qed.
+
+Lemma reify_edges_pure : forall m g g', reify_edges m g = Ok g' ->
+  exists vs, names_ok (used_names g) vs /\ length vs = count_reif m (triples g) /\
+    g' = mk_graph (rtriples m g (triples g) vs) (graph_top g)
+                  (snd (rloop m g (triples g) vs (epidata g))) (gmeta g).
+Proof.
+  intros m g g' H. unfold reify_edges in H.
+  destruct (reify_edges_loop_pure m g (triples g) (used_names g) (epidata g)) as (vs & E & N & L).
+  rewrite E in H. simpl in H. exists vs. split; auto. split; auto.
+  rewrite <- (rloop_triples m g (triples g) vs (epidata g)). destruct (rloop m g (triples g) vs (epidata g)). simpl in *. congruence.
+Qed.
+
+
+(* ------------------------------------------------------------------ *)
+(** * Pure form of reify_attributes *)
+
+Definition is_attr_of (variables : list atom) (t : triple) : bool :=
+  negb (str_eqb (trole t) INSTANCE) && negb (mem atom_eqb (ttgt t) variables).
+
+Fixpoint aloop (variables : list atom) (ts : list triple) (vs : list str)
+  (ed : dict triple (list epi)) : list triple * dict triple (list epi) :=
+  match ts with
+  | [] => ([], ed)
+  | t :: ts' =>
+      if is_attr_of variables t then
+        match vs with
+        | v :: vs' =>
+            let var := AStr v in
+            let role_triple := (tsrc t, trole t, var) in
+            let node_triple := (var, INSTANCE, ttgt t) in
+            let '(old_epis, ed1) := epi_pop t ed in
+            let '(role_epis, node_epis) := attr_markers old_epis in
+            let ed2 := dset triple_eqb role_triple (role_epis ++ [Push var]) ed1 in
+            let ed3 := dset triple_eqb node_triple (node_epis ++ [Pop]) ed2 in
+            let '(rest, edf) := aloop variables ts' vs' ed3 in
+            (role_triple :: node_triple :: rest, edf)
+        | [] => ([], ed)
+        end
+      else
+        let '(rest, edf) := aloop variables ts' vs ed in (t :: rest, edf)
+  end.
+
+Fixpoint atriples (variables : list atom) (ts : list triple) (vs : list str) : list triple :=
+  match ts with
+  | [] => []
+  | t :: ts' =>
+      if is_attr_of variables t then
+        match vs with
+        | v :: vs' => (tsrc t, trole t, AStr v) :: (AStr v, INSTANCE, ttgt t) :: atriples variables ts' vs'
+        | [] => []
+        end
+      else t :: atriples variables ts' vs
+  end.
+
+Lemma aloop_triples : forall variables ts vs ed, fst (aloop variables ts vs ed) = atriples variables ts vs.
+Proof.
+  intros variables ts. induction ts as [|t ts IH]; intros vs ed; cbn [aloop atriples]; auto.
+  destruct (is_attr_of variables t).
+  - destruct vs as [|v vs]; auto.
+    destruct (epi_pop t ed) as [old ed1]. destruct (attr_markers old) as [re ne].
+    match goal with |- context [aloop variables ts vs ?e] => specialize (IH vs e); destruct (aloop variables ts vs e) end.
+    simpl in *. rewrite IH. auto.
+  - specialize (IH vs ed). destruct (aloop variables ts vs ed). simpl in *. rewrite IH. auto.
+Qed.
+
+Lemma reify_attributes_loop_cons : forall variables t ts' vars i ed,
+  reify_attributes_loop variables (t :: ts') vars i ed =
+      if negb (str_eqb (trole t) INSTANCE) && negb (mem atom_eqb (ttgt t) variables) then
+        match attr_fresh vars i with
+        | None => OutOfFuel
+        | Some (v, i') =>
+            let var := AStr v in
+            let role_triple := (tsrc t, trole t, var) in
+            let node_triple := (var, INSTANCE, ttgt t) in
+            let '(old_epis, ed1) := epi_pop t ed in
+            let '(role_epis, node_epis) := attr_markers old_epis in
+            let ed2 := dset triple_eqb role_triple (role_epis ++ [Push var]) ed1 in
+            let ed3 := dset triple_eqb node_triple (node_epis ++ [Pop]) ed2 in
+            '(rest, edf) <- reify_attributes_loop variables ts' (vars ++ [var]) i' ed3 ;;
+            Ok (role_triple :: node_triple :: rest, edf)
+        end
+      else
+        '(rest, edf) <- reify_attributes_loop variables ts' vars i ed ;;
+        Ok (t :: rest, edf).
+Proof. reflexivity. Qed.
+
+Definition count_attr (variables : list atom) (ts : list triple) : nat :=
+  length (filter (is_attr_of variables) ts).
+
+Lemma reify_attributes_loop_pure : forall variables ts vars i ed,
+  exists vs, reify_attributes_loop variables ts vars i ed = Ok (aloop variables ts vs ed) /\
+             names_ok vars vs /\ length vs = count_attr variables ts.
+Proof.
+  intros variables ts. induction ts as [|t ts IH]; intros vars i ed.
+  - exists []. simpl. auto.
+  - rewrite reify_attributes_loop_cons. unfold count_attr. simpl filter. cbn [aloop].
+    fold (is_attr_of variables t). destruct (is_attr_of variables t) eqn:A.
+    + destruct (attr_fresh_some vars i) as [[v i'] F]. rewrite F.
+      destruct (attr_fresh_spec _ _ _ _ F) as [F1 F2].
+      cbv beta iota zeta.
+      destruct (epi_pop t ed) as [old ed1]. destruct (attr_markers old) as [re ne].
+      match goal with |- context [reify_attributes_loop variables ts ?a ?b ?c] =>
+        destruct (IH a b c) as (vs & E2 & N & L) end.
+      exists (v :: vs). rewrite E2.
+      match goal with |- context [aloop variables ts vs ?e] => destruct (aloop variables ts vs e) as [r1 r2] end.
+      simpl. split; [reflexivity|]. split; [split; auto|]. f_equal. exact L.
+    + destruct (IH vars i ed) as (vs & E2 & N & L). exists vs. rewrite E2.
+      destruct (aloop variables ts vs ed) as [r1 r2]. simpl. auto.
+Qed.
+
+Lemma reify_attributes_total : forall g, exists g', reify_attributes g = Ok g'.
+Proof.
+  intros g. unfold reify_attributes.
+  destruct (reify_attributes_loop_pure (variables g) (triples g) (used_names g) 2%N (epidata g)) as (vs & E & _).
+  rewrite E. destruct (aloop _ _ _ _). simpl. eauto.
+Qed.
+
+Lemma reify_attributes_pure : forall g g', reify_attributes g = Ok g' ->
+  exists vs, names_ok (used_names g) vs /\ length vs = count_attr (variables g) (triples g) /\
+    g' = mk_graph (atriples (variables g) (triples g) vs) (graph_top g)
+                  (snd (aloop (variables g) (triples g) vs (epidata g))) (gmeta g).
+Proof.
+  intros g g' H. unfold reify_attributes in H.
+  destruct (reify_attributes_loop_pure (variables g) (triples g) (used_names g) 2%N (epidata g)) as (vs & E & N & L).
+  rewrite E in H. simpl in H. exists vs. split; auto. split; auto.
+  rewrite <- (aloop_triples (variables g) (triples g) vs (epidata g)).
+  destruct (aloop (variables g) (triples g) vs (epidata g)). simpl in *. congruence.
+Qed.
+
+(* ------------------------------------------------------------------ *)
+(** * indicate_branches *)
+
+(* the triples indicate_branches inserts in front of [t] *)
+Definition indicated (m : model) (g : graph) (t : triple) : list triple :=
+  match get_pushed_variable g t with
+  | Some v =>
+      if atom_eqb v (ttgt t) then [(tsrc t, top_role m, ttgt t)]
+      else if atom_eqb v (tsrc t) && is_var g (ttgt t) then [(ttgt t, top_role m, tsrc t)]
+      else []
+  | None => []
+  end.
+Definition itriples (m : model) (g : graph) (ts : list triple) : list triple :=
+  flat_map (fun t => indicated m g t ++ [t]) ts.
+
+Lemma indicate_loop_pure : forall m g ts, vars_are_str g ->
+  indicate_loop m g ts = Ok (itriples m g ts).
+Proof.
+  intros m g ts VS. induction ts as [|t ts IH]; simpl; auto.
+  rewrite IH. unfold indicated.
+  destruct (get_pushed_variable g t) as [v|]; simpl; auto.
+  destruct (atom_eqb v (ttgt t)); simpl; auto.
+  destruct (atom_eqb v (tsrc t)); simpl; auto.
+  destruct (is_var g (ttgt t)) eqn:V; simpl; auto.
+  rewrite (VS _ V). reflexivity.
+Qed.
+
+Lemma indicate_loop_only_assert : forall m g ts r,
+  indicate_loop m g ts = r -> (exists l, r = Ok l) \/ r = Other 4.
+Proof.
+  intros m g ts. induction ts as [|t ts IH]; intros r H; simpl in H.
+  - left. eauto.
+  - destruct (IH _ eq_refl) as [[l E]|E]; rewrite E in H; subst;
+    destruct (get_pushed_variable g t) as [v|]; simpl; eauto;
+    destruct (atom_eqb v (ttgt t)); simpl; eauto;
+    destruct (atom_eqb v (tsrc t) && is_var g (ttgt t)); simpl; eauto;
+    destruct (is_astr (ttgt t)); simpl; eauto.
+Qed.
+
+(* ------------------------------------------------------------------ *)
+(** * Variables of a graph *)
+
+Lemma mem_rev : forall a l, mem atom_eqb a (rev l) = mem atom_eqb a l.
+Proof.
+  intros a l. induction l as [|x l IH]; simpl; auto.
+  rewrite mem_app, IH. simpl. rewrite orb_false_r. apply orb_comm.
+Qed.
+
+Lemma mem_dedup_acc : forall l acc a,
+  mem atom_eqb a (dedup_acc atom_eqb l acc) = mem atom_eqb a acc || mem atom_eqb a l.
+Proof.
+  induction l as [|x l IH]; intros acc a; simpl.
+  - rewrite mem_rev, orb_false_r. auto.
+  - destruct (mem atom_eqb x acc) eqn:M; rewrite IH.
+    + destruct (atom_eqb a x) eqn:E; simpl; auto.
+      rewrite (mem_atom_congr a x acc E), M. auto.
+    + simpl. destruct (atom_eqb a x); simpl; auto. rewrite orb_true_r. auto.
+Qed.
+
+Lemma mem_dedup : forall l a, mem atom_eqb a (dedup atom_eqb l) = mem atom_eqb a l.
+Proof. intros. unfold dedup. rewrite mem_dedup_acc. auto. Qed.
+
+Definition top_list (o : option atom) : list atom := match o with Some t => [t] | None => [] end.
+
+Lemma is_var_spec : forall g x,
+  is_var g x = mem atom_eqb x (map tsrc (triples g)) || mem atom_eqb x (top_list (gtop g)).
+Proof. intros. unfold is_var, variables. rewrite mem_dedup, mem_app. reflexivity. Qed.
+
+Lemma is_var_congr : forall g a b, atom_eqb a b = true -> is_var g a = is_var g b.
+Proof. intros. unfold is_var. apply mem_atom_congr. auto. Qed.
+
+Lemma in_variables_is_var : forall g x, In x (variables g) -> is_var g x = true.
+Proof. intros. unfold is_var. apply mem_atom_in. auto. Qed.
+
+Lemma is_var_in_variables : forall g x, is_var g x = true -> exists y, In y (variables g) /\ atom_eqb x y = true.
+Proof. intros g x H. unfold is_var in H. apply mem_atom_true in H. auto. Qed.
+
+Lemma src_is_var : forall g t, In t (triples g) -> is_var g (tsrc t) = true.
+Proof.
+  intros g t H. rewrite is_var_spec. apply orb_true_iff. left.
+  apply mem_atom_in. apply in_map. auto.
+Qed.
+
+Lemma graph_top_is_var : forall g t, graph_top g = Some t -> is_var g t = true.
+Proof.
+  intros g t H. unfold graph_top in H. rewrite is_var_spec. destruct (gtop g) as [t0|].
+  - inversion H; subst. simpl. rewrite atom_eqb_refl. apply orb_true_r.
+  - destruct (triples g) as [|t1 l]; [discriminate|]. inversion H; subst. simpl.
+    rewrite atom_eqb_refl. auto.
+Qed.
+
+(* ---- mk_graph ---- *)
+Definition colonize (t : triple) : triple := (tsrc t, ensure_colon (trole t), ttgt t).
+
+Lemma triples_mk : forall ts top ed meta, triples (mk_graph ts top ed meta) = map colonize ts.
+Proof. reflexivity. Qed.
+
+Lemma ensure_colon_has : forall r, has_colon (ensure_colon r) = true.
+Proof.
+  intros r. unfold ensure_colon, has_colon. destruct (startswith r [COLON]) eqn:E; auto.
+  rewrite startswith_cons1. reflexivity.
+Qed.
+Lemma ensure_colon_id : forall r, has_colon r = true -> ensure_colon r = r.
+Proof. intros r H. unfold ensure_colon. unfold has_colon in H. rewrite H. auto. Qed.
+Lemma colonize_id : forall t, has_colon (trole t) = true -> colonize t = t.
+Proof. intros [[s r] x] H. unfold colonize. simpl in *. rewrite ensure_colon_id; auto. Qed.
+Lemma map_colonize_id : forall ts, (forall t, In t ts -> has_colon (trole t) = true) -> map colonize ts = ts.
+Proof.
+  induction ts as [|t ts IH]; intros H; simpl; auto.
+  rewrite colonize_id, IH; auto.
+  - intros. apply H. right. auto.
+  - apply H. left. auto.
+Qed.
+Lemma colonize_src : forall t, tsrc (colonize t) = tsrc t. Proof. reflexivity. Qed.
+Lemma colonize_tgt : forall t, ttgt (colonize t) = ttgt t. Proof. reflexivity. Qed.
+Lemma map_src_colonize : forall ts, map tsrc (map colonize ts) = map tsrc ts.
+Proof. intros. rewrite map_map. apply map_ext. reflexivity. Qed.
+Lemma map_tgt_colonize : forall ts, map ttgt (map colonize ts) = map ttgt ts.
+Proof. intros. rewrite map_map. apply map_ext. reflexivity. Qed.
+
+Lemma INSTANCE_colon : has_colon INSTANCE = true.
+Proof. reflexivity. Qed.
+
+Lemma is_var_mk : forall ts top ed meta x,
+  is_var (mk_graph ts top ed meta) x = mem atom_eqb x (map tsrc ts) || mem atom_eqb x (top_list top).
+Proof. intros. rewrite is_var_spec. simpl. rewrite map_src_colonize. auto. Qed.
+
+(* ---- instance counting ---- *)
+Definition inst_hit (x : atom) (t : triple) : bool := atom_eqb (tsrc t) x && is_inst t.
+Lemma inst_count_cons : forall t l x,
+  inst_count (t :: l) x = (if inst_hit x t then 1 else 0) + inst_count l x.
+Proof. intros. unfold inst_count, inst_hit. simpl. destruct (atom_eqb (tsrc t) x && is_inst t); auto. Qed.
+Lemma inst_count_nil : forall x, inst_count [] x = 0. Proof. reflexivity. Qed.
+Lemma inst_count_congr : forall l a b, atom_eqb a b = true -> inst_count l a = inst_count l b.
+Proof.
+  intros l a b H. induction l as [|t l IH]; auto. rewrite !inst_count_cons, IH.
+  unfold inst_hit. rewrite (atom_eqb_congr_r a b (tsrc t) H). auto.
+Qed.
+Lemma inst_count_no_src : forall l x, (forall t, In t l -> atom_eqb (tsrc t) x = false) -> inst_count l x = 0.
+Proof.
+  induction l as [|t l IH]; intros x H; auto. rewrite inst_count_cons, IH.
+  - unfold inst_hit. rewrite H; auto. left. auto.
+  - intros. apply H. right. auto.
+Qed.
+
+(* node_graph, unfolded *)
+Lemma node_graph_iff : forall g, node_graph g <->
+  (forall t, In t (triples g) -> has_colon (trole t) = true) /\
+  (forall x, is_var g x = true -> is_astr x = true /\ inst_count (triples g) x = 1).
+Proof.
+  intros g. unfold node_graph, node_graph_b. rewrite andb_true_iff, !forallb_forall. split.
+  - intros [H1 H2]. split; auto. intros x V.
+    apply is_var_in_variables in V. destruct V as (y & I & E).
+    specialize (H2 y I). apply andb_true_iff in H2. destruct H2 as [A B].
+    apply is_astr_iff in A. destruct A as [s ->]. apply atom_eqb_astr_r in E. subst.
+    split; auto. apply Nat.eqb_eq. auto.
+  - intros [H1 H2]. split; auto. intros x I.
+    destruct (H2 x (in_variables_is_var g x I)) as [A B]. rewrite A, B. auto.
+Qed.
+
+Lemma wf_node_graph : forall g, wf_graph g -> node_graph g.
+Proof.
+  intros g H. unfold wf_graph, wf_graph_b in H. unfold node_graph, node_graph_b.
+  repeat (apply andb_true_iff in H; destruct H as [H ?]).
+  apply andb_true_iff. split; auto.
+  apply forallb_forall. intros x I.
+  rewrite forallb_forall in H1. rewrite (H1 x I), andb_true_r.
+  unfold variables in I.
+  assert (V : is_var g x = true) by (apply in_variables_is_var; auto).
+  rewrite is_var_spec in V. apply orb_true_iff in V. destruct V as [V|V].
+  - apply mem_atom_true in V. destruct V as (b & Ib & E). apply in_map_iff in Ib.
+    destruct Ib as (t & <- & It). rewrite forallb_forall in H. specialize (H t It).
+    apply is_astr_iff in H. destruct H as [s Hs]. rewrite Hs in E. apply atom_eqb_astr_r in E. subst. auto.
+  - (* the explicit top: it has an instance triple, so it is a source *)
+    specialize (H1 x I). apply Nat.eqb_eq in H1.
+    destruct (filter (fun t => atom_eqb (tsrc t) x && is_inst t) (triples g)) as [|t l] eqn:F.
+    { unfold inst_count in H1. rewrite F in H1. discriminate. }
+    assert (It : In t (filter (fun t => atom_eqb (tsrc t) x && is_inst t) (triples g))) by (rewrite F; left; auto).
+    apply filter_In in It. destruct It as [It C]. apply andb_true_iff in C. destruct C as [C _].
+    rewrite forallb_forall in H. specialize (H t It). apply is_astr_iff in H. destruct H as [s Hs].
+    rewrite Hs in C. apply atom_eqb_astr in C. subst. auto.
+Qed.
+
+
+(* ------------------------------------------------------------------ *)
+(** * reify_edges keeps node_graph (C12) *)
+
+Lemma reif_rows_in : forall m r c sr tr rest, reif_rows m r = (c, sr, tr) :: rest ->
+  In (r, c, sr, tr) (reifs m).
+Proof.
+  intros m r c sr tr rest H. unfold reif_rows in H.
+  assert (I : In (c, sr, tr) (flat_map (fun '(r0, c0, s, t) => if str_eqb r0 r then [(c0, s, t)] else []) (reifs m))).
+  { rewrite H. left. auto. }
+  apply in_flat_map in I. destruct I as ([[[r0 c0] s0] t0] & I1 & I2).
+  destruct (str_eqb r0 r) eqn:E; [|destruct I2].
+  apply str_eqb_eq in E. subst. destruct I2 as [I2|[]]. inversion I2; subst. auto.
+Qed.
+
+Lemma table_inst_free_row : forall m r c sr tr, table_inst_free m = true -> In (r, c, sr, tr) (reifs m) ->
+  colon_inst r = false /\ colon_inst sr = false /\ colon_inst tr = false.
+Proof.
+  intros m r c sr tr H I. unfold table_inst_free in H. rewrite forallb_forall in H.
+  specialize (H _ I). simpl in H. repeat (apply andb_true_iff in H; destruct H as [H ?]).
+  repeat split; apply negb_true_iff; auto.
+Qed.
+
+Lemma reif_row_facts : forall m r, table_inst_free m = true -> is_role_reifiable m r = true ->
+  let '(c, sr, tr) := reif_row m r in
+  colon_inst r = false /\ colon_inst sr = false /\ colon_inst tr = false.
+Proof.
+  intros m r T R. destruct (reifiable_rows _ _ R) as (c & sr & tr & rest & E).
+  unfold reif_row. rewrite E. eapply table_inst_free_row; eauto. eapply reif_rows_in; eauto.
+Qed.
+
+Lemma is_inst_colonize : forall t, is_inst (colonize t) = colon_inst (trole t).
+Proof. reflexivity. Qed.
+
+(* the three new triples of one reification, unordered view *)
+Lemma rexpand_cases : forall m g t v i n o, rexpand m g t v = (i, n, o) ->
+  let '(c, sr, tr) := reif_row m (trole t) in
+  n = (AStr v, INSTANCE, AStr c) /\
+  ((i = (AStr v, sr, tsrc t) /\ o = (AStr v, tr, ttgt t) /\ reify_swaps g t = false) \/
+   (i = (AStr v, tr, ttgt t) /\ o = (AStr v, sr, tsrc t) /\ reify_swaps g t = true)).
+Proof.
+  intros m g t v i n o H. unfold rexpand in H. destruct (reif_row m (trole t)) as [[c sr] tr].
+  destruct (reify_swaps g t); inversion H; subst; auto.
+Qed.
+
+Lemma inst_hit_old_new : forall x v r y, atom_eqb (AStr v) x = false -> inst_hit x (colonize (AStr v, r, y)) = false.
+Proof. intros. unfold inst_hit, colonize, tsrc. cbn [fst snd]. rewrite H. reflexivity. Qed.
+
+(* counting over the expansion, for an atom that is none of the new names *)
+Lemma count_reif_cons : forall m t ts,
+  count_reif m (t :: ts) = (if is_role_reifiable m (trole t) then 1 else 0) + count_reif m ts.
+Proof. intros. unfold count_reif. simpl. destruct (is_role_reifiable m (trole t)); auto. Qed.
+
+Lemma reifiable_not_inst : forall m t x, table_inst_free m = true -> has_colon (trole t) = true ->
+  is_role_reifiable m (trole t) = true -> inst_hit x t = false.
+Proof.
+  intros m t x T C R. pose proof (reif_row_facts m (trole t) T R) as F.
+  unfold inst_hit, is_inst. destruct (reif_row m (trole t)) as [[c sr] tr]. destruct F as (F1 & _).
+  unfold colon_inst in F1. rewrite ensure_colon_id in F1 by auto. rewrite F1. apply andb_false_r.
+Qed.
+
+Lemma cnt_rtriples_old : forall m g ts vs x,
+  table_inst_free m = true ->
+  (forall t, In t ts -> has_colon (trole t) = true) ->
+  (forall v, In v vs -> atom_eqb (AStr v) x = false) ->
+  count_reif m ts <= length vs ->
+  inst_count (map colonize (rtriples m g ts vs)) x = inst_count ts x.
+Proof.
+  intros m g ts. induction ts as [|t ts IH]; intros vs x T C N L; simpl; auto.
+  assert (C' : forall t0, In t0 ts -> has_colon (trole t0) = true) by (intros; apply C; right; auto).
+  rewrite count_reif_cons in L.
+  destruct (is_role_reifiable m (trole t)) eqn:R.
+  - assert (NI : inst_hit x t = false) by (eapply reifiable_not_inst; eauto; apply C; left; auto).
+    destruct vs as [|v vs]; [simpl in L; lia|].
+    destruct (rexpand m g t v) as [[i n] o] eqn:RX. apply rexpand_cases in RX.
+    destruct (reif_row m (trole t)) as [[c sr] tr].
+    assert (NV : atom_eqb (AStr v) x = false) by (apply N; left; auto).
+    destruct RX as (-> & [(-> & -> & _)|(-> & -> & _)]); simpl map;
+      rewrite !inst_count_cons, !inst_hit_old_new, NI by auto; simpl;
+      apply IH; auto; try (intros; apply N; right; auto); simpl in L; lia.
+  - simpl map. rewrite !inst_count_cons. rewrite colonize_id by (apply C; left; auto).
+    f_equal. apply IH; auto; try (simpl in L; lia).
+Qed.
+
+(* ... and for one of the new names *)
+Lemma cnt_rtriples_new : forall m g ts vs v,
+  table_inst_free m = true ->
+  (forall t, In t ts -> has_colon (trole t) = true) ->
+  (forall t, In t ts -> atom_eqb (tsrc t) (AStr v) = false) ->
+  NoDup vs -> length vs = count_reif m ts -> In v vs ->
+  inst_count (map colonize (rtriples m g ts vs)) (AStr v) = 1.
+Proof.
+  intros m g ts. induction ts as [|t ts IH]; intros vs v T C S ND L I.
+  - simpl in L. destruct vs; [destruct I|discriminate].
+  - assert (C' : forall t0, In t0 ts -> has_colon (trole t0) = true) by (intros; apply C; right; auto).
+    assert (S' : forall t0, In t0 ts -> atom_eqb (tsrc t0) (AStr v) = false) by (intros; apply S; right; auto).
+    rewrite count_reif_cons in L. simpl rtriples.
+    destruct (is_role_reifiable m (trole t)) eqn:R.
+    + destruct vs as [|w vs]; [destruct I|]. simpl in L. inversion ND as [|? ? NI ND']; subst.
+      destruct (rexpand m g t w) as [[i n] o] eqn:RX. apply rexpand_cases in RX.
+      pose proof (reif_row_facts m (trole t) T R) as F.
+      destruct (reif_row m (trole t)) as [[c sr] tr]. destruct F as (F1 & F2 & F3).
+      destruct I as [<-|I].
+      * (* our own node triple counts once; nothing else does *)
+        assert (REST : inst_count (map colonize (rtriples m g ts vs)) (AStr w) = 0).
+        { rewrite cnt_rtriples_old; auto; try lia.
+          - apply inst_count_no_src. auto.
+          - intros u Iu. simpl. apply str_eqb_neq. intro E. subst. contradiction. }
+        destruct RX as (-> & [(-> & -> & _)|(-> & -> & _)]); simpl map;
+          rewrite !inst_count_cons, REST; unfold inst_hit;
+          rewrite !is_inst_colonize, !colonize_src; unfold tsrc, trole; cbn [fst snd];
+          rewrite !atom_eqb_refl, ?F2, ?F3; reflexivity.
+      * assert (NW : atom_eqb (AStr w) (AStr v) = false).
+        { simpl. apply str_eqb_neq. intro E. subst. contradiction. }
+        destruct RX as (-> & [(-> & -> & _)|(-> & -> & _)]); simpl map;
+          rewrite !inst_count_cons, !inst_hit_old_new by auto; simpl;
+          apply IH; auto; lia.
+    + simpl map. rewrite inst_count_cons. unfold inst_hit. rewrite colonize_src, S by (left; auto).
+      simpl. apply IH; auto.
+Qed.
+
+(* sources of the expansion *)
+Lemma rtriples_src : forall m g ts vs t', In t' (rtriples m g ts vs) ->
+  (exists t, In t ts /\ tsrc t' = tsrc t) \/ (exists v, In v vs /\ tsrc t' = AStr v).
+Proof.
+  intros m g ts. induction ts as [|t ts IH]; intros vs t' H; simpl in H; [destruct H|].
+  destruct (is_role_reifiable m (trole t)).
+  - destruct vs as [|v vs]; [destruct H|].
+    destruct (rexpand m g t v) as [[i n] o] eqn:RX. apply rexpand_cases in RX.
+    destruct (reif_row m (trole t)) as [[c sr] tr].
+    destruct H as [H|[H|[H|H]]].
+    + right. exists v. split; [left; auto|]. destruct RX as (_ & [(-> & _)|(-> & _)]); subst; reflexivity.
+    + right. exists v. split; [left; auto|]. destruct RX as (-> & _); subst; reflexivity.
+    + right. exists v. split; [left; auto|]. destruct RX as (_ & [(_ & -> & _)|(_ & -> & _)]); subst; reflexivity.
+    + destruct (IH _ _ H) as [(t0 & I0 & E)|(v0 & I0 & E)].
+      * left. exists t0. split; auto. right. auto.
+      * right. exists v0. split; auto. right. auto.
+  - destruct H as [<-|H].
+    + left. exists t. split; auto. left. auto.
+    + destruct (IH _ _ H) as [(t0 & I0 & E)|(v0 & I0 & E)].
+      * left. exists t0. split; auto. right. auto.
+      * right. exists v0. split; auto.
+Qed.
+
+Lemma used_names_var : forall g x, is_var g x = true -> mem atom_eqb x (used_names g) = true.
+Proof. intros. unfold used_names. rewrite mem_app. unfold is_var in H. rewrite H. auto. Qed.
+
+Lemma reify_edges_node_graph : forall m g g', node_graph g -> table_inst_free m = true ->
+  reify_edges m g = Ok g' -> node_graph g'.
+Proof.
+  intros m g g' NG T H. apply reify_edges_pure in H. destruct H as (vs & N & L & ->).
+  apply node_graph_iff in NG. destruct NG as [C V].
+  apply node_graph_iff. split.
+  - intros t I. rewrite triples_mk in I. apply in_map_iff in I. destruct I as (t0 & <- & _).
+    apply ensure_colon_has.
+  - intros x X. rewrite triples_mk.
+    assert (FRESH : forall v, In v vs -> mem atom_eqb (AStr v) (used_names g) = false)
+      by (intros v I; eapply names_ok_notin; eauto).
+    assert (OLDNEW : forall y v, is_var g y = true -> In v vs -> atom_eqb (AStr v) y = false).
+    { intros y v Y I. destruct (atom_eqb (AStr v) y) eqn:E; auto.
+      pose proof (FRESH v I) as F. rewrite (mem_atom_congr _ _ (used_names g) E) in F.
+      rewrite used_names_var in F; auto. }
+    assert (CASES : is_var g x = true \/ exists v, In v vs /\ x = AStr v).
+    { rewrite is_var_mk in X. apply orb_true_iff in X. destruct X as [X|X].
+      - apply mem_atom_true in X. destruct X as (b & Ib & E). apply in_map_iff in Ib.
+        destruct Ib as (t' & <- & It'). apply rtriples_src in It'.
+        destruct It' as [(t0 & I0 & E0)|(v0 & I0 & E0)]; rewrite E0 in E.
+        + left. rewrite (is_var_congr g _ _ E). apply src_is_var. auto.
+        + right. exists v0. split; auto. apply atom_eqb_astr_r in E. auto.
+      - left. destruct (graph_top g) as [tp|] eqn:GT; simpl in X; [|discriminate].
+        rewrite orb_false_r in X. rewrite (is_var_congr g _ _ X). apply graph_top_is_var. auto. }
+    destruct CASES as [OLD|(v & I & ->)].
+    + destruct (V x OLD) as [A B]. split; auto.
+      rewrite cnt_rtriples_old; auto; try lia.
+    + split; auto. apply cnt_rtriples_new; auto.
+      * intros t It. destruct (atom_eqb (tsrc t) (AStr v)) eqn:E; auto.
+        rewrite atom_eqb_sym in E. rewrite (OLDNEW (tsrc t) v) in E; auto. apply src_is_var. auto.
+      * eapply names_ok_nodup; eauto.
+Qed.
+
+
+(* ------------------------------------------------------------------ *)
+(** * reify_attributes (C12) *)
+
+Lemma tsrc_mk : forall (s : atom) (r : str) (x : atom), tsrc (s, r, x) = s. Proof. reflexivity. Qed.
+Lemma trole_mk : forall (s : atom) (r : str) (x : atom), trole (s, r, x) = r. Proof. reflexivity. Qed.
+Lemma ttgt_mk : forall (s : atom) (r : str) (x : atom), ttgt (s, r, x) = x. Proof. reflexivity. Qed.
+Ltac proj := rewrite ?colonize_src, ?colonize_tgt, ?is_inst_colonize, ?tsrc_mk, ?trole_mk, ?ttgt_mk.
+
+Lemma count_attr_cons : forall V t ts,
+  count_attr V (t :: ts) = (if is_attr_of V t then 1 else 0) + count_attr V ts.
+Proof. intros. unfold count_attr. simpl. destruct (is_attr_of V t); auto. Qed.
+
+Lemma is_attr_not_inst : forall V t, is_attr_of V t = true -> is_inst t = false.
+Proof. intros V t H. unfold is_attr_of in H. apply andb_true_iff in H. destruct H as [H _]. apply negb_true_iff in H. auto. Qed.
+
+Lemma colon_inst_id : forall r, has_colon r = true -> colon_inst r = str_eqb r INSTANCE.
+Proof. intros. unfold colon_inst. rewrite ensure_colon_id; auto. Qed.
+
+Lemma cnt_atriples_old : forall V ts vs x,
+  (forall t, In t ts -> has_colon (trole t) = true) ->
+  (forall v, In v vs -> atom_eqb (AStr v) x = false) ->
+  count_attr V ts <= length vs ->
+  inst_count (map colonize (atriples V ts vs)) x = inst_count ts x.
+Proof.
+  intros V ts. induction ts as [|t ts IH]; intros vs x C N L; simpl; auto.
+  assert (C' : forall t0, In t0 ts -> has_colon (trole t0) = true) by (intros; apply C; right; auto).
+  rewrite count_attr_cons in L. destruct (is_attr_of V t) eqn:A.
+  - destruct vs as [|v vs]; [simpl in L; lia|].
+    assert (NV : atom_eqb (AStr v) x = false) by (apply N; left; auto).
+    pose proof (is_attr_not_inst _ _ A) as NI.
+    simpl map. rewrite !inst_count_cons. rewrite inst_hit_old_new by auto.
+    unfold inst_hit at 1 2. proj.
+    rewrite colon_inst_id by (apply C; left; auto). fold (is_inst t). rewrite NI, !andb_false_r. simpl.
+    apply IH; auto. { intros; apply N; right; auto. } simpl in L. lia.
+  - simpl map. rewrite !inst_count_cons. rewrite colonize_id by (apply C; left; auto).
+    f_equal. apply IH; auto; try (simpl in L; lia).
+Qed.
+
+Lemma cnt_atriples_new : forall V ts vs v,
+  (forall t, In t ts -> has_colon (trole t) = true) ->
+  (forall t, In t ts -> atom_eqb (tsrc t) (AStr v) = false) ->
+  NoDup vs -> length vs = count_attr V ts -> In v vs ->
+  inst_count (map colonize (atriples V ts vs)) (AStr v) = 1.
+Proof.
+  intros V ts. induction ts as [|t ts IH]; intros vs v C S ND L I.
+  - simpl in L. destruct vs; [destruct I|discriminate].
+  - assert (C' : forall t0, In t0 ts -> has_colon (trole t0) = true) by (intros; apply C; right; auto).
+    assert (S' : forall t0, In t0 ts -> atom_eqb (tsrc t0) (AStr v) = false) by (intros; apply S; right; auto).
+    rewrite count_attr_cons in L. simpl atriples. destruct (is_attr_of V t) eqn:A.
+    + destruct vs as [|w vs]; [destruct I|]. simpl in L. inversion ND as [|? ? NI ND']; subst.
+      pose proof (is_attr_not_inst _ _ A) as NT.
+      assert (ST : atom_eqb (tsrc t) (AStr v) = false) by (apply S; left; auto).
+      simpl map. rewrite !inst_count_cons.
+      unfold inst_hit at 1. proj. rewrite ST. simpl.
+      destruct I as [<-|I].
+      * assert (REST : inst_count (map colonize (atriples V ts vs)) (AStr w) = 0).
+        { rewrite cnt_atriples_old; auto; try lia.
+          - apply inst_count_no_src. auto.
+          - intros u Iu. simpl. apply str_eqb_neq. intro E. subst. contradiction. }
+        rewrite REST. unfold inst_hit. proj.
+        rewrite atom_eqb_refl. reflexivity.
+      * assert (NW : atom_eqb (AStr w) (AStr v) = false).
+        { simpl. apply str_eqb_neq. intro E. subst. contradiction. }
+        rewrite inst_hit_old_new by auto. simpl. apply IH; auto; lia.
+    + simpl map. rewrite inst_count_cons. unfold inst_hit. rewrite colonize_src, S by (left; auto).
+      simpl. apply IH; auto.
+Qed.
+
+Lemma atriples_src : forall V ts vs t', In t' (atriples V ts vs) ->
+  (exists t, In t ts /\ tsrc t' = tsrc t) \/ (exists v, In v vs /\ tsrc t' = AStr v).
+Proof.
+  intros V ts. induction ts as [|t ts IH]; intros vs t' H; simpl in H; [destruct H|].
+  destruct (is_attr_of V t).
+  - destruct vs as [|v vs]; [destruct H|]. destruct H as [H|[H|H]].
+    + left. exists t. split; [left; auto|]. subst. reflexivity.
+    + right. exists v. split; [left; auto|]. subst. reflexivity.
+    + destruct (IH _ _ H) as [(t0 & I0 & E)|(v0 & I0 & E)].
+      * left. exists t0. split; auto. right. auto.
+      * right. exists v0. split; auto. right. auto.
+  - destruct H as [<-|H].
+    + left. exists t. split; auto. left. auto.
+    + destruct (IH _ _ H) as [(t0 & I0 & E)|(v0 & I0 & E)].
+      * left. exists t0. split; auto. right. auto.
+      * right. exists v0. split; auto.
+Qed.
+
+(* every old source is still a source *)
+Lemma atriples_keeps_src : forall V ts vs t, count_attr V ts <= length vs -> In t ts ->
+  exists t', In t' (atriples V ts vs) /\ tsrc t' = tsrc t.
+Proof.
+  intros V ts. induction ts as [|t0 ts IH]; intros vs t L I; [destruct I|].
+  rewrite count_attr_cons in L. simpl. destruct (is_attr_of V t0) eqn:A; try rewrite A in L.
+  - destruct vs as [|v vs]; [simpl in L; lia|]. destruct I as [<-|I].
+    + eexists. split; [left; reflexivity|]. reflexivity.
+    + destruct (IH vs t) as (t' & I' & E); auto; try (simpl in L; lia).
+      exists t'. split; auto. right. right. auto.
+  - destruct I as [<-|I].
+    + exists t0. split; auto. left. auto.
+    + destruct (IH vs t) as (t' & I' & E); auto; try (simpl in L; lia).
+      exists t'. split; auto. right. auto.
+Qed.
+
+Lemma reify_attributes_node_graph : forall g g', node_graph g ->
+  reify_attributes g = Ok g' -> node_graph g'.
+Proof.
+  intros g g' NG H. apply reify_attributes_pure in H. destruct H as (vs & N & L & ->).
+  apply node_graph_iff in NG. destruct NG as [C V].
+  apply node_graph_iff. split.
+  - intros t I. rewrite triples_mk in I. apply in_map_iff in I. destruct I as (t0 & <- & _).
+    apply ensure_colon_has.
+  - intros x X. rewrite triples_mk.
+    assert (FRESH : forall v, In v vs -> mem atom_eqb (AStr v) (used_names g) = false)
+      by (intros v I; eapply names_ok_notin; eauto).
+    assert (OLDNEW : forall y v, is_var g y = true -> In v vs -> atom_eqb (AStr v) y = false).
+    { intros y v Y I. destruct (atom_eqb (AStr v) y) eqn:E; auto.
+      pose proof (FRESH v I) as F. rewrite (mem_atom_congr _ _ (used_names g) E) in F.
+      rewrite used_names_var in F; auto. }
+    assert (CASES : is_var g x = true \/ exists v, In v vs /\ x = AStr v).
+    { rewrite is_var_mk in X. apply orb_true_iff in X. destruct X as [X|X].
+      - apply mem_atom_true in X. destruct X as (b & Ib & E). apply in_map_iff in Ib.
+        destruct Ib as (t' & <- & It'). apply atriples_src in It'.
+        destruct It' as [(t0 & I0 & E0)|(v0 & I0 & E0)]; rewrite E0 in E.
+        + left. rewrite (is_var_congr g _ _ E). apply src_is_var. auto.
+        + right. exists v0. split; auto. apply atom_eqb_astr_r in E. auto.
+      - left. destruct (graph_top g) as [tp|] eqn:GT; simpl in X; [|discriminate].
+        rewrite orb_false_r in X. rewrite (is_var_congr g _ _ X). apply graph_top_is_var. auto. }
+    destruct CASES as [OLD|(v & I & ->)].
+    + destruct (V x OLD) as [A B]. split; auto.
+      rewrite cnt_atriples_old; auto; try lia.
+    + split; auto. apply cnt_atriples_new; auto.
+      * intros t It. destruct (atom_eqb (tsrc t) (AStr v)) eqn:E; auto.
+        rewrite atom_eqb_sym in E. rewrite (OLDNEW (tsrc t) v) in E; auto. apply src_is_var. auto.
+      * eapply names_ok_nodup; eauto.
+Qed.
+
+(* no attribute is left *)
+Lemma attributes_all : forall g,
+  attributes g None None None =
+  filter (fun x => negb (str_eqb (trole x) INSTANCE) && negb (is_var g (ttgt x))) (triples g).
+Proof.
+  intros. unfold attributes, filter_triples. simpl.
+  f_equal. induction (triples g); simpl; auto. f_equal. auto.
+Qed.
+
+Lemma filter_nil : forall {A} (f : A -> bool) l, (forall x, In x l -> f x = false) -> filter f l = [].
+Proof.
+  induction l as [|x l IH]; intros H; simpl; auto. rewrite H by (left; auto). apply IH. intros. apply H. right. auto.
+Qed.
+
+Lemma atriples_cases : forall V ts vs t', In t' (atriples V ts vs) ->
+  (In t' ts /\ is_attr_of V t' = false) \/
+  (exists t v, In t ts /\ In v vs /\ In (AStr v, INSTANCE, ttgt t) (atriples V ts vs) /\
+               (t' = (tsrc t, trole t, AStr v) \/ t' = (AStr v, INSTANCE, ttgt t))).
+Proof.
+  intros V ts. induction ts as [|t ts IH]; intros vs t' H; simpl in H; [destruct H|].
+  simpl atriples. destruct (is_attr_of V t) eqn:A.
+  - destruct vs as [|v vs]; [destruct H|]. destruct H as [H|[H|H]].
+    + right. exists t, v. split; [left; auto|]. split; [left; auto|]. split; [right; left; auto|]. left; auto.
+    + right. exists t, v. split; [left; auto|]. split; [left; auto|]. split; [right; left; auto|]. right; auto.
+    + destruct (IH _ _ H) as [[I0 A0]|(t0 & v0 & I0 & I1 & I2 & E)].
+      * left. split; auto. right. auto.
+      * right. exists t0, v0. split; [right; auto|]. split; [right; auto|]. split; [right; right; auto|]. auto.
+  - destruct H as [<-|H].
+    + left. split; auto. left. auto.
+    + destruct (IH _ _ H) as [[I0 A0]|(t0 & v0 & I0 & I1 & I2 & E)].
+      * left. split; auto. right. auto.
+      * right. exists t0, v0. split; [right; auto|]. split; [auto|]. split; [right; auto|]. auto.
+Qed.
+
+Lemma reify_attributes_no_attr : forall g g', reify_attributes g = Ok g' ->
+  attributes g' None None None = [].
+Proof.
+  intros g g' H. apply reify_attributes_pure in H. destruct H as (vs & N & L & ->).
+  rewrite attributes_all. apply filter_nil. intros t' I. rewrite triples_mk in I.
+  apply in_map_iff in I. destruct I as (t0 & <- & I0).
+  apply andb_false_iff. rewrite !negb_false_iff. rewrite colonize_tgt.
+  fold (is_inst (colonize t0)). rewrite is_inst_colonize.
+  set (g' := mk_graph _ _ _ _).
+  assert (SRC : forall t1, In t1 (atriples (variables g) (triples g) vs) -> is_var g' (tsrc t1) = true).
+  { intros t1 I1. unfold g'. rewrite is_var_mk. apply orb_true_iff. left.
+    apply mem_atom_in. apply in_map. auto. }
+  destruct (atriples_cases _ _ _ _ I0) as [[I1 A]|(t & v & I1 & I2 & I3 & [->| ->])].
+  - unfold is_attr_of in A. apply andb_false_iff in A. rewrite !negb_false_iff in A. destruct A as [A|A].
+    + left. unfold colon_inst. apply str_eqb_eq in A. rewrite A. reflexivity.
+    + right. fold (is_var g (ttgt t0)) in A. rewrite is_var_spec in A. apply orb_true_iff in A.
+      destruct A as [A|A].
+      * apply mem_atom_true in A. destruct A as (b & Ib & E). apply in_map_iff in Ib.
+        destruct Ib as (t1 & <- & I4).
+        destruct (atriples_keeps_src (variables g) (triples g) vs t1) as (t2 & I5 & E5); auto; try lia.
+        rewrite (is_var_congr g' _ _ E), <- E5. apply SRC. auto.
+      * unfold g'. rewrite is_var_mk. apply orb_true_iff. right.
+        unfold graph_top. destruct (gtop g); auto. simpl in A. discriminate.
+  - right. proj. apply (SRC _ I3).
+  - left. reflexivity.
+Qed.
+
+(* contracting the new nodes gives the triples back *)
+Lemma contract_atriples : forall old V ts vs,
+  (forall t, In t ts -> has_colon (trole t) = true /\ mem atom_eqb (ttgt t) old = true) ->
+  (forall v, In v vs -> mem atom_eqb (AStr v) old = false) ->
+  count_attr V ts <= length vs ->
+  contract_attrs old (map colonize (atriples V ts vs)) = ts.
+Proof.
+  intros old V ts. induction ts as [|t ts IH]; intros vs H N L; auto.
+  assert (H' : forall t0, In t0 ts -> has_colon (trole t0) = true /\ mem atom_eqb (ttgt t0) old = true)
+    by (intros; apply H; right; auto).
+  destruct (H t) as [Ct Mt]; [left; auto|].
+  rewrite count_attr_cons in L. simpl atriples. destruct (is_attr_of V t) eqn:A.
+  - destruct vs as [|v vs]; [simpl in L; lia|].
+    simpl map. cbn [contract_attrs].
+    pose proof (is_attr_not_inst _ _ A) as NI.
+    proj. rewrite colon_inst_id by auto.
+    fold (is_inst t). rewrite NI.
+    rewrite (N v) by (left; auto). rewrite atom_eqb_refl.
+    change (colon_inst INSTANCE) with true. cbn [negb andb].
+    replace (trole (colonize (tsrc t, trole t, AStr v))) with (trole t)
+      by (unfold colonize; proj; rewrite ensure_colon_id; auto).
+    rewrite IH; auto.
+    + destruct t as [[s r] x]. reflexivity.
+    + intros. apply N. right. auto.
+    + simpl in L. lia.
+  - simpl map. rewrite colonize_id by auto.
+    assert (E : contract_attrs old (t :: map colonize (atriples V ts vs)) = t :: contract_attrs old (map colonize (atriples V ts vs))).
+    { cbn [contract_attrs]. destruct (map colonize (atriples V ts vs)) as [|t2 rest'] eqn:M; auto.
+      rewrite Mt. rewrite andb_false_r. reflexivity. }
+    rewrite E, IH; auto; try (simpl in L; lia).
+Qed.
+
+Lemma reify_attributes_contract : forall g g', (forall t, In t (triples g) -> has_colon (trole t) = true) ->
+  reify_attributes g = Ok g' -> contract_attrs (used_names g) (triples g') = triples g.
+Proof.
+  intros g g' C H. apply reify_attributes_pure in H. destruct H as (vs & N & L & ->).
+  rewrite triples_mk. apply contract_atriples; try lia.
+  - intros t I. split; auto. unfold used_names. rewrite mem_app. apply orb_true_iff. right.
+    apply mem_atom_in. apply in_map. auto.
+  - intros v I. eapply names_ok_notin; eauto.
+Qed.
+
+
+(* ------------------------------------------------------------------ *)
+(** * indicate_branches (C12) *)
+
+Lemma node_graph_vars_str : forall g, node_graph g -> vars_are_str g.
+Proof. intros g H x V. apply node_graph_iff in H. destruct H as [_ H]. apply H. auto. Qed.
+
+Lemma indicate_branches_pure : forall m g, vars_are_str g ->
+  indicate_branches m g = Ok (mk_graph (itriples m g (triples g)) (graph_top g) (epidata g) (gmeta g)).
+Proof. intros. unfold indicate_branches. rewrite indicate_loop_pure; auto. Qed.
+
+Lemma indicate_branches_total : forall m g, vars_are_str g -> exists g', indicate_branches m g = Ok g'.
+Proof. intros. rewrite indicate_branches_pure; eauto. Qed.
+
+Lemma indicated_spec : forall m g t, In t (triples g) ->
+  (indicated m g t = [] /\ indicates g t = false) \/
+  (exists a b, indicated m g t = [(a, top_role m, b)] /\ indicates g t = true /\ is_var g a = true).
+Proof.
+  intros m g t I. unfold indicated, indicates. destruct (get_pushed_variable g t) as [v|]; auto.
+  destruct (atom_eqb v (ttgt t)) eqn:E1; simpl.
+  - right. exists (tsrc t), (ttgt t). repeat split; auto. apply src_is_var; auto.
+  - destruct (atom_eqb v (tsrc t) && is_var g (ttgt t)) eqn:E2; auto.
+    right. exists (ttgt t), (tsrc t). repeat split; auto.
+    apply andb_true_iff in E2. tauto.
+Qed.
+
+Lemma cnt_itriples : forall m g ts x, colon_inst (top_role m) = false ->
+  (forall t, In t ts -> has_colon (trole t) = true /\ In t (triples g)) ->
+  inst_count (map colonize (itriples m g ts)) x = inst_count ts x.
+Proof.
+  intros m g ts x T. induction ts as [|t ts IH]; intros H; auto.
+  unfold itriples in *. simpl flat_map. rewrite <- app_assoc. simpl app.
+  destruct (H t) as [C I]; [left; auto|].
+  assert (H' : forall t0, In t0 ts -> has_colon (trole t0) = true /\ In t0 (triples g)) by (intros; apply H; right; auto).
+  destruct (indicated_spec m g t I) as [[E _]|(a & b & E & _ & _)]; rewrite E; simpl app; simpl map.
+  - rewrite !inst_count_cons, colonize_id, IH; auto.
+  - rewrite !inst_count_cons, (colonize_id t), IH; auto.
+    unfold inst_hit. rewrite is_inst_colonize. rewrite trole_mk, T, andb_false_r. reflexivity.
+Qed.
+
+Lemma itriples_src : forall m g ts t', (forall t, In t ts -> In t (triples g)) ->
+  In t' (itriples m g ts) -> is_var g (tsrc t') = true.
+Proof.
+  intros m g ts t' H I. unfold itriples in I. apply in_flat_map in I. destruct I as (t & It & I).
+  apply in_app_or in I. destruct I as [I|[<-|[]]].
+  - destruct (indicated_spec m g t (H _ It)) as [[E _]|(a & b & E & _ & V)]; rewrite E in I.
+    + destruct I.
+    + destruct I as [<-|[]]. rewrite tsrc_mk. auto.
+  - apply src_is_var. auto.
+Qed.
+
+Lemma itriples_keeps : forall m g ts t, In t ts -> In t (itriples m g ts).
+Proof.
+  intros. unfold itriples. apply in_flat_map. exists t. split; auto. apply in_or_app. right. left. auto.
+Qed.
+
+Lemma indicate_branches_node_graph : forall m g g', node_graph g -> colon_inst (top_role m) = false ->
+  indicate_branches m g = Ok g' -> node_graph g'.
+Proof.
+  intros m g g' NG T H. rewrite indicate_branches_pure in H by (apply node_graph_vars_str; auto).
+  inversion H; subst. clear H.
+  apply node_graph_iff in NG. destruct NG as [C V]. apply node_graph_iff. split.
+  - intros t I. rewrite triples_mk in I. apply in_map_iff in I. destruct I as (t0 & <- & _).
+    apply ensure_colon_has.
+  - intros x X. rewrite triples_mk.
+    assert (OLD : is_var g x = true).
+    { rewrite is_var_mk in X. apply orb_true_iff in X. destruct X as [X|X].
+      - apply mem_atom_true in X. destruct X as (b & Ib & E). apply in_map_iff in Ib.
+        destruct Ib as (t' & <- & It'). rewrite (is_var_congr g _ _ E).
+        eapply itriples_src; eauto.
+      - destruct (graph_top g) as [tp|] eqn:GT; simpl in X; [|discriminate].
+        rewrite orb_false_r in X. rewrite (is_var_congr g _ _ X). apply graph_top_is_var. auto. }
+    destruct (V x OLD) as [A B]. split; auto. rewrite cnt_itriples; auto.
+Qed.
+
+Lemma itriples_length : forall m g ts, (forall t, In t ts -> In t (triples g)) ->
+  length (itriples m g ts) = length ts + length (filter (indicates g) ts).
+Proof.
+  intros m g ts. induction ts as [|t ts IH]; intros H; auto.
+  unfold itriples in *. simpl flat_map. rewrite !app_length, IH by (intros; apply H; right; auto).
+  simpl filter. destruct (indicated_spec m g t (H t (or_introl eq_refl))) as [[E F]|(a & b & E & F & _)]; rewrite E, F; simpl; lia.
+Qed.
+
+Lemma itriples_remove : forall m g ts,
+  (forall t, In t ts -> has_colon (trole t) = true /\ str_eqb (trole t) (ensure_colon (top_role m)) = false /\ In t (triples g)) ->
+  filter (fun t => negb (str_eqb (trole t) (ensure_colon (top_role m)))) (map colonize (itriples m g ts)) = ts.
+Proof.
+  intros m g ts. induction ts as [|t ts IH]; intros H; auto.
+  unfold itriples in *. simpl flat_map. rewrite <- app_assoc. simpl app. rewrite map_app, filter_app.
+  destruct (H t) as (C & R & I); [left; auto|].
+  assert (E1 : filter (fun t0 => negb (str_eqb (trole t0) (ensure_colon (top_role m)))) (map colonize (indicated m g t)) = []).
+  { destruct (indicated_spec m g t I) as [[E _]|(a & b & E & _ & _)]; rewrite E; auto.
+    simpl. unfold colonize at 1. rewrite !trole_mk. rewrite str_eqb_refl. reflexivity. }
+  rewrite E1. simpl. rewrite colonize_id by auto. rewrite R. simpl. f_equal.
+  apply IH. intros. apply H. right. auto.
+Qed.
+
+
+(* ------------------------------------------------------------------ *)
+(** * The dereification agenda as a function of the variable *)
+
+Definition insts_of (ts : list triple) (v : atom) : list triple :=
+  filter (fun t => atom_eqb (tsrc t) v && is_inst t) ts.
+Definition others_of (ts : list triple) (v : atom) : list triple :=
+  filter (fun t => atom_eqb (tsrc t) v && negb (is_inst t)) ts.
+Definition fixed_of (g : graph) : list atom :=
+  top_atom g :: map ttgt (filter (fun t => negb (is_inst t)) (triples g)).
+Fixpoint last_opt {A} (l : list A) : option A :=
+  match l with
+  | [] => None
+  | x :: l' => match last_opt l' with Some y => Some y | None => Some x end
+  end.
+
+Lemma insts_of_cons : forall t ts v,
+  insts_of (t :: ts) v = if atom_eqb (tsrc t) v && is_inst t then t :: insts_of ts v else insts_of ts v.
+Proof. reflexivity. Qed.
+Lemma others_of_cons : forall t ts v,
+  others_of (t :: ts) v = if atom_eqb (tsrc t) v && negb (is_inst t) then t :: others_of ts v else others_of ts v.
+Proof. reflexivity. Qed.
+
+Definition scan_of (ts : list triple) (s : agenda_scan) : agenda_scan := fold_left agenda_scan_step ts s.
+
+Lemma scan_step_eq : forall inst other fixed t,
+  agenda_scan_step (inst, other, fixed) t =
+  if is_inst t then (dset atom_eqb (tsrc t) t inst, other, fixed)
+  else (inst,
+        match dget atom_eqb (tsrc t) other with
+        | None => dset atom_eqb (tsrc t) [t] other
+        | Some l => dset atom_eqb (tsrc t) (l ++ [t]) other
+        end, fixed ++ [ttgt t]).
+Proof. reflexivity. Qed.
+
+Lemma scan_fixed : forall ts inst other fixed,
+  snd (scan_of ts (inst, other, fixed)) = fixed ++ map ttgt (filter (fun t => negb (is_inst t)) ts).
+Proof.
+  unfold scan_of. induction ts as [|t ts IH]; intros inst other fixed; cbn [fold_left].
+  - simpl. rewrite app_nil_r. auto.
+  - rewrite scan_step_eq. simpl filter. destruct (is_inst t); simpl negb; cbv iota.
+    + apply IH.
+    + rewrite IH. simpl. rewrite <- app_assoc. reflexivity.
+Qed.
+
+Lemma scan_other : forall ts inst other fixed v,
+  dget atom_eqb v (snd (fst (scan_of ts (inst, other, fixed)))) =
+  match dget atom_eqb v other, others_of ts v with
+  | Some l, l' => Some (l ++ l')
+  | None, [] => None
+  | None, l' => Some l'
+  end.
+Proof.
+  unfold scan_of. induction ts as [|t ts IH]; intros inst other fixed v; cbn [fold_left].
+  - simpl. destruct (dget atom_eqb v other); auto. rewrite app_nil_r. auto.
+  - rewrite scan_step_eq, others_of_cons. destruct (is_inst t) eqn:I; simpl negb.
+    + rewrite andb_false_r. apply IH.
+    + rewrite andb_true_r. rewrite IH. rewrite (atom_eqb_sym (tsrc t) v).
+      destruct (atom_eqb v (tsrc t)) eqn:E.
+      * rewrite <- (A_dget_congr other _ _ E).
+        destruct (dget atom_eqb v other) as [l0|] eqn:G; rewrite A_dget_dset, E.
+        -- rewrite <- app_assoc. reflexivity.
+        -- reflexivity.
+      * destruct (dget atom_eqb (tsrc t) other) as [l0|]; rewrite A_dget_dset, E; reflexivity.
+Qed.
+
+Lemma scan_inst : forall ts inst other fixed v,
+  dget atom_eqb v (fst (fst (scan_of ts (inst, other, fixed)))) =
+  match last_opt (insts_of ts v) with Some t => Some t | None => dget atom_eqb v inst end.
+Proof.
+  unfold scan_of. induction ts as [|t ts IH]; intros inst other fixed v; cbn [fold_left]; auto.
+  rewrite scan_step_eq, insts_of_cons. destruct (is_inst t) eqn:I.
+  - rewrite andb_true_r. rewrite IH. rewrite A_dget_dset. rewrite (atom_eqb_sym (tsrc t) v).
+    destruct (atom_eqb v (tsrc t)); simpl; destruct (last_opt (insts_of ts v)); auto.
+  - rewrite andb_false_r. destruct (dget atom_eqb (tsrc t) other); apply IH.
+Qed.
+
+Lemma scan_inst_nodup : forall ts inst other fixed,
+  nodup_b atom_eqb (dkeys inst) = true ->
+  nodup_b atom_eqb (dkeys (fst (fst (scan_of ts (inst, other, fixed))))) = true.
+Proof.
+  unfold scan_of. induction ts as [|t ts IH]; intros inst other fixed H; cbn [fold_left]; auto.
+  rewrite scan_step_eq. destruct (is_inst t).
+  - apply IH. apply A_nodup_dset. auto.
+  - destruct (dget atom_eqb (tsrc t) other); apply IH; auto.
+Qed.
+
+Lemma scan_fixed' : forall ts (s : agenda_scan),
+  snd (scan_of ts s) = snd s ++ map ttgt (filter (fun t => negb (is_inst t)) ts).
+Proof. intros ts [[i o] f]. apply scan_fixed. Qed.
+Lemma scan_other' : forall ts (s : agenda_scan) v,
+  dget atom_eqb v (snd (fst (scan_of ts s))) =
+  match dget atom_eqb v (snd (fst s)), others_of ts v with
+  | Some l, l' => Some (l ++ l')
+  | None, [] => None
+  | None, l' => Some l'
+  end.
+Proof. intros ts [[i o] f] v. apply scan_other. Qed.
+Lemma scan_inst' : forall ts (s : agenda_scan) v,
+  dget atom_eqb v (fst (fst (scan_of ts s))) =
+  match last_opt (insts_of ts v) with Some t => Some t | None => dget atom_eqb v (fst (fst s)) end.
+Proof. intros ts [[i o] f] v. apply scan_inst. Qed.
+Lemma scan_inst_nodup' : forall ts (s : agenda_scan),
+  nodup_b atom_eqb (dkeys (fst (fst s))) = true ->
+  nodup_b atom_eqb (dkeys (fst (fst (scan_of ts s)))) = true.
+Proof. intros ts [[i o] f]. apply scan_inst_nodup. Qed.
+
+(* agenda_item only looks at its own entry of [other], and respects atom_eqb on the variable *)
+Lemma agenda_item_other_ext : forall m g o1 o2 fixed v i,
+  dget atom_eqb v o1 = dget atom_eqb v o2 ->
+  agenda_item m g o1 fixed v i = agenda_item m g o2 fixed v i.
+Proof. intros. unfold agenda_item. rewrite H. reflexivity. Qed.
+
+Lemma agenda_item_congr : forall m g other fixed v k i, atom_eqb v k = true ->
+  agenda_item m g other fixed v i = agenda_item m g other fixed k i.
+Proof.
+  intros. unfold agenda_item.
+  rewrite (mem_atom_congr v k fixed H), (A_dget_congr other v k H).
+  destruct (mem atom_eqb k fixed); auto.
+  destruct (dget atom_eqb k other) as [[|o1 [|o2 [|o3 l]]]|]; auto.
+  rewrite (atom_eqb_congr_r v k (pushed_value g o2) H). reflexivity.
+Qed.
+
+Definition out_opt {A} (o : outcome (option A)) : option A := match o with Ok r => r | _ => None end.
+
+Lemma agenda_items_lookup : forall m g other fixed inst ag,
+  nodup_b atom_eqb (dkeys inst) = true ->
+  agenda_items m g other fixed inst = Ok ag ->
+  forall v, dget atom_eqb v ag =
+    match dget atom_eqb v inst with
+    | Some i => out_opt (agenda_item m g other fixed v i)
+    | None => None
+    end.
+Proof.
+  intros m g other fixed inst. induction inst as [|[k i] inst IH]; intros ag ND H v; simpl in H.
+  - inversion H. reflexivity.
+  - apply bind_ok in H. destruct H as (e & E1 & H). apply bind_ok in H. destruct H as (rest & E2 & H).
+    inversion H; subst. clear H.
+    simpl in ND. apply andb_true_iff in ND. destruct ND as [ND1 ND2]. apply negb_true_iff in ND1.
+    specialize (IH rest ND2 E2 v). simpl dget at 2.
+    destruct (atom_eqb v k) eqn:E.
+    + rewrite (agenda_item_congr m g other fixed v k i E), E1. simpl.
+      destruct e as [x|].
+      * simpl. rewrite E. reflexivity.
+      * rewrite IH.
+        assert (G : dget atom_eqb v inst = None).
+        { apply dget_none_notmem. rewrite (A_mem_congr _ v k E). auto. }
+        rewrite G. reflexivity.
+    + destruct e as [x|]; auto. simpl. rewrite E. auto.
+Qed.
+
+Definition own_entry (ts : list triple) (v : atom) : dict atom (list triple) :=
+  match others_of ts v with [] => [] | l => [(v, l)] end.
+
+Definition collapsible (m : model) (g : graph) (v : atom) : option agenda_entry :=
+  match last_opt (insts_of (triples g) v) with
+  | None => None
+  | Some i => out_opt (agenda_item m g (own_entry (triples g) v) (fixed_of g) v i)
+  end.
+
+Lemma agenda_spec : forall m g ag, dereify_agenda m g = Ok ag ->
+  forall v, dget atom_eqb v ag = collapsible m g v.
+Proof.
+  intros m g ag H v. unfold dereify_agenda, agenda_scan_all in H.
+  match type of H with context [fold_left agenda_scan_step (triples g) ?init] =>
+    pose proof (scan_inst' (triples g) init v) as SI;
+    pose proof (scan_other' (triples g) init v) as SO;
+    pose proof (scan_fixed' (triples g) init) as SF;
+    pose proof (scan_inst_nodup' (triples g) init eq_refl) as SN;
+    unfold scan_of in *;
+    remember (fold_left agenda_scan_step (triples g) init) as sc eqn:SC; clear SC
+  end.
+  destruct sc as [[inst other] fixed].
+  simpl fst in *. simpl snd in *.
+  rewrite (agenda_items_lookup m g other fixed inst ag SN H v). unfold collapsible.
+  rewrite SI. simpl dget. destruct (last_opt (insts_of (triples g) v)) as [i|]; auto.
+  f_equal. subst fixed. change ([top_atom g] ++ ?x) with (top_atom g :: x). fold (fixed_of g).
+  apply agenda_item_other_ext. rewrite SO. unfold own_entry. simpl dget.
+  destruct (others_of (triples g) v); simpl; auto. rewrite atom_eqb_refl. auto.
+Qed.
+
+(* what an agenda entry says *)
+Lemma collapsible_inv : forall m g v first d epis, collapsible m g v = Some (first, d, epis) ->
+  exists i o1 o2 second,
+    last_opt (insts_of (triples g) v) = Some i /\
+    mem atom_eqb v (fixed_of g) = false /\
+    others_of (triples g) v = [o1; o2] /\
+    is_concept_dereifiable m (ttgt i) = true /\
+    ((first = o1 /\ second = o2 /\ atom_eqb (pushed_value g o2) v = false) \/
+     (first = o2 /\ second = o1 /\ atom_eqb (pushed_value g o2) v = true)) /\
+    dereify m i first second = Ok d /\
+    is_var g (tsrc d) = true /\
+    epis = match dget triple_eqb i (alignments g) with Some a => aln_to_role_epi a | None => [] end
+           ++ filter is_not_raln (epis_of g second).
+Proof.
+  intros m g v first d epis H. unfold collapsible in H.
+  destruct (last_opt (insts_of (triples g) v)) as [i|]; [|discriminate].
+  unfold agenda_item, own_entry in H.
+  destruct (mem atom_eqb v (fixed_of g)) eqn:F; [discriminate|].
+  destruct (others_of (triples g) v) as [|o1 l] eqn:O; [discriminate|].
+  simpl dget in H. rewrite atom_eqb_refl in H.
+  destruct l as [|o2 [|o3 l]]; try discriminate.
+  destruct (is_concept_dereifiable m (ttgt i)) eqn:CD; [|discriminate].
+  destruct (atom_eqb (pushed_value g o2) v) eqn:SW.
+  - destruct (dereify m i o2 o1) as [dd| | | | | | | |] eqn:D; try discriminate.
+    destruct (is_var g (tsrc dd)) eqn:V; simpl in H; [|discriminate].
+    inversion H; subst. exists i, o1, first, o1. repeat split; auto.
+  - destruct (dereify m i o1 o2) as [dd| | | | | | | |] eqn:D; try discriminate.
+    destruct (is_var g (tsrc dd)) eqn:V; simpl in H; [|discriminate].
+    inversion H; subst. exists i, first, o2, o2. repeat split; auto.
+Qed.
+
+
+(* ------------------------------------------------------------------ *)
+(** * Pure form of dereify_edges; it keeps node_graph (C12, F17) *)
+
+Fixpoint dtriples (ag : dict atom agenda_entry) (ts : list triple) : list triple :=
+  match ts with
+  | [] => []
+  | t :: ts' =>
+      match dget atom_eqb (tsrc t) ag with
+      | Some (first, d, _) => if triple_eqb t first then d :: dtriples ag ts' else dtriples ag ts'
+      | None => t :: dtriples ag ts'
+      end
+  end.
+
+Lemma dloop_triples : forall (ag : dict atom agenda_entry) ts ed, fst (dereify_edges_loop ag ts ed) = dtriples ag ts.
+Proof.
+  intros ag ts. induction ts as [|t ts IH]; intros ed; cbn [dereify_edges_loop dtriples]; auto.
+  destruct (dget atom_eqb (tsrc t) ag) as [[[first d] epis]|].
+  - destruct (triple_eqb t first).
+    + match goal with |- context [dereify_edges_loop ag ts ?e] => specialize (IH e); destruct (dereify_edges_loop ag ts e) end.
+      simpl in *. rewrite IH. auto.
+    + apply IH.
+  - specialize (IH ed). destruct (dereify_edges_loop ag ts ed). simpl in *. rewrite IH. auto.
+Qed.
+
+Lemma dereify_edges_pure : forall m g g', dereify_edges m g = Ok g' ->
+  exists ag, dereify_agenda m g = Ok ag /\
+    g' = mk_graph (dtriples ag (triples g)) (graph_top g)
+                  (snd (dereify_edges_loop ag (triples g) (epidata g))) (gmeta g).
+Proof.
+  intros m g g' H. unfold dereify_edges in H. apply bind_ok in H. destruct H as (ag & E & H).
+  exists ag. split; auto. rewrite <- (dloop_triples ag (triples g) (epidata g)).
+  destruct (dereify_edges_loop ag (triples g) (epidata g)). simpl. congruence.
+Qed.
+
+Lemma find_some_in : forall {A} (f : A -> bool) l x, find f l = Some x -> In x l /\ f x = true.
+Proof. intros. apply find_some. auto. Qed.
+
+Lemma deif_rows_in : forall m c r s t, In (r, s, t) (deif_rows m c) -> In (r, c, s, t) (reifs m).
+Proof.
+  intros m c r s t H. unfold deif_rows in H. apply in_flat_map in H.
+  destruct H as ([[[r0 c0] s0] t0] & I1 & I2). destruct (str_eqb c0 c) eqn:E; [|destruct I2].
+  apply str_eqb_eq in E. subst. destruct I2 as [I2|[]]. inversion I2; subst. auto.
+Qed.
+
+Lemma dereify_ok_inv : forall m i a b d, dereify m i a b = Ok d ->
+  exists c s t, In (trole d, c, s, t) (reifs m) /\
+    ((tsrc d = ttgt a /\ ttgt d = ttgt b) \/ (tsrc d = ttgt b /\ ttgt d = ttgt a)).
+Proof.
+  intros m i a b d H. unfold dereify in H.
+  destruct (negb (str_eqb (trole i) INSTANCE)); [discriminate|].
+  destruct (negb (atom_eqb (tsrc i) (tsrc a) && atom_eqb (tsrc a) (tsrc b))); [discriminate|].
+  destruct (ttgt i) as [|c|]; try discriminate.
+  destruct (deif_rows m c) as [|p l] eqn:D; [discriminate|]. rewrite <- D in H.
+  match type of H with context [find ?f (deif_rows m c)] => destruct (find f (deif_rows m c)) as [[[r s] t]|] eqn:F1 end.
+  - apply find_some_in in F1. destruct F1 as [I _]. inversion H; subst.
+    exists c, s, t. split; [apply deif_rows_in; auto|]. left. auto.
+  - match type of H with context [find ?f (deif_rows m c)] => destruct (find f (deif_rows m c)) as [[[r s] t]|] eqn:F2 end; [|discriminate].
+    apply find_some_in in F2. destruct F2 as [I _]. inversion H; subst.
+    exists c, s, t. split; [apply deif_rows_in; auto|]. right. auto.
+Qed.
+
+Lemma collapsible_fixed_none : forall m g v, mem atom_eqb v (fixed_of g) = true -> collapsible m g v = None.
+Proof.
+  intros m g v H. unfold collapsible. destruct (last_opt (insts_of (triples g) v)); auto.
+  unfold agenda_item. rewrite H. reflexivity.
+Qed.
+
+Lemma others_of_in : forall ts v t, In t (others_of ts v) ->
+  In t ts /\ atom_eqb (tsrc t) v = true /\ is_inst t = false.
+Proof.
+  intros ts v t H. unfold others_of in H. apply filter_In in H. destruct H as [I C].
+  apply andb_true_iff in C. destruct C as [C1 C2]. apply negb_true_iff in C2. auto.
+Qed.
+
+Lemma nonint_tgt_fixed : forall g t, In t (triples g) -> is_inst t = false ->
+  mem atom_eqb (ttgt t) (fixed_of g) = true.
+Proof.
+  intros g t I N. unfold fixed_of. simpl. apply orb_true_iff. right.
+  apply mem_atom_in. apply in_map. apply filter_In. split; auto. rewrite N. auto.
+Qed.
+
+(* the facts C12 needs about one agenda entry *)
+Lemma agenda_entry_facts : forall m g (ag : dict atom agenda_entry) v first d epis, dereify_agenda m g = Ok ag ->
+  dget atom_eqb v ag = Some (first, d, epis) ->
+  is_var g (tsrc d) = true /\ dget atom_eqb (tsrc d) ag = None /\
+  exists c s t, In (trole d, c, s, t) (reifs m).
+Proof.
+  intros m g ag v first d epis H G. rewrite (agenda_spec m g ag H) in G.
+  apply collapsible_inv in G. destruct G as (i & o1 & o2 & second & _ & _ & O & _ & SW & D & V & _).
+  apply dereify_ok_inv in D. destruct D as (c & s & t & I & SRC).
+  split; auto. split; [|eauto].
+  rewrite (agenda_spec m g ag H). apply collapsible_fixed_none.
+  assert (I1 : In o1 (others_of (triples g) v)) by (rewrite O; left; auto).
+  assert (I2 : In o2 (others_of (triples g) v)) by (rewrite O; right; left; auto).
+  apply others_of_in in I1. apply others_of_in in I2.
+  destruct I1 as (A1 & _ & B1), I2 as (A2 & _ & B2).
+  destruct SW as [(-> & -> & _)|(-> & -> & _)]; destruct SRC as [[-> _]|[-> _]]; apply nonint_tgt_fixed; auto.
+Qed.
+
+Lemma dtriples_cases : forall (ag : dict atom agenda_entry) ts t', In t' (dtriples ag ts) ->
+  (In t' ts /\ dget atom_eqb (tsrc t') ag = None) \/
+  (exists v first epis, dget atom_eqb v ag = Some (first, t', epis)).
+Proof.
+  intros ag ts. induction ts as [|t ts IH]; intros t' H; simpl in H; [destruct H|].
+  destruct (dget atom_eqb (tsrc t) ag) as [[[first d] epis]|] eqn:G.
+  - destruct (triple_eqb t first).
+    + destruct H as [<-|H].
+      * right. eauto.
+      * destruct (IH _ H) as [[I N]|R]; auto. left. split; auto. right. auto.
+    + destruct (IH _ H) as [[I N]|R]; auto. left. split; auto. right. auto.
+  - destruct H as [<-|H].
+    + left. split; auto. left. auto.
+    + destruct (IH _ H) as [[I N]|R]; auto. left. split; auto. right. auto.
+Qed.
+
+Lemma cnt_dtriples : forall (ag : dict atom agenda_entry) ts x,
+  dget atom_eqb x ag = None ->
+  (forall v first d epis, dget atom_eqb v ag = Some (first, d, epis) -> colon_inst (trole d) = false) ->
+  (forall t, In t ts -> has_colon (trole t) = true) ->
+  inst_count (map colonize (dtriples ag ts)) x = inst_count ts x.
+Proof.
+  intros ag ts x N D. induction ts as [|t ts IH]; intros C; auto.
+  assert (C' : forall t0, In t0 ts -> has_colon (trole t0) = true) by (intros; apply C; right; auto).
+  simpl dtriples. rewrite (inst_count_cons t ts x).
+  match goal with |- context [match ?X with Some _ => _ | None => _ end] =>
+    destruct X as [[[first d] epis]|] eqn:G end.
+  - assert (NH : inst_hit x t = false).
+    { unfold inst_hit. destruct (atom_eqb (tsrc t) x) eqn:E; auto.
+      rewrite (A_dget_congr ag _ _ E) in G. congruence. }
+    rewrite NH. change ((if false then 1 else 0) + inst_count ts x) with (inst_count ts x).
+    destruct (triple_eqb t first).
+    + simpl map. rewrite inst_count_cons. unfold inst_hit. rewrite is_inst_colonize.
+      rewrite (D _ _ _ _ G), andb_false_r. simpl. auto.
+    + auto.
+  - simpl map. rewrite inst_count_cons, colonize_id by (apply C; left; auto). f_equal. auto.
+Qed.
+
+Lemma dereify_edges_node_graph : forall m g g', node_graph g -> table_inst_free m = true ->
+  dereify_edges m g = Ok g' -> node_graph g'.
+Proof.
+  intros m g g' NG T H. apply dereify_edges_pure in H. destruct H as (ag & AG & ->).
+  apply node_graph_iff in NG. destruct NG as [C V]. apply node_graph_iff. split.
+  - intros t I. rewrite triples_mk in I. apply in_map_iff in I. destruct I as (t0 & <- & _).
+    apply ensure_colon_has.
+  - intros x X. rewrite triples_mk.
+    assert (TOPN : forall tp, graph_top g = Some tp -> dget atom_eqb tp ag = None).
+    { intros tp GT. rewrite (agenda_spec m g ag AG). apply collapsible_fixed_none.
+      unfold fixed_of, top_atom. rewrite GT. simpl. rewrite atom_eqb_refl. auto. }
+    assert (OLD : is_var g x = true /\ dget atom_eqb x ag = None).
+    { rewrite is_var_mk in X. apply orb_true_iff in X. destruct X as [X|X].
+      - apply mem_atom_true in X. destruct X as (b & Ib & E). apply in_map_iff in Ib.
+        destruct Ib as (t' & <- & It'). rewrite (is_var_congr g _ _ E), (A_dget_congr ag _ _ E).
+        apply dtriples_cases in It'. destruct It' as [[I N]|(v & first & epis & G)].
+        + split; auto. apply src_is_var. auto.
+        + destruct (agenda_entry_facts m g ag v first t' epis AG G) as (A & B & _). auto.
+      - destruct (graph_top g) as [tp|] eqn:GT; simpl in X; [|discriminate].
+        rewrite orb_false_r in X. rewrite (is_var_congr g _ _ X), (A_dget_congr ag _ _ X).
+        split; [apply graph_top_is_var; auto|apply TOPN; auto]. }
+    destruct OLD as [OV ON]. destruct (V x OV) as [A B]. split; auto.
+    rewrite cnt_dtriples; auto.
+    intros v first d epis G. destruct (agenda_entry_facts m g ag v first d epis AG G) as (_ & _ & c & s & t & I).
+    eapply table_inst_free_row in I; eauto. tauto.
+Qed.
+
+(* ------------------------------------------------------------------ *)
+(** * dereify never collapses a node that is the top, is referenced, or has not exactly two relations (C11) *)
+
+Lemma dereify_never_collapses : forall m g (ag : dict atom agenda_entry) v, dereify_agenda m g = Ok ag ->
+  (atom_eqb v (top_atom g) = true \/
+   mem atom_eqb v (map ttgt (filter (fun t => negb (is_inst t)) (triples g))) = true \/
+   length (others_of (triples g) v) <> 2) ->
+  dget atom_eqb v ag = None.
+Proof.
+  intros m g ag v AG H. rewrite (agenda_spec m g ag AG).
+  destruct (collapsible m g v) as [[[first d] epis]|] eqn:CO; auto.
+  apply collapsible_inv in CO. destruct CO as (i & o1 & o2 & second & _ & F & O & _).
+  unfold fixed_of in F. simpl in F. apply orb_false_iff in F. destruct F as [F1 F2].
+  destruct H as [H|[H|H]]; try congruence. rewrite O in H. simpl in H. congruence.
+Qed.
+
+Lemma dereify_keeps_others : forall (ag : dict atom agenda_entry) ts t, In t ts -> dget atom_eqb (tsrc t) ag = None -> In t (dtriples ag ts).
+Proof.
+  intros ag ts. induction ts as [|t0 ts IH]; intros t I N; [destruct I|].
+  simpl. destruct I as [<-|I].
+  - rewrite N. left. auto.
+  - destruct (dget atom_eqb (tsrc t0) ag) as [[[first d] epis]|].
+    + destruct (triple_eqb t0 first); [right|]; auto.
+    + right. auto.
+Qed.
+
+
+(* ------------------------------------------------------------------ *)
+(** * reify_edges: no reifiable role left, fresh variables, the rest is kept (C11) *)
+
+Lemma triple_eqb_src_false : forall a b, atom_eqb (tsrc a) (tsrc b) = false -> triple_eqb a b = false.
+Proof. intros. unfold triple_eqb. rewrite H. reflexivity. Qed.
+Lemma triple_eqb_role_false : forall a b, str_eqb (trole a) (trole b) = false -> triple_eqb a b = false.
+Proof. intros. unfold triple_eqb. rewrite H. rewrite andb_false_r. reflexivity. Qed.
+
+Lemma dget_ddel_other : forall (d : dict triple (list epi)) k k', triple_eqb k k' = false ->
+  dget triple_eqb k (ddel triple_eqb k' d) = dget triple_eqb k d.
+Proof.
+  induction d as [|[k0 v0] d IH]; intros k k' H; simpl; auto.
+  destruct (triple_eqb k' k0) eqn:E.
+  - destruct (triple_eqb k k0) eqn:E2; auto.
+    rewrite triple_eqb_sym in E. rewrite (triple_eqb_trans _ _ _ E2 E) in H. discriminate.
+  - simpl. rewrite IH; auto.
+Qed.
+
+Lemma epi_pop_spec : forall t ed old ed2, epi_pop t ed = (old, ed2) ->
+  old = (match dget triple_eqb t ed with Some l => l | None => [] end) /\
+  (forall k, triple_eqb k t = false -> dget triple_eqb k ed2 = dget triple_eqb k ed).
+Proof.
+  intros t ed old ed2 H. unfold epi_pop in H. destruct (dget triple_eqb t ed) eqn:G; inversion H; subst.
+  - split; auto. intros. apply dget_ddel_other. auto.
+  - split; auto.
+Qed.
+
+Lemma rexpand_src : forall m g t v i n o, rexpand m g t v = (i, n, o) ->
+  tsrc i = AStr v /\ tsrc n = AStr v /\ tsrc o = AStr v.
+Proof.
+  intros m g t v i n o H. apply rexpand_cases in H. destruct (reif_row m (trole t)) as [[c sr] tr].
+  destruct H as (-> & [(-> & -> & _)|(-> & -> & _)]); auto.
+Qed.
+
+(* keys the loop does not touch *)
+Lemma rloop_frame : forall m g ts vs ed k,
+  (forall t, In t ts -> is_role_reifiable m (trole t) = true -> triple_eqb k t = false) ->
+  (forall v, In v vs -> atom_eqb (tsrc k) (AStr v) = false) ->
+  dget triple_eqb k (snd (rloop m g ts vs ed)) = dget triple_eqb k ed.
+Proof.
+  intros m g ts. induction ts as [|t ts IH]; intros vs ed k H1 H2; cbn [rloop]; auto.
+  destruct (is_role_reifiable m (trole t)) eqn:R.
+  - destruct vs as [|v vs]; auto.
+    destruct (rexpand m g t v) as [[i n] o] eqn:RX.
+    destruct (rexpand_src _ _ _ _ _ _ _ RX) as (Si & Sn & So).
+    destruct (epi_pop t (dset triple_eqb i [Push (AStr v)] ed)) as [old ed2] eqn:EP.
+    destruct (edge_markers old) as [ne oe].
+    match goal with |- context [rloop m g ts vs ?e] =>
+      specialize (IH vs e k); destruct (rloop m g ts vs e) as [r1 r2] end.
+    simpl snd in *. rewrite IH.
+    + assert (NV : atom_eqb (tsrc k) (AStr v) = false) by (apply H2; left; auto).
+      rewrite !T_dget_dset.
+      rewrite (triple_eqb_src_false k o) by (rewrite So; auto).
+      rewrite (triple_eqb_src_false k n) by (rewrite Sn; auto).
+      apply epi_pop_spec in EP. destruct EP as [_ EP]. rewrite EP by (apply H1; auto; left; auto).
+      rewrite T_dget_dset. rewrite (triple_eqb_src_false k i) by (rewrite Si; auto). reflexivity.
+    + intros. apply H1; auto. right. auto.
+    + intros. apply H2. right. auto.
+  - specialize (IH vs ed k). destruct (rloop m g ts vs ed) as [r1 r2]. simpl snd in *. apply IH.
+    + intros. apply H1; auto. right. auto.
+    + auto.
+Qed.
+
+Lemma names_not_var : forall g vs v, names_ok (used_names g) vs -> In v vs ->
+  is_var g (AStr v) = false /\ mem atom_eqb (AStr v) (map ttgt (triples g)) = false.
+Proof.
+  intros g vs v N I. destruct (names_ok_notin _ _ _ N I) as [A _].
+  unfold used_names in A. rewrite mem_app in A. apply orb_false_iff in A. auto.
+Qed.
+
+Lemma node_graph_colon : forall g t, node_graph g -> In t (triples g) -> has_colon (trole t) = true.
+Proof. intros g t NG I. apply node_graph_iff in NG. destruct NG as [C _]. auto. Qed.
+
+(* (1) the non-reified triples, in order, are exactly the triples of g' whose source is an old variable *)
+Lemma rtriples_old_part : forall m g ts vs,
+  (forall t, In t ts -> has_colon (trole t) = true /\ is_var g (tsrc t) = true) ->
+  (forall v, In v vs -> is_var g (AStr v) = false) ->
+  count_reif m ts <= length vs ->
+  filter (fun t => is_var g (tsrc t)) (map colonize (rtriples m g ts vs)) =
+  filter (fun t => negb (is_role_reifiable m (trole t))) ts.
+Proof.
+  intros m g ts. induction ts as [|t ts IH]; intros vs H N L; auto.
+  destruct (H t) as [C V]; [left; auto|].
+  assert (H' : forall t0, In t0 ts -> has_colon (trole t0) = true /\ is_var g (tsrc t0) = true) by (intros; apply H; right; auto).
+  rewrite count_reif_cons in L. simpl rtriples. simpl filter at 2.
+  destruct (is_role_reifiable m (trole t)) eqn:R; simpl negb; cbv iota.
+  - destruct vs as [|v vs]; [simpl in L; lia|].
+    destruct (rexpand m g t v) as [[i n] o] eqn:RX.
+    destruct (rexpand_src _ _ _ _ _ _ _ RX) as (Si & Sn & So).
+    simpl map. simpl filter. rewrite !colonize_src, Si, Sn, So. rewrite (N v) by (left; auto).
+    apply IH; auto; try (intros; apply N; right; auto); try (simpl in L; lia).
+  - simpl map. simpl filter. rewrite colonize_src, V. rewrite colonize_id by auto. f_equal.
+    apply IH; auto; try (simpl in L; lia).
+Qed.
+
+Lemma reify_keeps_rest : forall m g g', node_graph g -> reify_edges m g = Ok g' ->
+  filter (fun t => is_var g (tsrc t)) (triples g') =
+    filter (fun t => negb (is_role_reifiable m (trole t))) (triples g) /\
+  (forall t, In t (triples g) -> is_role_reifiable m (trole t) = false ->
+     dget triple_eqb t (epidata g') = dget triple_eqb t (epidata g)) /\
+  gmeta g' = gmeta g /\ graph_top g' = graph_top g.
+Proof.
+  intros m g g' NG H. pose proof (reify_edges_top _ _ _ H) as TOP.
+  apply reify_edges_pure in H. destruct H as (vs & N & L & ->).
+  split; [|split; [|split]]; auto.
+  - rewrite triples_mk. apply rtriples_old_part; try lia.
+    + intros t I. split; [eapply node_graph_colon; eauto|apply src_is_var; auto].
+    + intros v I. eapply names_not_var; eauto.
+  - intros t I R. simpl epidata. apply rloop_frame.
+    + intros t0 I0 R0. apply triple_eqb_role_false.
+      destruct (str_eqb (trole t) (trole t0)) eqn:E; auto. apply str_eqb_eq in E. congruence.
+    + intros v Iv. destruct (atom_eqb (tsrc t) (AStr v)) eqn:E; auto.
+      destruct (names_not_var g vs v N Iv) as [A _].
+      rewrite <- (is_var_congr g _ _ E) in A. rewrite src_is_var in A; auto.
+Qed.
+
+(* (2) fresh variables *)
+Lemma reify_fresh : forall m g g', reify_edges m g = Ok g' ->
+  exists vs, triples g' = map colonize (rtriples m g (triples g) vs) /\
+    length vs = count_reif m (triples g) /\ NoDup vs /\
+    forall v, In v vs -> gen_name v /\ is_var g (AStr v) = false /\
+                          mem atom_eqb (AStr v) (map ttgt (triples g)) = false.
+Proof.
+  intros m g g' H. apply reify_edges_pure in H. destruct H as (vs & N & L & ->).
+  exists vs. split; [apply triples_mk|]. split; auto. split; [eapply names_ok_nodup; eauto|].
+  intros v I. destruct (names_not_var g vs v N I). destruct (names_ok_notin _ _ _ N I). auto.
+Qed.
+
+(* (3) no reifiable role is left *)
+Lemma row_shape_facts : forall m r, row_shape_ok m r = true -> is_role_reifiable m r = true ->
+  let '(c, sr, tr) := reif_row m r in
+  r <> INSTANCE /\ sr <> INSTANCE /\ tr <> INSTANCE /\ has_colon sr = true /\ has_colon tr = true /\
+  sr <> tr /\ is_role_reifiable m sr = false /\ is_role_reifiable m tr = false.
+Proof.
+  intros m r H R. destruct (reifiable_rows _ _ R) as (c & sr & tr & rest & E).
+  unfold row_shape_ok in H. unfold reif_row. rewrite E in *.
+  repeat (apply andb_true_iff in H; destruct H as [H ?]).
+  repeat match goal with X : negb _ = true |- _ => apply negb_true_iff in X end.
+  repeat split; auto; intro X; subst; rewrite str_eqb_refl in *; discriminate.
+Qed.
+
+Lemma rtriples_roles : forall m g ts vs t', In t' (rtriples m g ts vs) ->
+  (In t' ts /\ is_role_reifiable m (trole t') = false) \/
+  (exists t, In t ts /\ is_role_reifiable m (trole t) = true /\
+     let '(c, sr, tr) := reif_row m (trole t) in trole t' = sr \/ trole t' = INSTANCE \/ trole t' = tr).
+Proof.
+  intros m g ts. induction ts as [|t ts IH]; intros vs t' H; simpl in H; [destruct H|].
+  destruct (is_role_reifiable m (trole t)) eqn:R.
+  - destruct vs as [|v vs]; [destruct H|].
+    destruct (rexpand m g t v) as [[i n] o] eqn:RX. apply rexpand_cases in RX.
+    destruct H as [H|[H|[H|H]]].
+    + right. exists t. split; [left; auto|]. split; auto. destruct (reif_row m (trole t)) as [[c sr] tr].
+      destruct RX as (-> & [(-> & -> & _)|(-> & -> & _)]); subst; rewrite trole_mk; auto.
+    + right. exists t. split; [left; auto|]. split; auto. destruct (reif_row m (trole t)) as [[c sr] tr].
+      destruct RX as (-> & _); subst; rewrite trole_mk; auto.
+    + right. exists t. split; [left; auto|]. split; auto. destruct (reif_row m (trole t)) as [[c sr] tr].
+      destruct RX as (-> & [(-> & -> & _)|(-> & -> & _)]); subst; rewrite trole_mk; auto.
+    + destruct (IH _ _ H) as [[I N]|(t0 & I0 & R0 & X)].
+      * left. split; auto. right. auto.
+      * right. exists t0. split; auto. right. auto.
+  - destruct H as [<-|H].
+    + left. split; auto. left. auto.
+    + destruct (IH _ _ H) as [[I N]|(t0 & I0 & R0 & X)].
+      * left. split; auto. right. auto.
+      * right. exists t0. split; auto. right. auto.
+Qed.
+
+Lemma node_graph_has_inst : forall g t, node_graph g -> In t (triples g) ->
+  exists ti, In ti (triples g) /\ is_inst ti = true /\ atom_eqb (tsrc ti) (tsrc t) = true.
+Proof.
+  intros g t NG I. apply node_graph_iff in NG. destruct NG as [_ V].
+  destruct (V (tsrc t) (src_is_var g t I)) as [_ C]. unfold inst_count in C.
+  destruct (filter (fun t0 => atom_eqb (tsrc t0) (tsrc t) && is_inst t0) (triples g)) as [|ti l] eqn:F; [discriminate|].
+  assert (X : In ti (filter (fun t0 => atom_eqb (tsrc t0) (tsrc t) && is_inst t0) (triples g))) by (rewrite F; left; auto).
+  apply filter_In in X. destruct X as [X1 X2]. apply andb_true_iff in X2. exists ti. tauto.
+Qed.
+
+Lemma reify_no_reifiable : forall m g g', node_graph g ->
+  (forall t, In t (triples g) -> row_shape_ok m (trole t) = true) ->
+  reify_edges m g = Ok g' ->
+  forall t', In t' (triples g') -> is_role_reifiable m (trole t') = false.
+Proof.
+  intros m g g' NG SH H t' I. apply reify_edges_pure in H. destruct H as (vs & N & L & ->).
+  rewrite triples_mk in I. apply in_map_iff in I. destruct I as (t0 & <- & I0).
+  destruct (rtriples_roles _ _ _ _ _ I0) as [[I1 R1]|(t & I1 & R1 & X)].
+  - rewrite colonize_id; auto. eapply node_graph_colon; eauto.
+  - pose proof (row_shape_facts m (trole t) (SH t I1) R1) as F.
+    destruct (node_graph_has_inst g t NG I1) as (ti & Ii & II & _).
+    assert (RI : is_role_reifiable m INSTANCE = false).
+    { destruct (is_role_reifiable m INSTANCE) eqn:RI; auto.
+      pose proof (row_shape_facts m (trole ti) (SH ti Ii)) as F2.
+      unfold is_inst in II. apply str_eqb_eq in II. rewrite II in F2. specialize (F2 RI).
+      destruct (reif_row m INSTANCE) as [[c2 s2] t2]. destruct F2 as (F2 & _). congruence. }
+    destruct (reif_row m (trole t)) as [[c sr] tr].
+    destruct F as (_ & _ & _ & C1 & C2 & _ & N1 & N2).
+    unfold colonize. rewrite trole_mk.
+    destruct X as [-> | [-> | ->]]; rewrite ensure_colon_id; auto.
+Qed.
+
+
+(* ------------------------------------------------------------------ *)
+(** * C11_inverse, part 1: the reified graph in detail *)
+
+(* reified triples paired with their variable *)
+Fixpoint rpairs (m : model) (ts : list triple) (vs : list str) : list (triple * str) :=
+  match ts with
+  | [] => []
+  | t :: ts' =>
+      if is_role_reifiable m (trole t) then
+        match vs with v :: vs' => (t, v) :: rpairs m ts' vs' | [] => [] end
+      else rpairs m ts' vs
+  end.
+
+Lemma rpairs_in : forall m ts vs t v, In (t, v) (rpairs m ts vs) ->
+  In t ts /\ In v vs /\ is_role_reifiable m (trole t) = true.
+Proof.
+  intros m ts. induction ts as [|t0 ts IH]; intros vs t v H; simpl in H; [destruct H|].
+  destruct (is_role_reifiable m (trole t0)) eqn:R.
+  - destruct vs as [|v0 vs]; [destruct H|]. destruct H as [H|H].
+    + inversion H; subst. repeat split; auto; left; auto.
+    + destruct (IH _ _ _ H) as (A & B & C). repeat split; auto; right; auto.
+  - destruct (IH _ _ _ H) as (A & B & C). repeat split; auto; right; auto.
+Qed.
+
+(* every reified triple has its pair *)
+Lemma rpairs_total : forall m ts vs t, count_reif m ts <= length vs -> In t ts ->
+  is_role_reifiable m (trole t) = true -> exists v, In (t, v) (rpairs m ts vs).
+Proof.
+  intros m ts. induction ts as [|t0 ts IH]; intros vs t L I R; [destruct I|].
+  rewrite count_reif_cons in L. simpl. destruct (is_role_reifiable m (trole t0)) eqn:R0.
+  - destruct vs as [|v0 vs]; [simpl in L; lia|]. destruct I as [<-|I].
+    + exists v0. left. auto.
+    + destruct (IH vs t) as [v Iv]; auto. { simpl in L. lia. } exists v. right. auto.
+  - destruct I as [<-|I]; [congruence|]. apply IH; auto.
+Qed.
+
+(* the shape facts of one reification, as needed below *)
+Record xfacts (m : model) (g : graph) (t : triple) (v : str) (i n o : triple) : Prop := {
+  xf_src : tsrc i = AStr v /\ tsrc n = AStr v /\ tsrc o = AStr v;
+  xf_in : triple_eqb i n = false /\ triple_eqb i o = false /\ triple_eqb n o = false;
+  xf_inst : is_inst i = false /\ is_inst n = true /\ is_inst o = false;
+  xf_colon : has_colon (trole i) = true /\ has_colon (trole n) = true /\ has_colon (trole o) = true;
+  xf_noreif : is_role_reifiable m (trole i) = false /\ is_role_reifiable m (trole o) = false;
+  xf_tgts : (ttgt i = tsrc t /\ ttgt o = ttgt t) \/ (ttgt i = ttgt t /\ ttgt o = tsrc t)
+}.
+
+Lemma rexpand_xfacts : forall m g t v i n o, row_shape_ok m (trole t) = true ->
+  is_role_reifiable m (trole t) = true -> rexpand m g t v = (i, n, o) -> xfacts m g t v i n o.
+Proof.
+  intros m g t v i n o SH R RX. pose proof (row_shape_facts m (trole t) SH R) as F.
+  apply rexpand_cases in RX. destruct (reif_row m (trole t)) as [[c sr] tr].
+  destruct F as (F0 & F1 & F2 & C1 & C2 & F3 & N1 & N2).
+  assert (E1 : str_eqb sr INSTANCE = false) by (apply str_eqb_neq; auto).
+  assert (E2 : str_eqb tr INSTANCE = false) by (apply str_eqb_neq; auto).
+  assert (E3 : str_eqb sr tr = false) by (apply str_eqb_neq; auto).
+  assert (E4 : str_eqb tr sr = false) by (apply str_eqb_neq; auto).
+  assert (E5 : str_eqb INSTANCE sr = false) by (apply str_eqb_neq; auto).
+  assert (E6 : str_eqb INSTANCE tr = false) by (apply str_eqb_neq; auto).
+  destruct RX as (-> & [(-> & -> & _)|(-> & -> & _)]); constructor; unfold triple_eqb, is_inst;
+    rewrite ?tsrc_mk, ?trole_mk, ?ttgt_mk, ?atom_eqb_refl, ?E1, ?E2, ?E3, ?E4, ?E5, ?E6; simpl; auto.
+Qed.
+
+(* all roles of the reified triple list carry their colon, so Graph() changes nothing *)
+Lemma rtriples_colon : forall m g ts vs,
+  (forall t, In t ts -> has_colon (trole t) = true /\ row_shape_ok m (trole t) = true) ->
+  map colonize (rtriples m g ts vs) = rtriples m g ts vs.
+Proof.
+  intros m g ts vs H. apply map_colonize_id. intros t' I.
+  destruct (rtriples_roles _ _ _ _ _ I) as [[I1 R1]|(t & I1 & R1 & X)].
+  - apply H. auto.
+  - destruct (H t I1) as [_ SH]. pose proof (row_shape_facts m (trole t) SH R1) as F.
+    destruct (reif_row m (trole t)) as [[c sr] tr]. destruct F as (_ & _ & _ & C1 & C2 & _).
+    destruct X as [-> | [-> | ->]]; auto.
+Qed.
+
+(* keys of the epidata stay distinct *)
+Lemma epi_pop_nodup : forall t ed old ed2, epi_pop t ed = (old, ed2) ->
+  nodup_b triple_eqb (dkeys ed) = true -> nodup_b triple_eqb (dkeys ed2) = true.
+Proof.
+  intros t ed old ed2 H N. unfold epi_pop in H. destruct (dget triple_eqb t ed); inversion H; subst; auto.
+  apply nodup_ddel. auto.
+Qed.
+
+Lemma rloop_nodup : forall m g ts vs ed, nodup_b triple_eqb (dkeys ed) = true ->
+  nodup_b triple_eqb (dkeys (snd (rloop m g ts vs ed))) = true.
+Proof.
+  intros m g ts. induction ts as [|t ts IH]; intros vs ed N; cbn [rloop]; auto.
+  destruct (is_role_reifiable m (trole t)).
+  - destruct vs as [|v vs]; auto. destruct (rexpand m g t v) as [[i n] o].
+    destruct (epi_pop t (dset triple_eqb i [Push (AStr v)] ed)) as [old ed2] eqn:EP.
+    destruct (edge_markers old) as [ne oe].
+    match goal with |- context [rloop m g ts vs ?e] =>
+      specialize (IH vs e); destruct (rloop m g ts vs e) as [r1 r2] end.
+    simpl snd in *. apply IH. apply T_nodup_dset. apply T_nodup_dset.
+    eapply epi_pop_nodup; eauto. apply T_nodup_dset. auto.
+  - specialize (IH vs ed N). destruct (rloop m g ts vs ed). auto.
+Qed.
+
+(* a sharper frame lemma: keys different from everything the loop touches *)
+Lemma rloop_frame2 : forall m g ts vs ed k,
+  (forall t v, In (t, v) (rpairs m ts vs) ->
+     let '(i, n, o) := rexpand m g t v in
+     triple_eqb k t = false /\ triple_eqb k i = false /\ triple_eqb k n = false /\ triple_eqb k o = false) ->
+  dget triple_eqb k (snd (rloop m g ts vs ed)) = dget triple_eqb k ed.
+Proof.
+  intros m g ts. induction ts as [|t ts IH]; intros vs ed k H; cbn [rloop]; auto.
+  cbn [rpairs] in H. destruct (is_role_reifiable m (trole t)) eqn:R.
+  - destruct vs as [|v vs]; auto.
+    pose proof (H t v (or_introl eq_refl)) as H0.
+    destruct (rexpand m g t v) as [[i n] o] eqn:RX. destruct H0 as (K0 & K1 & K2 & K3).
+    destruct (epi_pop t (dset triple_eqb i [Push (AStr v)] ed)) as [old ed2] eqn:EP.
+    destruct (edge_markers old) as [ne oe].
+    match goal with |- context [rloop m g ts vs ?e] =>
+      specialize (IH vs e k); destruct (rloop m g ts vs e) as [r1 r2] end.
+    simpl snd in *. rewrite IH.
+    + rewrite !T_dget_dset, K3, K2. apply epi_pop_spec in EP. destruct EP as [_ EP].
+      rewrite EP by auto. rewrite T_dget_dset, K1. reflexivity.
+    + intros. apply H. right. auto.
+  - specialize (IH vs ed k). destruct (rloop m g ts vs ed) as [r1 r2]. simpl snd in *. apply IH. auto.
+Qed.
+
+(* what the reified graph's epidata holds for one reification *)
+Lemma rloop_lookup : forall m g ts vs ed,
+  nodup_b triple_eqb (dkeys ed) = true ->
+  nodup_b triple_eqb ts = true -> NoDup vs ->
+  (forall t, In t ts -> row_shape_ok m (trole t) = true) ->
+  (forall t v, In t ts -> In v vs -> atom_eqb (tsrc t) (AStr v) = false) ->
+  forall t v, In (t, v) (rpairs m ts vs) ->
+    let '(i, n, o) := rexpand m g t v in
+    let L := match dget triple_eqb t ed with Some l => l | None => [] end in
+    dget triple_eqb i (snd (rloop m g ts vs ed)) = Some [Push (AStr v)] /\
+    dget triple_eqb n (snd (rloop m g ts vs ed)) = Some (fst (edge_markers L)) /\
+    dget triple_eqb o (snd (rloop m g ts vs ed)) = Some (snd (edge_markers L)) /\
+    dget triple_eqb t (snd (rloop m g ts vs ed)) = None.
+Proof.
+  intros m g ts. induction ts as [|t0 ts IH]; intros vs ed NK NT NV SH SV t v I; [destruct I|].
+  cbn [rpairs] in I. cbn [rloop].
+  simpl in NT. apply andb_true_iff in NT. destruct NT as [NT0 NT]. apply negb_true_iff in NT0.
+  assert (SH' : forall t1, In t1 ts -> row_shape_ok m (trole t1) = true) by (intros; apply SH; right; auto).
+  destruct (is_role_reifiable m (trole t0)) eqn:R0.
+  - destruct vs as [|v0 vs]; [destruct I|]. inversion NV as [|? ? NV0 NV']; subst.
+    destruct (rexpand m g t0 v0) as [[i0 n0] o0] eqn:RX0.
+    pose proof (rexpand_xfacts m g t0 v0 i0 n0 o0 (SH t0 (or_introl eq_refl)) R0 RX0) as X0.
+    destruct X0 as [(S1 & S2 & S3) (D1 & D2 & D3) _ _ _ _].
+    assert (ST0 : atom_eqb (tsrc t0) (AStr v0) = false) by (apply SV; left; auto).
+    assert (T0i : triple_eqb t0 i0 = false) by (apply triple_eqb_src_false; rewrite S1; auto).
+    assert (T0n : triple_eqb t0 n0 = false) by (apply triple_eqb_src_false; rewrite S2; auto).
+    assert (T0o : triple_eqb t0 o0 = false) by (apply triple_eqb_src_false; rewrite S3; auto).
+    destruct (epi_pop t0 (dset triple_eqb i0 [Push (AStr v0)] ed)) as [old ed2] eqn:EP.
+    pose proof (epi_pop_nodup _ _ _ _ EP (T_nodup_dset ed i0 [Push (AStr v0)] NK)) as NK2.
+    pose proof (epi_pop_spec _ _ _ _ EP) as [OLD FR].
+    rewrite T_dget_dset, T0i in OLD.
+    destruct (edge_markers old) as [ne oe] eqn:EM.
+    set (ed4 := dset triple_eqb o0 oe (dset triple_eqb n0 ne ed2)).
+    assert (NK4 : nodup_b triple_eqb (dkeys ed4) = true) by (unfold ed4; repeat apply T_nodup_dset; auto).
+    destruct I as [I|I].
+    + (* the head reification itself *)
+      inversion I; subst t v. clear I. rewrite RX0.
+      assert (FRAME : forall k, atom_eqb (tsrc k) (AStr v0) = true \/ triple_eqb k t0 = true ->
+                dget triple_eqb k (snd (rloop m g ts vs ed4)) = dget triple_eqb k ed4).
+      { intros k Hk. apply rloop_frame2. intros t1 v1 I1. destruct (rpairs_in _ _ _ _ _ I1) as (A1 & B1 & C1).
+        destruct (rexpand m g t1 v1) as [[i1 n1] o1] eqn:RX1.
+        destruct (rexpand_src _ _ _ _ _ _ _ RX1) as (Q1 & Q2 & Q3).
+        assert (NE : atom_eqb (AStr v0) (AStr v1) = false).
+        { simpl. apply str_eqb_neq. intro E. subst. contradiction. }
+        destruct Hk as [Hk|Hk].
+        - assert (KS : forall y, tsrc y = AStr v1 -> triple_eqb k y = false).
+          { intros y Y. apply triple_eqb_src_false. rewrite Y. rewrite (atom_eqb_congr_l _ _ _ Hk). auto. }
+          repeat split; auto. apply triple_eqb_src_false. rewrite (atom_eqb_congr_l _ _ _ Hk).
+          rewrite atom_eqb_sym. apply SV; [right; auto|left; auto].
+        - assert (KS : forall y, tsrc y = AStr v1 -> triple_eqb k y = false).
+          { intros y Y. rewrite (triple_eqb_congr_l _ _ _ Hk). apply triple_eqb_src_false. rewrite Y.
+            apply SV; [left; auto|right; auto]. }
+          repeat split; auto. rewrite (triple_eqb_congr_l _ _ _ Hk).
+          destruct (triple_eqb t0 t1) eqn:E; auto.
+          assert (M : mem triple_eqb t0 ts = true).
+          { unfold mem. apply existsb_exists. exists t1. split; auto. }
+          congruence. }
+      destruct (rloop m g ts vs ed4) as [r1 r2] eqn:RL. simpl snd in *.
+      rewrite !FRAME by (rewrite ?S1, ?S2, ?S3, ?atom_eqb_refl, ?triple_eqb_refl; auto).
+      unfold ed4. rewrite !T_dget_dset.
+      rewrite D2, D1, D3, !triple_eqb_refl, T0o, T0n.
+      rewrite !FR by (rewrite triple_eqb_sym; auto). rewrite !T_dget_dset, triple_eqb_refl.
+      pose proof EM as EM'. unfold edge_markers, reified_markers in EM'. inversion EM'; subst ne oe. clear EM'.
+      rewrite <- OLD. repeat split; auto.
+      (* the popped key is gone *)
+      unfold epi_pop in EP. destruct (dget triple_eqb t0 (dset triple_eqb i0 [Push (AStr v0)] ed)) eqn:G.
+      * inversion EP; subst. rewrite T_dget_ddel by (apply T_nodup_dset; auto). rewrite triple_eqb_refl. auto.
+      * inversion EP; subst. auto.
+    + (* a later reification: the head step does not touch its keys *)
+      destruct (rpairs_in _ _ _ _ _ I) as (A1 & B1 & C1).
+      assert (NE : atom_eqb (AStr v) (AStr v0) = false).
+      { simpl. apply str_eqb_neq. intro E. subst. contradiction. }
+      assert (TT : triple_eqb t t0 = false).
+      { destruct (triple_eqb t t0) eqn:E; auto. rewrite triple_eqb_sym in E.
+        assert (M : mem triple_eqb t0 ts = true) by (unfold mem; apply existsb_exists; exists t; split; auto).
+        congruence. }
+      assert (ST : atom_eqb (tsrc t) (AStr v0) = false) by (apply SV; [right; auto|left; auto]).
+      specialize (IH vs ed4 NK4 NT NV' SH' (fun t1 v1 I1 I2 => SV t1 v1 (or_intror I1) (or_intror I2)) t v I).
+      destruct (rexpand m g t v) as [[i n] o] eqn:RX.
+      assert (E4 : dget triple_eqb t ed4 = dget triple_eqb t ed).
+      { unfold ed4. rewrite !T_dget_dset.
+        rewrite (triple_eqb_src_false t o0) by (rewrite S3; auto).
+        rewrite (triple_eqb_src_false t n0) by (rewrite S2; auto).
+        rewrite FR by auto. rewrite T_dget_dset.
+        rewrite (triple_eqb_src_false t i0) by (rewrite S1; auto). reflexivity. }
+      rewrite E4 in IH. destruct (rloop m g ts vs ed4) as [r1 r2]. simpl snd in *. exact IH.
+  - specialize (IH vs ed NK NT NV SH' (fun t1 v1 I1 I2 => SV t1 v1 (or_intror I1) I2) t v I).
+    destruct (rloop m g ts vs ed) as [r1 r2]. exact IH.
+Qed.
+
+
+(* ------------------------------------------------------------------ *)
+(** * C11_inverse, part 2: filtering the reified triple list by source *)
+
+Definition nreif (m : model) (t : triple) : bool := negb (is_role_reifiable m (trole t)).
+
+Lemma filter_src_rtriples_old : forall m g (P : triple -> bool) ts vs x,
+  (forall v, In v vs -> atom_eqb (AStr v) x = false) ->
+  count_reif m ts <= length vs ->
+  filter (fun t => atom_eqb (tsrc t) x && P t) (rtriples m g ts vs) =
+  filter (fun t => atom_eqb (tsrc t) x && P t) (filter (nreif m) ts).
+Proof.
+  intros m g P ts. induction ts as [|t ts IH]; intros vs x N L; auto.
+  rewrite count_reif_cons in L. simpl rtriples. simpl filter at 3. unfold nreif at 1.
+  destruct (is_role_reifiable m (trole t)) eqn:R; simpl negb; cbv iota.
+  - destruct vs as [|v vs]; [simpl in L; lia|].
+    destruct (rexpand m g t v) as [[i n] o] eqn:RX.
+    destruct (rexpand_src _ _ _ _ _ _ _ RX) as (Si & Sn & So).
+    simpl filter at 1. rewrite Si, Sn, So. rewrite (N v) by (left; auto). simpl.
+    apply IH; try (intros; apply N; right; auto). simpl in L. lia.
+  - simpl filter. destruct (atom_eqb (tsrc t) x && P t); [f_equal|]; apply IH; auto; simpl in L; lia.
+Qed.
+
+Lemma filter_src_rtriples_new : forall m g (P : triple -> bool) ts vs t0 v0,
+  NoDup vs -> In (t0, v0) (rpairs m ts vs) ->
+  (forall t, In t ts -> atom_eqb (tsrc t) (AStr v0) = false) ->
+  let '(i, n, o) := rexpand m g t0 v0 in
+  filter (fun t => atom_eqb (tsrc t) (AStr v0) && P t) (rtriples m g ts vs) = filter P [i; n; o].
+Proof.
+  intros m g P ts. induction ts as [|t ts IH]; intros vs t0 v0 ND I S; [destruct I|].
+  cbn [rpairs] in I. simpl rtriples.
+  assert (S' : forall t1, In t1 ts -> atom_eqb (tsrc t1) (AStr v0) = false) by (intros; apply S; right; auto).
+  destruct (is_role_reifiable m (trole t)) eqn:R.
+  - destruct vs as [|v vs]; [destruct I|]. inversion ND as [|? ? NI ND']; subst.
+    destruct I as [I|I].
+    + inversion I; subst t v. clear I.
+      destruct (rexpand m g t0 v0) as [[i n] o] eqn:RX.
+      destruct (rexpand_src _ _ _ _ _ _ _ RX) as (Si & Sn & So).
+      cbn [filter]. rewrite Si, Sn, So, !atom_eqb_refl. cbn [andb].
+      assert (REST : filter (fun t => atom_eqb (tsrc t) (AStr v0) && P t) (rtriples m g ts vs) = []).
+      { apply filter_nil. intros t' I'. apply andb_false_iff. left.
+        apply rtriples_src in I'. destruct I' as [(t1 & I1 & ->)|(v1 & I1 & ->)]; auto.
+        simpl. apply str_eqb_neq. intro E. subst. contradiction. }
+      rewrite REST. destruct (P i), (P n), (P o); reflexivity.
+    + specialize (IH vs t0 v0 ND' I S'). destruct (rpairs_in _ _ _ _ _ I) as (_ & Iv & _).
+      assert (NE : atom_eqb (AStr v) (AStr v0) = false).
+      { simpl. apply str_eqb_neq. intro E. subst. contradiction. }
+      destruct (rexpand m g t v) as [[i1 n1] o1] eqn:RX1.
+      destruct (rexpand_src _ _ _ _ _ _ _ RX1) as (Si & Sn & So).
+      cbn [filter]. rewrite Si, Sn, So, NE. cbn [andb]. exact IH.
+  - specialize (IH vs t0 v0 ND I S'). cbn [filter]. rewrite (S t) by (left; auto). cbn [andb]. exact IH.
+Qed.
+
+(* non-instance targets of the reified list *)
+Lemma rtriples_ni_tgt : forall m g ts vs t',
+  (forall t, In t ts -> row_shape_ok m (trole t) = true) ->
+  In t' (rtriples m g ts vs) -> is_inst t' = false ->
+  exists t, In t ts /\ (ttgt t' = tsrc t \/ ttgt t' = ttgt t).
+Proof.
+  intros m g ts. induction ts as [|t ts IH]; intros vs t' SH I NI; simpl in I; [destruct I|].
+  assert (SH' : forall t0, In t0 ts -> row_shape_ok m (trole t0) = true) by (intros; apply SH; right; auto).
+  destruct (is_role_reifiable m (trole t)) eqn:R.
+  - destruct vs as [|v vs]; [destruct I|].
+    destruct (rexpand m g t v) as [[i n] o] eqn:RX.
+    pose proof (rexpand_xfacts m g t v i n o (SH t (or_introl eq_refl)) R RX) as X.
+    destruct X as [_ _ (_ & IN & _) _ _ TG].
+    destruct I as [<-|[<-|[<-|I]]].
+    + exists t. split; [left; auto|]. destruct TG as [[A _]|[A _]]; auto.
+    + congruence.
+    + exists t. split; [left; auto|]. destruct TG as [[_ A]|[_ A]]; auto.
+    + destruct (IH vs t' SH' I NI) as (t1 & I1 & X). exists t1. split; auto. right. auto.
+  - destruct I as [<-|I].
+    + exists t. split; [left; auto|]. auto.
+    + destruct (IH vs t' SH' I NI) as (t1 & I1 & X). exists t1. split; auto. right. auto.
+Qed.
+
+Lemma rtriples_keeps_tgt : forall m g ts vs t,
+  (forall t, In t ts -> row_shape_ok m (trole t) = true) ->
+  count_reif m ts <= length vs -> In t ts -> is_inst t = false ->
+  (exists t', In t' (rtriples m g ts vs) /\ is_inst t' = false /\ ttgt t' = ttgt t) /\
+  (is_role_reifiable m (trole t) = true ->
+   exists t', In t' (rtriples m g ts vs) /\ is_inst t' = false /\ ttgt t' = tsrc t).
+Proof.
+  intros m g ts. induction ts as [|t0 ts IH]; intros vs t SH L I NI; [destruct I|].
+  assert (SH' : forall t1, In t1 ts -> row_shape_ok m (trole t1) = true) by (intros; apply SH; right; auto).
+  rewrite count_reif_cons in L. simpl rtriples.
+  destruct (is_role_reifiable m (trole t0)) eqn:R.
+  - destruct vs as [|v vs]; [simpl in L; lia|].
+    destruct (rexpand m g t0 v) as [[i n] o] eqn:RX.
+    pose proof (rexpand_xfacts m g t0 v i n o (SH t0 (or_introl eq_refl)) R RX) as X.
+    destruct X as [_ _ (II & _ & IO) _ _ TG].
+    destruct I as [<-|I].
+    + split; [|intros _].
+      * destruct TG as [[_ A]|[A _]]; [exists o|exists i]; repeat split; auto; simpl; auto.
+      * destruct TG as [[A _]|[_ A]]; [exists i|exists o]; repeat split; auto; simpl; auto.
+    + destruct (IH vs t SH') as [A B]; auto; try (simpl in L; lia).
+      split.
+      * destruct A as (t' & I' & X). exists t'. split; auto. right. right. right. auto.
+      * intros RR. destruct (B RR) as (t' & I' & X). exists t'. split; auto. right. right. right. auto.
+  - destruct I as [<-|I].
+    + split; [|congruence]. exists t0. repeat split; auto. left. auto.
+    + destruct (IH vs t SH') as [A B]; auto; try (simpl in L; lia).
+      split.
+      * destruct A as (t' & I' & X). exists t'. split; auto. right. auto.
+      * intros RR. destruct (B RR) as (t' & I' & X). exists t'. split; auto. right. auto.
+Qed.
+
+(* every name is used by some pair *)
+Lemma rpairs_all_names : forall m ts vs v, length vs = count_reif m ts -> In v vs ->
+  exists t, In (t, v) (rpairs m ts vs).
+Proof.
+  intros m ts. induction ts as [|t0 ts IH]; intros vs v L I.
+  - simpl in L. destruct vs; [destruct I|discriminate].
+  - rewrite count_reif_cons in L. simpl. destruct (is_role_reifiable m (trole t0)).
+    + destruct vs as [|v0 vs]; [destruct I|]. simpl in L. destruct I as [<-|I].
+      * exists t0. left. auto.
+      * destruct (IH vs v) as [t It]; auto; try lia. exists t. right. auto.
+    + apply IH; auto.
+Qed.
+
+(* a pair's triples are in the list, in order first / node / third *)
+Lemma rpairs_triples_in : forall m g ts vs t v, In (t, v) (rpairs m ts vs) ->
+  let '(i, n, o) := rexpand m g t v in
+  In i (rtriples m g ts vs) /\ In n (rtriples m g ts vs) /\ In o (rtriples m g ts vs).
+Proof.
+  intros m g ts. induction ts as [|t0 ts IH]; intros vs t v I; simpl in I; [destruct I|].
+  simpl rtriples. destruct (is_role_reifiable m (trole t0)).
+  - destruct vs as [|v0 vs]; [destruct I|]. destruct I as [I|I].
+    + inversion I; subst. destruct (rexpand m g t v) as [[i n] o]. simpl. intuition.
+    + specialize (IH vs t v I). destruct (rexpand m g t v) as [[i n] o].
+      destruct (rexpand m g t0 v0) as [[i0 n0] o0]. simpl. tauto.
+  - specialize (IH vs t v I). destruct (rexpand m g t v) as [[i n] o]. simpl. tauto.
+Qed.
+
+Lemma rtriples_keeps_unreified : forall m g ts vs t, count_reif m ts <= length vs ->
+  In t ts -> is_role_reifiable m (trole t) = false -> In t (rtriples m g ts vs).
+Proof.
+  intros m g ts. induction ts as [|t0 ts IH]; intros vs t L I R; [destruct I|].
+  rewrite count_reif_cons in L. simpl. destruct (is_role_reifiable m (trole t0)) eqn:R0.
+  - destruct vs as [|v vs]; [simpl in L; lia|]. destruct (rexpand m g t0 v) as [[i n] o].
+    destruct I as [<-|I]; [congruence|]. right. right. right. apply IH; auto. simpl in L. lia.
+  - destruct I as [<-|I]; [left; auto|]. right. apply IH; auto.
+Qed.
+
+
+(* ------------------------------------------------------------------ *)
+(** * C11_inverse, part 3: marker bookkeeping *)
+
+Lemma last_such_spec : forall (p : epi -> bool) l, last_such p l = last_opt (filter p l).
+Proof.
+  intros p l. unfold last_such.
+  assert (G : forall acc, fold_left (fun acc e => if p e then Some e else acc) l acc =
+                          match last_opt (filter p l) with Some e => Some e | None => acc end).
+  { induction l as [|e l IH]; intros acc; simpl; auto. rewrite IH. destruct (p e); simpl; auto.
+    destruct (last_opt (filter p l)); auto. }
+  rewrite G. destruct (last_opt (filter p l)); auto.
+Qed.
+
+Lemma last_opt_in : forall {A} (l : list A) x, last_opt l = Some x -> In x l.
+Proof.
+  induction l as [|y l IH]; intros x H; simpl in H; [discriminate|].
+  destruct (last_opt l) eqn:E.
+  - inversion H; subst. right. auto.
+  - inversion H; subst. left. auto.
+Qed.
+
+Lemma last_such_in : forall p l e, last_such p l = Some e -> In e l /\ p e = true.
+Proof.
+  intros p l e H. rewrite last_such_spec in H. apply last_opt_in in H. apply filter_In in H. auto.
+Qed.
+
+Lemma find_app_l_none : forall {A} (f : A -> bool) l1 l2, (forall x, In x l1 -> f x = false) ->
+  find f (l1 ++ l2) = find f l2.
+Proof.
+  induction l1 as [|x l1 IH]; intros l2 H; simpl; auto.
+  rewrite H by (left; auto). apply IH. intros. apply H. right. auto.
+Qed.
+Lemma find_none_all : forall {A} (f : A -> bool) l, (forall x, In x l -> f x = false) -> find f l = None.
+Proof.
+  induction l as [|x l IH]; intros H; simpl; auto. rewrite H by (left; auto). apply IH. intros. apply H. right. auto.
+Qed.
+
+Lemma filter_id_all : forall {A} (f : A -> bool) l, (forall x, In x l -> f x = true) -> filter f l = l.
+Proof.
+  induction l as [|x l IH]; intros H; simpl; auto. rewrite H by (left; auto). f_equal. apply IH.
+  intros. apply H. right. auto.
+Qed.
+
+Definition out_epis (L : list epi) : list epi :=
+  filter is_other_epi L ++ push_list (last_such is_push L) ++ filter is_pop L.
+Definition node_epis (L : list epi) : list epi := flat_map role_to_node_epi (filter is_role_epi L).
+
+Lemma edge_markers_eq : forall L, edge_markers L = (node_epis L, out_epis L).
+Proof. reflexivity. Qed.
+
+Lemma is_other_is_aln : forall e, is_other_epi e = is_aln e.
+Proof. destruct e; reflexivity. Qed.
+
+Lemma find_push_out_epis : forall L,
+  find is_push (out_epis L) = last_such is_push L.
+Proof.
+  intros L. unfold out_epis. rewrite find_app_l_none.
+  - destruct (last_such is_push L) as [e|] eqn:E; simpl.
+    + apply last_such_in in E. destruct E as [_ E]. rewrite E. auto.
+    + apply find_none_all. intros x I. apply filter_In in I. destruct I as [_ I]. destruct x; simpl in *; auto; discriminate.
+  - intros x I. apply filter_In in I. destruct I as [_ I]. rewrite is_other_is_aln in I. destruct x; simpl in *; auto; discriminate.
+Qed.
+
+Lemma filter_not_raln_out_epis : forall L, filter is_not_raln (out_epis L) = out_epis L.
+Proof.
+  intros L. unfold out_epis. rewrite !filter_app. f_equal; [|f_equal].
+  - apply filter_id_all. intros x I. apply filter_In in I. destruct I as [_ I]. destruct x; simpl in *; auto; discriminate.
+  - destruct (last_such is_push L) as [e|] eqn:E; simpl; auto.
+    apply last_such_in in E. destruct E as [_ E]. destruct e; simpl in *; auto; discriminate.
+  - apply filter_id_all. intros x I. apply filter_In in I. destruct I as [_ I]. destruct x; simpl in *; auto; discriminate.
+Qed.
+
+Lemma node_epis_last : forall L,
+  match last_such is_aln (node_epis L) with Some a => aln_to_role_epi a | None => [] end =
+  push_list (last_such is_raln L).
+Proof.
+  intros L. rewrite !last_such_spec. unfold node_epis.
+  induction L as [|e L IH]; simpl; auto.
+  destruct e; simpl; auto.
+  (* e = RAln idx pre *)
+  destruct (last_opt (filter is_aln (flat_map role_to_node_epi (filter is_role_epi L)))) eqn:A;
+  destruct (last_opt (filter is_raln L)) eqn:B; simpl in *; auto; try discriminate.
+  - apply last_opt_in in A. apply filter_In in A. destruct A as [_ A].
+    destruct e; simpl in *; discriminate.
+Qed.
+
+Lemma canon_epis_eq : forall L,
+  push_list (last_such is_raln L) ++ out_epis L = canon_epis L.
+Proof.
+  intros L. unfold canon_epis, out_epis. f_equal. f_equal.
+  apply filter_ext. intros. apply is_other_is_aln.
+Qed.
+
+(* lookup in alignments(g) *)
+Definition galn (p : epi -> bool) (d : dict triple (list epi)) : dict triple epi :=
+  flat_map (fun kv : triple * list epi =>
+              match last_such p (snd kv) with Some e => [(fst kv, e)] | None => [] end) d.
+
+Lemma dget_galn : forall p d k, nodup_b triple_eqb (dkeys d) = true ->
+  dget triple_eqb k (galn p d) =
+  match dget triple_eqb k d with Some l => last_such p l | None => None end.
+Proof.
+  intros p d. induction d as [|[k0 l0] d IH]; intros k N; simpl; auto.
+  simpl in N. apply andb_true_iff in N. destruct N as [N1 N2]. apply negb_true_iff in N1.
+  destruct (triple_eqb k k0) eqn:E.
+  - destruct (last_such p l0) as [e|]; simpl.
+    + rewrite E. auto.
+    + rewrite IH by auto.
+      assert (G : dget triple_eqb k d = None).
+      { apply dget_none_notmem. rewrite (T_mem_congr _ k k0 E). auto. }
+      rewrite G. auto.
+  - destruct (last_such p l0) as [e|]; simpl; [rewrite E|]; apply IH; auto.
+Qed.
+
+Lemma alignments_galn : forall g, alignments g = galn is_aln (epidata g).
+Proof. reflexivity. Qed.
+
+
+(* ------------------------------------------------------------------ *)
+(** * C11_inverse, part 4: the agenda of the reified graph *)
+
+Lemma filter_comm : forall {A} (f h : A -> bool) l, filter f (filter h l) = filter h (filter f l).
+Proof.
+  induction l as [|x l IH]; simpl; auto.
+  destruct (h x) eqn:H1; destruct (f x) eqn:H2; simpl; rewrite ?H1, ?H2, IH; auto.
+Qed.
+
+(* parametricity of Model.dereify in the atoms *)
+Lemma outcome_is_ok : forall o t, outcome_is o t = true -> exists x, o = Ok x /\ triple_eqb x t = true.
+Proof. intros o t H. destruct o; simpl in H; try discriminate. eauto. Qed.
+
+Lemma MK_AB : atom_eqb MK_B MK_A = false. Proof. reflexivity. Qed.
+
+Lemma plain_ok_pick : forall m r c sr tr rest, reif_rows m r = (c, sr, tr) :: rest ->
+  row_plain_ok m r = true -> dereify_pick m c sr tr = Some (r, true).
+Proof.
+  intros m r c sr tr rest E H. unfold row_plain_ok in H. rewrite E in H.
+  apply outcome_is_ok in H. destruct H as (x & D & X).
+  rewrite dereify_spec in D by (simpl; rewrite ?str_eqb_refl, ?atom_eqb_refl; auto).
+  rewrite ttgt_mk, !trole_mk in D.
+  destruct (dereify_pick m c sr tr) as [[r' [|]]|]; try discriminate; inversion D; subst x;
+    apply triple_eqb_true in X; rewrite !tsrc_mk, !trole_mk, !ttgt_mk in X; destruct X as (X1 & X2 & X3).
+  - subst. auto.
+  - rewrite MK_AB in X1. discriminate.
+Qed.
+
+Lemma inv_ok_pick : forall m r c sr tr rest, reif_rows m r = (c, sr, tr) :: rest ->
+  row_inv_ok m r = true -> dereify_pick m c tr sr = Some (r, false).
+Proof.
+  intros m r c sr tr rest E H. unfold row_inv_ok in H. rewrite E in H.
+  apply outcome_is_ok in H. destruct H as (x & D & X).
+  rewrite dereify_spec in D by (simpl; rewrite ?str_eqb_refl, ?atom_eqb_refl; auto).
+  rewrite ttgt_mk, !trole_mk in D.
+  destruct (dereify_pick m c tr sr) as [[r' [|]]|]; try discriminate; inversion D; subst x;
+    apply triple_eqb_true in X; rewrite !tsrc_mk, !trole_mk, !ttgt_mk in X; destruct X as (X1 & X2 & X3).
+  - rewrite MK_AB in X1. discriminate.
+  - subst. auto.
+Qed.
+
+Lemma reif_concept_dereifiable : forall m r c sr tr rest, reif_rows m r = (c, sr, tr) :: rest ->
+  is_concept_dereifiable m (AStr c) = true.
+Proof.
+  intros m r c sr tr rest E. apply reif_rows_in in E. unfold is_concept_dereifiable.
+  destruct (deif_rows m c) eqn:D; auto.
+  assert (I : In (r, sr, tr) (deif_rows m c)).
+  { unfold deif_rows. apply in_flat_map. exists (r, c, sr, tr). split; auto. rewrite str_eqb_refl. left. auto. }
+  rewrite D in I. destruct I.
+Qed.
+
+Section Inverse.
+  Variable m : model.
+  Variable g : graph.
+  Variable vs : list str.
+  Hypothesis WF : wf_graph g.
+  Hypothesis EO : epi_ok g.
+  Hypothesis NC : no_collapsible m g.
+  Hypothesis TO : table_ok_for m g = true.
+  Hypothesis NM : names_ok (used_names g) vs.
+  Hypothesis LN : length vs = count_reif m (triples g).
+
+  Let ts := triples g.
+  Let T1 := rtriples m g ts vs.
+  Let E1 := snd (rloop m g ts vs (epidata g)).
+  Let g1 := mkGraph T1 (graph_top g) E1 (gmeta g).
+
+  Lemma F_NG : node_graph g. Proof. apply wf_node_graph. auto. Qed.
+
+  Lemma F_NDT : nodup_b triple_eqb ts = true.
+  Proof.
+    unfold wf_graph, wf_graph_b in WF. apply andb_true_iff in WF. tauto.
+  Qed.
+
+  Lemma F_COL : forall t, In t ts -> has_colon (trole t) = true.
+  Proof. intros. eapply node_graph_colon; eauto. apply F_NG. Qed.
+
+  Lemma F_TO : forall t, In t ts -> row_shape_ok m (trole t) = true /\
+    (if reify_swaps g t then row_inv_ok m (trole t) else row_plain_ok m (trole t)) = true.
+  Proof.
+    intros t I. unfold table_ok_for in TO. rewrite forallb_forall in TO. specialize (TO t I).
+    apply andb_true_iff in TO. auto.
+  Qed.
+  Lemma F_SH : forall t, In t ts -> row_shape_ok m (trole t) = true.
+  Proof. intros. apply F_TO. auto. Qed.
+
+  Lemma F_ND : NoDup vs. Proof. eapply names_ok_nodup; eauto. Qed.
+
+  Lemma F_NV : forall v, In v vs -> is_var g (AStr v) = false /\ mem atom_eqb (AStr v) (map ttgt ts) = false.
+  Proof. intros. eapply names_not_var; eauto. Qed.
+
+  Lemma F_SV : forall t v, In t ts -> In v vs -> atom_eqb (tsrc t) (AStr v) = false.
+  Proof.
+    intros t v It Iv. destruct (atom_eqb (tsrc t) (AStr v)) eqn:E; auto.
+    destruct (F_NV v Iv) as [A _]. rewrite <- (is_var_congr g _ _ E) in A. rewrite src_is_var in A; auto.
+  Qed.
+
+  Lemma F_TV : forall t v, In t ts -> In v vs -> atom_eqb (ttgt t) (AStr v) = false.
+  Proof.
+    intros t v It Iv. destruct (atom_eqb (ttgt t) (AStr v)) eqn:E; auto.
+    destruct (F_NV v Iv) as [_ A]. rewrite atom_eqb_sym in E.
+    rewrite (mem_atom_congr _ _ _ E) in A. rewrite mem_atom_in in A; [discriminate|]. apply in_map. auto.
+  Qed.
+
+  Lemma F_old_new : forall x v, is_var g x = true -> In v vs -> atom_eqb (AStr v) x = false.
+  Proof.
+    intros x v X Iv. destruct (atom_eqb (AStr v) x) eqn:E; auto.
+    destruct (F_NV v Iv) as [A _]. rewrite (is_var_congr g _ _ E) in A. congruence.
+  Qed.
+
+  Lemma F_EK : nodup_b triple_eqb (dkeys (epidata g)) = true /\
+    forall k es, In (k, es) (epidata g) -> is_var g (tsrc k) = true /\ epi_pushes_vars g es = true.
+  Proof.
+    unfold epi_ok, epi_ok_b in EO. apply andb_true_iff in EO. destruct EO as [A B]. split; auto.
+    intros k es I. rewrite forallb_forall in B. specialize (B _ I). simpl in B. apply andb_true_iff in B. auto.
+  Qed.
+
+  Lemma F_LE : count_reif m ts <= length vs. Proof. unfold ts. lia. Qed.
+
+  Lemma F_inst_nreif : forall t, In t ts -> is_inst t = true -> is_role_reifiable m (trole t) = false.
+  Proof.
+    intros t I II. destruct (is_role_reifiable m (trole t)) eqn:R; auto.
+    pose proof (row_shape_facts m (trole t) (F_SH t I) R) as F.
+    destruct (reif_row m (trole t)) as [[c sr] tr]. destruct F as (F & _).
+    unfold is_inst in II. apply str_eqb_eq in II. congruence.
+  Qed.
+
+  Lemma G1_eq : mk_graph T1 (graph_top g) E1 (gmeta g) = g1.
+  Proof.
+    unfold mk_graph, g1. f_equal. apply rtriples_colon.
+    intros t I. split; [apply F_COL|apply F_SH]; auto.
+  Qed.
+
+  Lemma G1_top : graph_top g1 = graph_top g.
+  Proof.
+    rewrite <- G1_eq. apply graph_top_mk_gen. intro E. unfold T1, ts. rewrite E. reflexivity.
+  Qed.
+
+  Lemma G1_top_atom : top_atom g1 = top_atom g.
+  Proof. unfold top_atom. rewrite G1_top. auto. Qed.
+
+  (* variables of g1 *)
+  Lemma G1_var_inv : forall x, is_var g1 x = true -> is_var g x = true \/ exists v, In v vs /\ x = AStr v.
+  Proof.
+    intros x X. rewrite is_var_spec in X. apply orb_true_iff in X. destruct X as [X|X].
+    - apply mem_atom_true in X. destruct X as (b & Ib & E). apply in_map_iff in Ib.
+      destruct Ib as (t' & <- & It'). apply rtriples_src in It'.
+      destruct It' as [(t0 & I0 & E0)|(v0 & I0 & E0)]; rewrite E0 in E.
+      + left. rewrite (is_var_congr g _ _ E). apply src_is_var. auto.
+      + right. exists v0. split; auto. apply atom_eqb_astr_r in E. auto.
+    - left. simpl in X. destruct (graph_top g) as [tp|] eqn:GT; simpl in X; [|discriminate].
+      rewrite orb_false_r in X. rewrite (is_var_congr g _ _ X). apply graph_top_is_var. auto.
+  Qed.
+
+  Lemma G1_var_old : forall t, In t ts -> is_var g1 (tsrc t) = true.
+  Proof.
+    intros t I. destruct (node_graph_has_inst g t F_NG I) as (ti & Ii & II & E).
+    rewrite <- (is_var_congr g1 _ _ E). apply src_is_var. simpl.
+    apply rtriples_keeps_unreified; auto. apply F_LE. apply F_inst_nreif; auto.
+  Qed.
+
+  (* instance / other triples of an old atom *)
+  Lemma G1_insts_old : forall x, (forall v, In v vs -> atom_eqb (AStr v) x = false) ->
+    insts_of T1 x = insts_of ts x.
+  Proof.
+    intros x N. unfold insts_of, T1. rewrite filter_src_rtriples_old by (auto; apply F_LE).
+    rewrite filter_comm. apply filter_id_all. intros t I. apply filter_In in I. destruct I as [I C].
+    apply andb_true_iff in C. destruct C as [_ C]. unfold nreif. rewrite F_inst_nreif; auto.
+  Qed.
+
+  Lemma G1_others_old : forall x, (forall v, In v vs -> atom_eqb (AStr v) x = false) ->
+    others_of T1 x = filter (nreif m) (others_of ts x).
+  Proof.
+    intros x N. unfold others_of, T1.
+    rewrite (filter_src_rtriples_old m g (fun t => negb (is_inst t))) by (auto; apply F_LE).
+    apply filter_comm.
+  Qed.
+
+  (* the three triples of one reification *)
+  Lemma G1_pair : forall t v, In (t, v) (rpairs m ts vs) ->
+    let '(i, n, o) := rexpand m g t v in
+    xfacts m g t v i n o /\ In t ts /\ In v vs /\
+    insts_of T1 (AStr v) = [n] /\ others_of T1 (AStr v) = [i; o].
+  Proof.
+    intros t v I. destruct (rpairs_in _ _ _ _ _ I) as (It & Iv & R).
+    pose proof (filter_src_rtriples_new m g is_inst ts vs t v F_ND I (fun t1 I1 => F_SV t1 v I1 Iv)) as A.
+    pose proof (filter_src_rtriples_new m g (fun t => negb (is_inst t)) ts vs t v F_ND I (fun t1 I1 => F_SV t1 v I1 Iv)) as B.
+    destruct (rexpand m g t v) as [[i n] o] eqn:RX.
+    pose proof (rexpand_xfacts m g t v i n o (F_SH t It) R RX) as X.
+    split; auto. split; auto. split; auto.
+    destruct X as [_ _ (I1 & I2 & I3) _ _ _].
+    unfold insts_of, others_of, T1. rewrite A, B. simpl. rewrite I1, I2, I3. simpl. auto.
+  Qed.
+
+  (* fixed set of g1 *)
+  Lemma G1_fixed_mono : forall x, mem atom_eqb x (fixed_of g) = true -> mem atom_eqb x (fixed_of g1) = true.
+  Proof.
+    intros x H. unfold fixed_of in *. rewrite G1_top_atom. simpl in *.
+    apply orb_true_iff in H. apply orb_true_iff. destruct H as [H|H]; auto. right.
+    apply mem_atom_true in H. destruct H as (b & Ib & E). apply in_map_iff in Ib.
+    destruct Ib as (t & <- & It). apply filter_In in It. destruct It as [It NI]. apply negb_true_iff in NI.
+    destruct (rtriples_keeps_tgt m g ts vs t F_SH F_LE It NI) as [(t' & I' & N' & E') _].
+    apply mem_atom_true. exists (ttgt t'). split; [|rewrite E'; auto].
+    apply in_map. apply filter_In. split; auto. rewrite N'. auto.
+  Qed.
+
+  Lemma G1_fixed_reif_src : forall t, In t ts -> is_role_reifiable m (trole t) = true ->
+    mem atom_eqb (tsrc t) (fixed_of g1) = true.
+  Proof.
+    intros t It R. assert (NI : is_inst t = false).
+    { destruct (is_inst t) eqn:II; auto. rewrite F_inst_nreif in R; auto. }
+    destruct (rtriples_keeps_tgt m g ts vs t F_SH F_LE It NI) as [_ B].
+    destruct (B R) as (t' & I' & N' & E'). unfold fixed_of. simpl. apply orb_true_iff. right.
+    rewrite <- E'. apply mem_atom_in. apply in_map. apply filter_In. split; auto. rewrite N'. auto.
+  Qed.
+
+  Lemma G1_fixed_new : forall v, In v vs -> mem atom_eqb (AStr v) (fixed_of g1) = false.
+  Proof.
+    intros v Iv. unfold fixed_of. rewrite G1_top_atom. simpl. apply orb_false_iff. split.
+    - unfold top_atom. destruct (graph_top g) as [tp|] eqn:GT; auto.
+      apply F_old_new; auto. apply graph_top_is_var; auto.
+    - destruct (mem atom_eqb (AStr v) (map ttgt (filter (fun t => negb (is_inst t)) T1))) eqn:M; auto.
+      apply mem_atom_true in M. destruct M as (b & Ib & E). apply in_map_iff in Ib.
+      destruct Ib as (t' & <- & It'). apply filter_In in It'. destruct It' as [It' NI]. apply negb_true_iff in NI.
+      destruct (rtriples_ni_tgt m g ts vs t' F_SH It' NI) as (t & It & [X|X]); rewrite X in E; rewrite atom_eqb_sym in E.
+      + rewrite F_SV in E; auto.
+      + rewrite F_TV in E; auto.
+  Qed.
+
+  (* epidata of g1 on untouched triples *)
+  Lemma G1_epis_old : forall t, In t ts -> is_role_reifiable m (trole t) = false -> epis_of g1 t = epis_of g t.
+  Proof.
+    intros t It R. unfold epis_of. simpl. unfold E1. rewrite rloop_frame; auto.
+    - intros t0 I0 R0. apply triple_eqb_role_false.
+      destruct (str_eqb (trole t) (trole t0)) eqn:E; auto. apply str_eqb_eq in E. congruence.
+    - intros v Iv. apply F_SV; auto.
+  Qed.
+
+  Lemma G1_nodup_keys : nodup_b triple_eqb (dkeys E1) = true.
+  Proof. unfold E1. apply rloop_nodup. apply F_EK. Qed.
+
+  Lemma G1_lookup : forall t v, In (t, v) (rpairs m ts vs) ->
+    let '(i, n, o) := rexpand m g t v in
+    dget triple_eqb i E1 = Some [Push (AStr v)] /\
+    dget triple_eqb n E1 = Some (node_epis (epis_of g t)) /\
+    dget triple_eqb o E1 = Some (out_epis (epis_of g t)) /\
+    dget triple_eqb t E1 = None.
+  Proof.
+    intros t v I. pose proof (rloop_lookup m g ts vs (epidata g) (proj1 F_EK) F_NDT F_ND F_SH F_SV t v I) as H.
+    destruct (rexpand m g t v) as [[i n] o]. cbv zeta in H. rewrite edge_markers_eq in H. exact H.
+  Qed.
+
+  (* an old atom is not collapsible in g1 *)
+  Lemma G1_old_none : forall x, (forall v, In v vs -> atom_eqb (AStr v) x = false) -> collapsible m g1 x = None.
+  Proof.
+    intros x N.
+    assert (C0 : collapsible m g x = None).
+    { unfold no_collapsible in NC. rewrite <- (agenda_spec m g [] NC x). reflexivity. }
+    unfold collapsible in *. simpl triples. rewrite G1_insts_old by auto. fold ts in C0.
+    destruct (last_opt (insts_of ts x)) as [i|] eqn:LI; auto.
+    unfold agenda_item in *.
+    destruct (mem atom_eqb x (fixed_of g1)) eqn:F1; auto.
+    assert (F0 : mem atom_eqb x (fixed_of g) = false).
+    { destruct (mem atom_eqb x (fixed_of g)) eqn:F0; auto. rewrite G1_fixed_mono in F1; auto. }
+    rewrite F0 in C0.
+    assert (NR : forall t, In t (others_of ts x) -> nreif m t = true).
+    { intros t I. apply others_of_in in I. destruct I as (It & E & _).
+      unfold nreif. destruct (is_role_reifiable m (trole t)) eqn:R; auto.
+      rewrite <- (mem_atom_congr _ _ _ E), G1_fixed_reif_src in F1; auto. }
+    assert (O1 : others_of T1 x = others_of ts x).
+    { rewrite G1_others_old by auto. apply filter_id_all. auto. }
+    unfold own_entry in *. rewrite O1.
+    destruct (others_of ts x) as [|o1 [|o2 [|o3 l]]] eqn:OS; simpl dget in *; rewrite ?atom_eqb_refl in *; auto.
+    assert (I1 : In o1 ts /\ nreif m o1 = true).
+    { split; [|apply NR; left; auto]. assert (X : In o1 (others_of ts x)) by (rewrite OS; left; auto).
+      apply others_of_in in X. tauto. }
+    assert (I2 : In o2 ts /\ nreif m o2 = true).
+    { split; [|apply NR; right; left; auto]. assert (X : In o2 (others_of ts x)) by (rewrite OS; right; left; auto).
+      apply others_of_in in X. tauto. }
+    destruct I1 as [I1 R1], I2 as [I2 R2]. unfold nreif in R1, R2. apply negb_true_iff in R1, R2.
+    destruct (is_concept_dereifiable m (ttgt i)); auto.
+    assert (PV : pushed_value g1 o2 = pushed_value g o2).
+    { unfold pushed_value, get_pushed_variable. rewrite G1_epis_old; auto. }
+    rewrite PV.
+    set (first := if atom_eqb (pushed_value g o2) x then o2 else o1) in *.
+    set (second := if atom_eqb (pushed_value g o2) x then o1 else o2) in *.
+    destruct (dereify m i first second) as [d| | | | | | | |] eqn:D; auto.
+    destruct (is_var g (tsrc d)) eqn:V; simpl in C0; [discriminate|].
+    destruct (is_var g1 (tsrc d)) eqn:V1; simpl; auto.
+    exfalso. apply G1_var_inv in V1. destruct V1 as [V1|(v & Iv & EV)]; [congruence|].
+    apply dereify_ok_inv in D. destruct D as (_ & _ & _ & _ & SRC).
+    assert (TG : exists t, In t ts /\ tsrc d = ttgt t).
+    { unfold first, second in SRC. destruct (atom_eqb (pushed_value g o2) x);
+        destruct SRC as [[-> _]|[-> _]]; eauto. }
+    destruct TG as (t & It & ET). rewrite ET in EV.
+    pose proof (F_TV t v It Iv) as X. rewrite EV, atom_eqb_refl in X. discriminate.
+  Qed.
+
+  (* a new variable is collapsible, and dereifies to the original triple *)
+  Lemma G1_new_some : forall t v, In (t, v) (rpairs m ts vs) ->
+    let '(i, n, o) := rexpand m g t v in
+    collapsible m g1 (AStr v) = Some (i, t, canon_epis (epis_of g t)).
+  Proof.
+    intros t v I. pose proof (G1_pair t v I) as P. pose proof (G1_lookup t v I) as LK.
+    destruct (rexpand m g t v) as [[i n] o] eqn:RX.
+    destruct P as (X & It & Iv & IN & OT). destruct LK as (L1 & L2 & L3 & L4).
+    destruct (rpairs_in _ _ _ _ _ I) as (_ & _ & R).
+    unfold collapsible. simpl triples. fold T1. rewrite IN. simpl last_opt. cbv iota.
+    unfold agenda_item. rewrite G1_fixed_new by auto.
+    unfold own_entry. rewrite OT. unfold dget. rewrite atom_eqb_refl.
+    (* the row *)
+    destruct (reifiable_rows _ _ R) as (c & sr & tr & rest & RR).
+    pose proof (rexpand_cases _ _ _ _ _ _ _ RX) as RC. unfold reif_row in RC. rewrite RR in RC.
+    destruct RC as (EN & RC).
+    assert (CD : is_concept_dereifiable m (ttgt n) = true).
+    { rewrite EN, ttgt_mk. eapply reif_concept_dereifiable; eauto. }
+    rewrite CD.
+    (* the third triple carries the old markers: its Push, if any, names an old variable *)
+    assert (PV : atom_eqb (pushed_value g1 o) (AStr v) = false).
+    { unfold pushed_value, get_pushed_variable, epis_of. simpl epidata. rewrite L3.
+      rewrite find_push_out_epis. destruct (last_such is_push (epis_of g t)) as [e|] eqn:LP; auto.
+      apply last_such_in in LP. destruct LP as [Ie Pe]. destruct e as [x| | |]; simpl in Pe; try discriminate.
+      unfold epis_of in Ie. destruct (dget triple_eqb t (epidata g)) as [l|] eqn:G; [|destruct Ie].
+      apply (dget_some_in triple_eqb) in G. destruct G as (k' & Ik & _).
+      destruct (proj2 F_EK _ _ Ik) as [_ PVs]. unfold epi_pushes_vars in PVs. rewrite forallb_forall in PVs.
+      specialize (PVs _ Ie). simpl in PVs. rewrite atom_eqb_sym. apply F_old_new; auto. }
+    rewrite PV.
+    (* dereify gives the original triple back *)
+    destruct (F_TO t It) as [_ OK].
+    assert (D : dereify m n i o = Ok t).
+    { rewrite dereify_spec.
+      - rewrite EN, ttgt_mk. destruct RC as [(-> & -> & SW)|(-> & -> & SW)]; rewrite SW in OK; rewrite !trole_mk, !ttgt_mk.
+        + rewrite (plain_ok_pick m (trole t) c sr tr rest RR OK). destruct t as [[s r] x]. reflexivity.
+        + rewrite (inv_ok_pick m (trole t) c sr tr rest RR OK). destruct t as [[s r] x]. reflexivity.
+      - destruct X as [_ _ (_ & A & _) _ _ _]. auto.
+      - destruct X as [(A & B & _) _ _ _ _ _]. rewrite A, B. apply atom_eqb_refl.
+      - destruct X as [(A & _ & B) _ _ _ _ _]. rewrite A, B. apply atom_eqb_refl. }
+    rewrite D. rewrite (G1_var_old t It). simpl negb. cbv iota.
+    (* markers *)
+    rewrite alignments_galn, dget_galn by (simpl; apply G1_nodup_keys).
+    simpl epidata. rewrite L2. unfold epis_of at 2. simpl epidata. rewrite L3.
+    rewrite node_epis_last, filter_not_raln_out_epis, canon_epis_eq. reflexivity.
+  Qed.
+
+  (* ---------------------------------------------------------------- *)
+  (** part 5: running dereify_edges over the reified graph *)
+
+  Lemma dget_del_other : forall (d : dict triple (list epi)) k x, triple_eqb k x = false ->
+    dget triple_eqb k (del_if_present x d) = dget triple_eqb k d.
+  Proof. intros. unfold del_if_present. destruct (dmem triple_eqb x d); auto. apply dget_ddel_other. auto. Qed.
+
+  Lemma dget_del_same : forall (d : dict triple (list epi)) k x, nodup_b triple_eqb (dkeys d) = true ->
+    triple_eqb k x = true -> dget triple_eqb k (del_if_present x d) = None.
+  Proof.
+    intros d k x N E. unfold del_if_present. destruct (dmem triple_eqb x d) eqn:M.
+    - rewrite T_dget_ddel by auto. rewrite E. auto.
+    - unfold dmem in M. rewrite (T_dget_congr d k x E). destruct (dget triple_eqb x d); auto. discriminate.
+  Qed.
+
+  Lemma nodup_del : forall (d : dict triple (list epi)) x, nodup_b triple_eqb (dkeys d) = true ->
+    nodup_b triple_eqb (dkeys (del_if_present x d)) = true.
+  Proof. intros. unfold del_if_present. destruct (dmem triple_eqb x d); auto. apply nodup_ddel. auto. Qed.
+
+  (* what the agenda must say about a list of triples / names *)
+  Definition ag_ok (ag : dict atom agenda_entry) (l : list triple) (ws : list str) : Prop :=
+    (forall t v, In (t, v) (rpairs m l ws) ->
+       let '(i, n, o) := rexpand m g t v in
+       dget atom_eqb (AStr v) ag = Some (i, t, canon_epis (epis_of g t))) /\
+    (forall t, In t l -> is_role_reifiable m (trole t) = false -> dget atom_eqb (tsrc t) ag = None).
+
+  Lemma ag_ok_tail_reif : forall ag t l v ws, is_role_reifiable m (trole t) = true ->
+    ag_ok ag (t :: l) (v :: ws) -> ag_ok ag l ws.
+  Proof.
+    intros ag t l v ws R [A B]. split.
+    - intros t1 v1 I. apply A. cbn [rpairs]. rewrite R. right. auto.
+    - intros t1 I. apply B. right. auto.
+  Qed.
+  Lemma ag_ok_tail_nreif : forall ag t l ws, is_role_reifiable m (trole t) = false ->
+    ag_ok ag (t :: l) ws -> ag_ok ag l ws.
+  Proof.
+    intros ag t l ws R [A B]. split.
+    - intros t1 v1 I. apply A. cbn [rpairs]. rewrite R. auto.
+    - intros t1 I. apply B. right. auto.
+  Qed.
+
+  (* local facts about a sublist of the triples *)
+  Definition sub_ok (l : list triple) (ws : list str) : Prop :=
+    (forall t, In t l -> In t ts) /\ (forall v, In v ws -> In v vs) /\
+    nodup_b triple_eqb l = true /\ NoDup ws /\ count_reif m l <= length ws.
+
+  Lemma sub_ok_tail_reif : forall t l v ws, is_role_reifiable m (trole t) = true ->
+    sub_ok (t :: l) (v :: ws) -> sub_ok l ws /\ In t ts /\ In v vs /\ ~ In v ws /\ mem triple_eqb t l = false.
+  Proof.
+    intros t l v ws R (A & B & C & D & E). simpl in C. apply andb_true_iff in C. destruct C as [C1 C2].
+    apply negb_true_iff in C1. inversion D; subst. rewrite count_reif_cons, R in E. simpl in E.
+    split; [|split; [|split; [|split]]]; auto.
+    - unfold sub_ok. split; [|split; [|split; [|split]]]; auto.
+      + intros. apply A. right. auto.
+      + intros. apply B. right. auto.
+      + lia.
+    - apply A. left. auto.
+    - apply B. left. auto.
+  Qed.
+  Lemma sub_ok_tail_nreif : forall t l ws, is_role_reifiable m (trole t) = false ->
+    sub_ok (t :: l) ws -> sub_ok l ws /\ In t ts.
+  Proof.
+    intros t l ws R (A & B & C & D & E). simpl in C. apply andb_true_iff in C. destruct C as [C1 C2].
+    rewrite count_reif_cons, R in E. simpl in E.
+    split; [|apply A; left; auto].
+    unfold sub_ok. split; [|split; [|split; [|split]]]; auto.
+    intros. apply A. right. auto.
+  Qed.
+
+  Lemma D_triples : forall ag l ws, sub_ok l ws -> ag_ok ag l ws ->
+    dtriples ag (rtriples m g l ws) = l.
+  Proof.
+    intros ag l. induction l as [|t l IH]; intros ws SO AO; auto.
+    simpl rtriples. destruct (is_role_reifiable m (trole t)) eqn:R.
+    - destruct ws as [|v ws]; [destruct SO as (_ & _ & _ & _ & E); rewrite count_reif_cons, R in E; simpl in E; lia|].
+      destruct (sub_ok_tail_reif _ _ _ _ R SO) as (SO' & It & Iv & NI & NM').
+      pose proof (proj1 AO t v) as A. cbn [rpairs] in A. rewrite R in A. specialize (A (or_introl eq_refl)).
+      destruct (rexpand m g t v) as [[i n] o] eqn:RX.
+      pose proof (rexpand_xfacts m g t v i n o (F_SH t It) R RX) as X.
+      destruct X as [(S1 & S2 & S3) (D1 & D2 & D3) _ _ _ _].
+      cbn [dtriples]. rewrite S1, S2, S3, A. rewrite triple_eqb_refl.
+      rewrite (triple_eqb_sym n i), D1, (triple_eqb_sym o i), D2.
+      f_equal. apply IH; auto. eapply ag_ok_tail_reif; eauto.
+    - destruct (sub_ok_tail_nreif _ _ _ R SO) as (SO' & It).
+      cbn [dtriples]. rewrite (proj2 AO t (or_introl eq_refl) R). f_equal.
+      apply IH; auto. eapply ag_ok_tail_nreif; eauto.
+  Qed.
+
+  (* one step of the loop on a reified triple *)
+  Definition after_reif (i n o t : triple) (e : list epi) (ed : dict triple (list epi)) : dict triple (list epi) :=
+    del_if_present o (del_if_present n (del_if_present i (dset triple_eqb t e ed))).
+
+  Lemma dloop_unfold_reif : forall ag t l v ws ed i n o,
+    is_role_reifiable m (trole t) = true -> sub_ok (t :: l) (v :: ws) -> ag_ok ag (t :: l) (v :: ws) ->
+    rexpand m g t v = (i, n, o) ->
+    snd (dereify_edges_loop ag (rtriples m g (t :: l) (v :: ws)) ed) =
+    snd (dereify_edges_loop ag (rtriples m g l ws) (after_reif i n o t (canon_epis (epis_of g t)) ed)).
+  Proof.
+    intros ag t l v ws ed i n o R SO AO RX.
+    destruct (sub_ok_tail_reif _ _ _ _ R SO) as (SO' & It & Iv & NI & NM').
+    pose proof (proj1 AO t v) as A. cbn [rpairs] in A. rewrite R in A. specialize (A (or_introl eq_refl)).
+    rewrite RX in A.
+    pose proof (rexpand_xfacts m g t v i n o (F_SH t It) R RX) as X.
+    destruct X as [(S1 & S2 & S3) (D1 & D2 & D3) _ _ _ _].
+    simpl rtriples. rewrite R, RX. cbn [dereify_edges_loop]. rewrite S1, S2, S3, A.
+    rewrite triple_eqb_refl, (triple_eqb_sym n i), D1, (triple_eqb_sym o i), D2.
+    unfold after_reif.
+    destruct (dereify_edges_loop ag (rtriples m g l ws) _) as [r1 r2]. reflexivity.
+  Qed.
+
+  Lemma dloop_unfold_nreif : forall ag t l ws ed,
+    is_role_reifiable m (trole t) = false -> ag_ok ag (t :: l) ws ->
+    snd (dereify_edges_loop ag (rtriples m g (t :: l) ws) ed) =
+    snd (dereify_edges_loop ag (rtriples m g l ws) ed).
+  Proof.
+    intros ag t l ws ed R AO. simpl rtriples. rewrite R. cbn [dereify_edges_loop].
+    rewrite (proj2 AO t (or_introl eq_refl) R).
+    destruct (dereify_edges_loop ag (rtriples m g l ws) ed) as [r1 r2]. reflexivity.
+  Qed.
+
+  (* (F1) keys nobody touches *)
+  Lemma D_frame : forall ag l ws ed k, sub_ok l ws -> ag_ok ag l ws ->
+    (forall t v, In (t, v) (rpairs m l ws) ->
+       let '(i, n, o) := rexpand m g t v in
+       triple_eqb k t = false /\ triple_eqb k i = false /\ triple_eqb k n = false /\ triple_eqb k o = false) ->
+    dget triple_eqb k (snd (dereify_edges_loop ag (rtriples m g l ws) ed)) = dget triple_eqb k ed.
+  Proof.
+    intros ag l. induction l as [|t l IH]; intros ws ed k SO AO H; auto.
+    destruct (is_role_reifiable m (trole t)) eqn:R.
+    - destruct ws as [|v ws]; [destruct SO as (_ & _ & _ & _ & E); rewrite count_reif_cons, R in E; simpl in E; lia|].
+      destruct (sub_ok_tail_reif _ _ _ _ R SO) as (SO' & _).
+      pose proof (H t v) as H0. cbn [rpairs] in H0. rewrite R in H0. specialize (H0 (or_introl eq_refl)).
+      destruct (rexpand m g t v) as [[i n] o] eqn:RX. destruct H0 as (K0 & K1 & K2 & K3).
+      rewrite (dloop_unfold_reif ag t l v ws ed i n o R SO AO RX).
+      rewrite IH; auto.
+      + unfold after_reif. rewrite !dget_del_other by auto. rewrite T_dget_dset, K0. auto.
+      + eapply ag_ok_tail_reif; eauto.
+      + intros t1 v1 I1. apply H. cbn [rpairs]. rewrite R. right. auto.
+    - destruct (sub_ok_tail_nreif _ _ _ R SO) as (SO' & _).
+      rewrite (dloop_unfold_nreif ag t l ws ed R AO). apply IH; auto.
+      + eapply ag_ok_tail_nreif; eauto.
+      + intros t1 v1 I1. apply H. cbn [rpairs]. rewrite R. auto.
+  Qed.
+
+  (* separation facts between one pair and the pairs of a later sublist *)
+  Lemma pair_sep : forall l ws t v t1 v1, sub_ok l ws -> In t ts -> In v vs -> ~ In v ws ->
+    mem triple_eqb t l = false -> is_role_reifiable m (trole t) = true ->
+    In (t1, v1) (rpairs m l ws) ->
+    let '(i, n, o) := rexpand m g t v in
+    let '(i1, n1, o1) := rexpand m g t1 v1 in
+    forall k, (triple_eqb k t = true \/ triple_eqb k i = true \/ triple_eqb k n = true \/ triple_eqb k o = true) ->
+      triple_eqb k t1 = false /\ triple_eqb k i1 = false /\ triple_eqb k n1 = false /\ triple_eqb k o1 = false.
+  Proof.
+    intros l ws t v t1 v1 SO It Iv NI NM' R I1.
+    destruct (rpairs_in _ _ _ _ _ I1) as (A1 & B1 & C1). destruct SO as (SA & SB & _).
+    destruct (rexpand m g t v) as [[i n] o] eqn:RX. destruct (rexpand m g t1 v1) as [[i1 n1] o1] eqn:RX1.
+    destruct (rexpand_src _ _ _ _ _ _ _ RX) as (S1 & S2 & S3).
+    destruct (rexpand_src _ _ _ _ _ _ _ RX1) as (Q1 & Q2 & Q3).
+    assert (NE : atom_eqb (AStr v) (AStr v1) = false).
+    { simpl. apply str_eqb_neq. intro E. subst. contradiction. }
+    assert (TT : triple_eqb t t1 = false).
+    { destruct (triple_eqb t t1) eqn:E; auto.
+      assert (M : mem triple_eqb t l = true) by (unfold mem; apply existsb_exists; exists t1; split; auto). congruence. }
+    assert (ST : atom_eqb (tsrc t) (AStr v1) = false) by (apply F_SV; auto).
+    assert (ST1 : atom_eqb (AStr v) (tsrc t1) = false) by (rewrite atom_eqb_sym; apply F_SV; auto).
+    intros k [K|[K|[K|K]]]; rewrite !(triple_eqb_congr_l _ _ _ K);
+      repeat split; auto; apply triple_eqb_src_false; rewrite ?S1, ?S2, ?S3, ?Q1, ?Q2, ?Q3; auto.
+  Qed.
+
+  (* (F2)/(F3): the reified triple gets its markers back, the three new keys disappear *)
+  Lemma D_lookup : forall ag l ws ed, sub_ok l ws -> ag_ok ag l ws ->
+    nodup_b triple_eqb (dkeys ed) = true ->
+    forall t v, In (t, v) (rpairs m l ws) ->
+      let '(i, n, o) := rexpand m g t v in
+      let Ef := snd (dereify_edges_loop ag (rtriples m g l ws) ed) in
+      dget triple_eqb t Ef = Some (canon_epis (epis_of g t)) /\
+      dget triple_eqb i Ef = None /\ dget triple_eqb n Ef = None /\ dget triple_eqb o Ef = None.
+  Proof.
+    intros ag l. induction l as [|t0 l IH]; intros ws ed SO AO NK t v I; [destruct I|].
+    cbn [rpairs] in I. destruct (is_role_reifiable m (trole t0)) eqn:R0.
+    - destruct ws as [|v0 ws]; [destruct I|].
+      destruct (sub_ok_tail_reif _ _ _ _ R0 SO) as (SO' & It0 & Iv0 & NI & NM').
+      destruct (rexpand m g t0 v0) as [[i0 n0] o0] eqn:RX0.
+      pose proof (rexpand_xfacts m g t0 v0 i0 n0 o0 (F_SH t0 It0) R0 RX0) as X0.
+      destruct X0 as [(S1 & S2 & S3) (D1 & D2 & D3) _ _ _ _].
+      assert (ST0 : atom_eqb (tsrc t0) (AStr v0) = false) by (apply F_SV; auto).
+      assert (T0i : triple_eqb t0 i0 = false) by (apply triple_eqb_src_false; rewrite S1; auto).
+      assert (T0n : triple_eqb t0 n0 = false) by (apply triple_eqb_src_false; rewrite S2; auto).
+      assert (T0o : triple_eqb t0 o0 = false) by (apply triple_eqb_src_false; rewrite S3; auto).
+      set (e0 := canon_epis (epis_of g t0)).
+      set (ed1 := dset triple_eqb t0 e0 ed).
+      set (ed2 := del_if_present i0 ed1). set (ed3 := del_if_present n0 ed2).
+      assert (N1 : nodup_b triple_eqb (dkeys ed1) = true) by (apply T_nodup_dset; auto).
+      assert (N2 : nodup_b triple_eqb (dkeys ed2) = true) by (apply nodup_del; auto).
+      assert (N3 : nodup_b triple_eqb (dkeys ed3) = true) by (apply nodup_del; auto).
+      assert (N4 : nodup_b triple_eqb (dkeys (after_reif i0 n0 o0 t0 e0 ed)) = true) by (apply nodup_del; auto).
+      destruct I as [I|I].
+      + inversion I; subst t v. clear I. rewrite RX0. cbv zeta.
+        rewrite (dloop_unfold_reif ag t0 l v0 ws ed i0 n0 o0 R0 SO AO RX0). fold e0.
+        assert (FR : forall k, (triple_eqb k t0 = true \/ triple_eqb k i0 = true \/ triple_eqb k n0 = true \/ triple_eqb k o0 = true) ->
+          dget triple_eqb k (snd (dereify_edges_loop ag (rtriples m g l ws) (after_reif i0 n0 o0 t0 e0 ed))) =
+          dget triple_eqb k (after_reif i0 n0 o0 t0 e0 ed)).
+        { intros k K. apply D_frame; auto. { eapply ag_ok_tail_reif; eauto. }
+          intros t1 v1 I1. pose proof (pair_sep l ws t0 v0 t1 v1 SO' It0 Iv0 NI NM' R0 I1) as PS.
+          rewrite RX0 in PS. destruct (rexpand m g t1 v1) as [[i1 n1] o1]. apply PS. auto. }
+        rewrite !FR by (rewrite ?triple_eqb_refl; auto).
+        unfold after_reif. unfold ed3, ed2, ed1 in *. repeat split.
+        * rewrite !dget_del_other by auto. rewrite T_dget_dset, triple_eqb_refl. auto.
+        * rewrite dget_del_other by auto. rewrite dget_del_other by auto.
+          apply dget_del_same; auto. apply triple_eqb_refl.
+        * rewrite dget_del_other by auto. apply dget_del_same; auto. apply triple_eqb_refl.
+        * apply dget_del_same; auto. apply triple_eqb_refl.
+      + rewrite (dloop_unfold_reif ag t0 l v0 ws ed i0 n0 o0 R0 SO AO RX0).
+        apply IH; auto. eapply ag_ok_tail_reif; eauto.
+    - destruct (sub_ok_tail_nreif _ _ _ R0 SO) as (SO' & _).
+      rewrite (dloop_unfold_nreif ag t0 l ws ed R0 AO). apply IH; auto. eapply ag_ok_tail_nreif; eauto.
+  Qed.
+
+  (* ---------------------------------------------------------------- *)
+  (** part 6: assembling *)
+
+  Lemma G1_ag_ok : forall ag, dereify_agenda m g1 = Ok ag -> ag_ok ag ts vs.
+  Proof.
+    intros ag H. split.
+    - intros t v I. pose proof (G1_new_some t v I) as X. destruct (rexpand m g t v) as [[i n] o].
+      rewrite (agenda_spec m g1 ag H). exact X.
+    - intros t I R. rewrite (agenda_spec m g1 ag H). apply G1_old_none.
+      intros v Iv. rewrite atom_eqb_sym. apply F_SV; auto.
+  Qed.
+
+  Lemma G1_sub_ok : sub_ok ts vs.
+  Proof.
+    unfold sub_ok. split; [|split; [|split; [|split]]]; auto.
+    - apply F_NDT.
+    - apply F_ND.
+    - apply F_LE.
+  Qed.
+
+  Lemma existsb_false_all : forall {A} (f : A -> bool) l, existsb f l = false -> forall x, In x l -> f x = false.
+  Proof.
+    induction l as [|y l IH]; intros H x I; [destruct I|]. simpl in H. apply orb_false_iff in H.
+    destruct I as [<-|I]; [tauto|]. apply IH; tauto.
+  Qed.
+
+  Definition reified_key (k : triple) : bool :=
+    mem triple_eqb k (filter (fun t => is_role_reifiable m (trole t)) ts).
+
+  Theorem inverse_main : forall g2, dereify_edges m g1 = Ok g2 ->
+    triples g2 = triples g /\ gtop g2 = graph_top g /\ gmeta g2 = gmeta g /\
+    forall k, epis_of g2 k = if reified_key k then canon_epis (epis_of g k) else epis_of g k.
+  Proof.
+    intros g2 H. apply dereify_edges_pure in H. destruct H as (ag & AG & ->).
+    pose proof (G1_ag_ok ag AG) as AO. pose proof G1_sub_ok as SO.
+    change (triples g1) with T1. change (epidata g1) with E1. change (gmeta g1) with (gmeta g).
+    split; [|split; [|split]].
+    - rewrite triples_mk. unfold T1. rewrite (D_triples ag ts vs SO AO). apply map_colonize_id. apply F_COL.
+    - simpl. apply G1_top.
+    - reflexivity.
+    - intros k. unfold epis_of at 1. simpl epidata. fold T1.
+      set (Ef := snd (dereify_edges_loop ag T1 E1)).
+      unfold reified_key. destruct (mem triple_eqb k (filter (fun t => is_role_reifiable m (trole t)) ts)) eqn:M.
+      + unfold mem in M. apply existsb_exists in M. destruct M as (t & It & E).
+        apply filter_In in It. destruct It as [It R].
+        destruct (rpairs_total m ts vs t F_LE It R) as [v Iv].
+        pose proof (D_lookup ag ts vs E1 SO AO G1_nodup_keys t v Iv) as LK.
+        destruct (rexpand m g t v) as [[i n] o]. cbv zeta in LK. destruct LK as (LK & _).
+        unfold Ef, T1. rewrite (T_dget_congr _ k t E), LK.
+        unfold epis_of. rewrite (T_dget_congr (epidata g) k t E). reflexivity.
+      + pose proof (existsb_false_all _ _ M) as M'. clear M.
+        destruct (existsb (fun tv : triple * str => let '(i, n, o) := rexpand m g (fst tv) (snd tv) in
+                     triple_eqb k i || triple_eqb k n || triple_eqb k o) (rpairs m ts vs)) eqn:X.
+        * apply existsb_exists in X. destruct X as ([t v] & Iv & X). simpl in X.
+          pose proof (D_lookup ag ts vs E1 SO AO G1_nodup_keys t v Iv) as LK.
+          destruct (rpairs_in _ _ _ _ _ Iv) as (It & Ivs & R).
+          destruct (rexpand m g t v) as [[i n] o] eqn:RX. cbv zeta in LK. destruct LK as (_ & L1 & L2 & L3).
+          destruct (rexpand_src _ _ _ _ _ _ _ RX) as (S1 & S2 & S3).
+          assert (KN : dget triple_eqb k Ef = None /\ atom_eqb (tsrc k) (AStr v) = true).
+          { apply orb_true_iff in X. destruct X as [X|X]; [apply orb_true_iff in X; destruct X as [X|X]|];
+              unfold Ef, T1; rewrite (T_dget_congr _ _ _ X); split; auto;
+              apply triple_eqb_true in X; destruct X as (X & _); rewrite ?S1, ?S2, ?S3 in X; auto. }
+          destruct KN as [KN KS]. rewrite KN.
+          unfold epis_of. destruct (dget triple_eqb k (epidata g)) as [l|] eqn:G; auto.
+          apply (dget_some_in triple_eqb) in G. destruct G as (k' & Ik & E).
+          destruct (proj2 F_EK _ _ Ik) as [V _].
+          apply triple_eqb_true in E. destruct E as (E & _).
+          rewrite <- (is_var_congr g _ _ E), (is_var_congr g _ _ KS) in V.
+          destruct (F_NV v Ivs) as [NV _]. congruence.
+        * pose proof (existsb_false_all _ _ X) as X'. clear X.
+          assert (SEP : forall t v, In (t, v) (rpairs m ts vs) ->
+                    let '(i, n, o) := rexpand m g t v in
+                    triple_eqb k t = false /\ triple_eqb k i = false /\ triple_eqb k n = false /\ triple_eqb k o = false).
+          { intros t v Iv. specialize (X' (t, v) Iv). simpl in X'.
+            destruct (rpairs_in _ _ _ _ _ Iv) as (It & _ & R).
+            destruct (rexpand m g t v) as [[i n] o].
+            apply orb_false_iff in X'. destruct X' as [X' X3]. apply orb_false_iff in X'. destruct X' as [X1 X2].
+            repeat split; auto. apply M'. apply filter_In. split; auto. }
+          unfold Ef, T1. rewrite (D_frame ag ts vs E1 k SO AO SEP).
+          unfold E1. rewrite (rloop_frame2 m g ts vs (epidata g) k SEP). reflexivity.
+  Qed.
+End Inverse.
+
+(* the theorem, for the graphs reify_edges / dereify_edges actually return *)
+Theorem inverse_thm : forall m g g1 g2,
+  wf_graph g -> epi_ok g -> no_collapsible m g -> table_ok_for m g = true ->
+  reify_edges m g = Ok g1 -> dereify_edges m g1 = Ok g2 ->
+  triples g2 = triples g /\ gtop g2 = graph_top g /\ gmeta g2 = gmeta g /\
+  forall k, epis_of g2 k = if reified_key m g k then canon_epis (epis_of g k) else epis_of g k.
+Proof.
+  intros m g g1 g2 WF EO NC TO H1 H2. apply reify_edges_pure in H1. destruct H1 as (vs & NM & LN & ->).
+  rewrite (G1_eq m g vs WF TO) in H2.
+  eapply inverse_main; eauto.
+Qed.
+
+(* ------------------------------------------------------------------ *)
+(** * Corollaries of the inverse theorem *)
+
+Lemma inverse_canonical : forall m g g1 g2,
+  wf_graph g -> epi_ok g -> no_collapsible m g -> table_ok_for m g = true ->
+  (forall t, In t (triples g) -> is_role_reifiable m (trole t) = true ->
+     canon_epis (epis_of g t) = epis_of g t) ->
+  reify_edges m g = Ok g1 -> dereify_edges m g1 = Ok g2 ->
+  triples g2 = triples g /\ graph_top g2 = graph_top g /\ gmeta g2 = gmeta g /\
+  forall k, epis_of g2 k = epis_of g k.
+Proof.
+  intros m g g1 g2 WF EO NC TO CAN H1 H2.
+  destruct (inverse_thm m g g1 g2 WF EO NC TO H1 H2) as (A & B & C & D).
+  split; auto. split; [|split; auto].
+  - rewrite (dereify_edges_top _ _ _ H2). apply (reify_edges_top _ _ _ H1).
+  - intros k. rewrite D. unfold reified_key.
+    destruct (mem triple_eqb k (filter (fun t => is_role_reifiable m (trole t)) (triples g))) eqn:M; auto.
+    unfold mem in M. apply existsb_exists in M. destruct M as (t & It & E).
+    apply filter_In in It. destruct It as [It R].
+    unfold epis_of. rewrite (T_dget_congr (epidata g) k t E). apply (CAN t It R).
+Qed.
+
+Lemma inverse_exists : forall m g,
+  wf_graph g -> epi_ok g -> no_collapsible m g -> table_ok_for m g = true ->
+  exists g1 g2, reify_edges m g = Ok g1 /\ dereify_edges m g1 = Ok g2 /\
+    triples g2 = triples g /\ graph_top g2 = graph_top g /\ gmeta g2 = gmeta g.
+Proof.
+  intros m g WF EO NC TO. destruct (reify_edges_total m g) as [g1 H1].
+  destruct (dereify_edges_total m g1) as [g2 H2]. exists g1, g2.
+  destruct (inverse_thm m g g1 g2 WF EO NC TO H1 H2) as (A & B & C & D).
+  repeat split; auto. rewrite (dereify_edges_top _ _ _ H2). apply (reify_edges_top _ _ _ H1).
+Qed.
+
+Lemma table_ok_sufficient : forall m g, table_ok m (roles_used g) -> table_ok_for m g = true.
+Proof.
+  intros m g H. unfold table_ok, roles_used in H. rewrite forallb_forall in H.
+  unfold table_ok_for. apply forallb_forall. intros t I.
+  specialize (H (trole t) (in_map trole _ _ I)). unfold table_ok_role in H.
+  apply andb_true_iff in H. destruct H as [H H3]. apply andb_true_iff in H. destruct H as [H1 H2].
+  rewrite H1. destruct (reify_swaps g t); auto.
+Qed.
+
+Lemma dereify_keeps : forall m g g' (ag : dict atom agenda_entry) t,
+  dereify_agenda m g = Ok ag -> dereify_edges m g = Ok g' ->
+  In t (triples g) -> dget atom_eqb (tsrc t) ag = None -> In (colonize t) (triples g').
+Proof.
+  intros m g g' ag t AG H I N. apply dereify_edges_pure in H. destruct H as (ag' & AG' & ->).
+  rewrite AG in AG'. inversion AG'; subst ag'. rewrite triples_mk. apply in_map.
+  apply dereify_keeps_others; auto.
+Qed.
+
+
+(* ------------------------------------------------------------------ *)
+(** * Connectivity (C12) *)
+
+(* the boolean procedure is sound for the declarative notion *)
+Lemma reach_step_sound : forall g l seen, (forall t, In t l -> In t (triples g)) ->
+  (forall x, In x seen -> reach g x) ->
+  forall x, In x (fold_left (fun acc t =>
+               if is_edge g t then
+                 if mem atom_eqb (tsrc t) acc && negb (mem atom_eqb (ttgt t) acc) then acc ++ [ttgt t]
+                 else if mem atom_eqb (ttgt t) acc && negb (mem atom_eqb (tsrc t) acc) then acc ++ [tsrc t]
+                 else acc
+               else acc) l seen) -> reach g x.
+Proof.
+  intros g l. induction l as [|t l IH]; intros seen H S x I; simpl in I; auto.
+  apply IH in I; auto. { intros. apply H. right. auto. }
+  clear I x. intros x I. assert (It : In t (triples g)) by (apply H; left; auto).
+  destruct (is_edge g t) eqn:E; auto.
+  destruct (mem atom_eqb (tsrc t) seen && negb (mem atom_eqb (ttgt t) seen)) eqn:C1.
+  - apply in_app_or in I. destruct I as [I|[<-|[]]]; auto.
+    apply andb_true_iff in C1. destruct C1 as [C1 _]. apply mem_atom_true in C1. destruct C1 as (b & Ib & Eb).
+    apply reach_fwd; auto. apply reach_eq with b; auto. rewrite atom_eqb_sym. auto.
+  - destruct (mem atom_eqb (ttgt t) seen && negb (mem atom_eqb (tsrc t) seen)) eqn:C2; auto.
+    apply in_app_or in I. destruct I as [I|[<-|[]]]; auto.
+    apply andb_true_iff in C2. destruct C2 as [C2 _]. apply mem_atom_true in C2. destruct C2 as (b & Ib & Eb).
+    apply reach_bwd; auto. apply reach_eq with b; auto. rewrite atom_eqb_sym. auto.
+Qed.
+
+Lemma reach_iter_sound : forall n g seen, (forall x, In x seen -> reach g x) ->
+  forall x, In x (reach_iter n g seen) -> reach g x.
+Proof.
+  induction n as [|n IH]; intros g seen S x I; simpl in I; auto.
+  eapply IH; [|exact I]. intros y Iy. unfold reach_step in Iy.
+  eapply reach_step_sound; [| |exact Iy]; auto.
+Qed.
+
+Lemma connected_b_sound : forall g, connected g -> connectedP g.
+Proof.
+  intros g H x V. unfold connected, connected_b in H. rewrite forallb_forall in H.
+  apply is_var_in_variables in V. destruct V as (y & Iy & E).
+  specialize (H y Iy). apply mem_atom_true in H. destruct H as (b & Ib & Eb).
+  apply reach_eq with b.
+  - unfold reachable in Ib. destruct (graph_top g) as [tp|] eqn:GT; [|destruct Ib].
+    eapply reach_iter_sound; [|exact Ib]. intros z [<-|[]]. apply reach_top. auto.
+  - rewrite atom_eqb_sym. eapply atom_eqb_trans; eauto.
+Qed.
+
+(* transport of reachability: same top, every edge of g is bridged in g' *)
+Lemma reach_transport : forall g g', graph_top g' = graph_top g ->
+  (forall t, In t (triples g) -> is_edge g t = true ->
+     (reach g' (tsrc t) -> reach g' (ttgt t)) /\ (reach g' (ttgt t) -> reach g' (tsrc t))) ->
+  forall x, reach g x -> reach g' x.
+Proof.
+  intros g g' T B x R. induction R.
+  - apply reach_top. congruence.
+  - eapply reach_eq; eauto.
+  - apply (B t); auto.
+  - apply (B t); auto.
+Qed.
+
+Lemma edge_bridge : forall g' t, In t (triples g') -> is_edge g' t = true ->
+  (reach g' (tsrc t) -> reach g' (ttgt t)) /\ (reach g' (ttgt t) -> reach g' (tsrc t)).
+Proof. intros. split; intro; [apply reach_fwd|apply reach_bwd]; auto. Qed.
+
+Lemma is_edge_spec : forall g t, is_edge g t = true <-> is_inst t = false /\ is_var g (ttgt t) = true.
+Proof. intros. unfold is_edge. rewrite andb_true_iff, negb_true_iff. tauto. Qed.
+
+(* ---- indicate_branches ---- *)
+Lemma indicate_branches_connected : forall m g g', node_graph g -> colon_inst (top_role m) = false ->
+  connectedP g -> indicate_branches m g = Ok g' -> connectedP g'.
+Proof.
+  intros m g g' NG T CN H. pose proof (indicate_branches_top _ _ _ H) as TOP.
+  rewrite indicate_branches_pure in H by (apply node_graph_vars_str; auto). inversion H; subst g'. clear H.
+  set (g' := mk_graph _ _ _ _) in *.
+  assert (COL : forall t, In t (triples g) -> has_colon (trole t) = true) by (intros; eapply node_graph_colon; eauto).
+  assert (KEEP : forall t, In t (triples g) -> In t (triples g')).
+  { intros t I. unfold g'. rewrite triples_mk. rewrite <- (colonize_id t) by auto. apply in_map. apply itriples_keeps. auto. }
+  assert (VM : forall x, is_var g x = true -> is_var g' x = true).
+  { intros x X. rewrite is_var_spec in X. apply orb_true_iff in X. destruct X as [X|X].
+    - apply mem_atom_true in X. destruct X as (b & Ib & E). apply in_map_iff in Ib. destruct Ib as (t & <- & It).
+      rewrite (is_var_congr g' _ _ E). apply src_is_var. auto.
+    - unfold g'. rewrite is_var_mk. apply orb_true_iff. right. unfold graph_top. destruct (gtop g); auto. discriminate. }
+  assert (VI : forall x, is_var g' x = true -> is_var g x = true).
+  { intros x X. unfold g' in X. rewrite is_var_mk in X. apply orb_true_iff in X. destruct X as [X|X].
+    - apply mem_atom_true in X. destruct X as (b & Ib & E). apply in_map_iff in Ib.
+      destruct Ib as (t' & <- & It'). rewrite (is_var_congr g _ _ E). eapply itriples_src; eauto.
+    - destruct (graph_top g) as [tp|] eqn:GT; simpl in X; [|discriminate].
+      rewrite orb_false_r in X. rewrite (is_var_congr g _ _ X). apply graph_top_is_var. auto. }
+  intros x X. apply (reach_transport g g'); auto.
+  intros t I E. apply edge_bridge; auto. apply is_edge_spec in E. apply is_edge_spec. destruct E. auto.
+Qed.
+
+(* ---- reify_attributes ---- *)
+Lemma atriples_keeps_edges : forall V ts vs t, count_attr V ts <= length vs -> In t ts ->
+  is_attr_of V t = false -> In t (atriples V ts vs).
+Proof.
+  intros V ts. induction ts as [|t0 ts IH]; intros vs t L I A; [destruct I|].
+  rewrite count_attr_cons in L. simpl. destruct (is_attr_of V t0) eqn:A0.
+  - destruct vs as [|v vs]; [simpl in L; lia|]. destruct I as [<-|I]; [congruence|].
+    right. right. apply IH; auto. simpl in L. lia.
+  - destruct I as [<-|I]; [left; auto|]. right. apply IH; auto.
+Qed.
+
+Lemma atriples_cases2 : forall V ts vs t', In t' (atriples V ts vs) ->
+  (In t' ts /\ is_attr_of V t' = false) \/
+  (exists t v, In t ts /\ is_attr_of V t = true /\
+               In (tsrc t, trole t, AStr v) (atriples V ts vs) /\
+               (t' = (tsrc t, trole t, AStr v) \/ t' = (AStr v, INSTANCE, ttgt t))).
+Proof.
+  intros V ts. induction ts as [|t ts IH]; intros vs t' H; simpl in H; [destruct H|].
+  simpl atriples. destruct (is_attr_of V t) eqn:A.
+  - destruct vs as [|v vs]; [destruct H|]. destruct H as [H|[H|H]].
+    + right. exists t, v. split; [left; auto|]. split; auto. split; [left; auto|]. left; auto.
+    + right. exists t, v. split; [left; auto|]. split; auto. split; [left; auto|]. right; auto.
+    + destruct (IH _ _ H) as [[I0 A0]|(t0 & v0 & I0 & I1 & I2 & E)].
+      * left. split; auto. right. auto.
+      * right. exists t0, v0. split; [right; auto|]. split; auto. split; [right; right; auto|]. auto.
+  - destruct H as [<-|H].
+    + left. split; auto. left. auto.
+    + destruct (IH _ _ H) as [[I0 A0]|(t0 & v0 & I0 & I1 & I2 & E)].
+      * left. split; auto. right. auto.
+      * right. exists t0, v0. split; [right; auto|]. split; auto. split; [right; auto|]. auto.
+Qed.
+
+Lemma reify_attributes_connected : forall g g', node_graph g -> connectedP g ->
+  reify_attributes g = Ok g' -> connectedP g'.
+Proof.
+  intros g g' NG CN H. pose proof (reify_attributes_top _ _ H) as TOP.
+  apply reify_attributes_pure in H. destruct H as (vs & N & L & ->).
+  set (g' := mk_graph _ _ _ _) in *.
+  assert (COL : forall t, In t (triples g) -> has_colon (trole t) = true) by (intros; eapply node_graph_colon; eauto).
+  assert (SRC : forall t1, In t1 (atriples (variables g) (triples g) vs) -> is_var g' (tsrc t1) = true).
+  { intros t1 I1. unfold g'. rewrite is_var_mk. apply orb_true_iff. left. apply mem_atom_in. apply in_map. auto. }
+  assert (VM : forall x, is_var g x = true -> is_var g' x = true).
+  { intros x X. rewrite is_var_spec in X. apply orb_true_iff in X. destruct X as [X|X].
+    - apply mem_atom_true in X. destruct X as (b & Ib & E). apply in_map_iff in Ib. destruct Ib as (t & <- & It).
+      destruct (atriples_keeps_src (variables g) (triples g) vs t) as (t2 & I2 & E2); auto; try lia.
+      rewrite (is_var_congr g' _ _ E), <- E2. auto.
+    - unfold g'. rewrite is_var_mk. apply orb_true_iff. right. unfold graph_top. destruct (gtop g); auto. discriminate. }
+  assert (OLD : forall x, reach g x -> reach g' x).
+  { apply reach_transport; auto. intros t I E. apply is_edge_spec in E. destruct E as [E1 E2].
+    assert (K : In t (triples g')).
+    { unfold g'. rewrite triples_mk. rewrite <- (colonize_id t) by auto. apply in_map.
+      apply atriples_keeps_edges; auto; try lia. unfold is_attr_of. fold (is_var g (ttgt t)). rewrite E2.
+      apply andb_false_r. }
+    apply edge_bridge; auto. apply is_edge_spec. auto. }
+  intros x X. pose proof X as X0. unfold g' in X. rewrite is_var_mk in X.
+  apply orb_true_iff in X. destruct X as [X|X].
+  - apply mem_atom_true in X. destruct X as (b & Ib & E). apply in_map_iff in Ib.
+    destruct Ib as (t' & <- & It'). apply reach_eq with (tsrc t'); [|rewrite atom_eqb_sym; auto].
+    destruct (atriples_cases2 _ _ _ _ It') as [[I1 A]|(t & v & I1 & A & I2 & [->| ->])].
+    + apply OLD. apply CN. apply src_is_var. auto.
+    + rewrite tsrc_mk. apply OLD. apply CN. apply src_is_var. auto.
+    + rewrite tsrc_mk.
+      (* the new node hangs on its role triple *)
+      assert (K : In (colonize (tsrc t, trole t, AStr v)) (triples g')) by (unfold g'; rewrite triples_mk; apply in_map; auto).
+      assert (ED : is_edge g' (colonize (tsrc t, trole t, AStr v)) = true).
+      { apply is_edge_spec. rewrite is_inst_colonize, colonize_tgt, trole_mk, ttgt_mk. split.
+        - rewrite colon_inst_id by auto. apply (is_attr_not_inst _ _ A).
+        - rewrite <- (tsrc_mk (AStr v) INSTANCE (ttgt t)). apply SRC. apply It'. }
+      pose proof (reach_fwd g' _ K ED) as F. rewrite colonize_src, colonize_tgt, tsrc_mk, ttgt_mk in F.
+      apply F. apply OLD. apply CN. apply src_is_var. auto.
+  - destruct (graph_top g) as [tp|] eqn:GT; simpl in X; [|discriminate].
+    rewrite orb_false_r in X. apply reach_eq with tp; [|rewrite atom_eqb_sym; auto].
+    apply reach_top. rewrite TOP. auto.
+Qed.
+
+(* ---- reify_edges ---- *)
+Lemma reify_edges_connected : forall m g g', node_graph g -> table_inst_free m = true ->
+  connectedP g -> reify_edges m g = Ok g' -> connectedP g'.
+Proof.
+  intros m g g' NG T CN H. pose proof (reify_edges_top _ _ _ H) as TOP.
+  apply reify_edges_pure in H. destruct H as (vs & N & L & ->).
+  set (g' := mk_graph _ _ _ _) in *.
+  assert (COL : forall t, In t (triples g) -> has_colon (trole t) = true) by (intros; eapply node_graph_colon; eauto).
+  assert (LE : count_reif m (triples g) <= length vs) by lia.
+  assert (SRC : forall t1, In t1 (rtriples m g (triples g) vs) -> is_var g' (tsrc t1) = true).
+  { intros t1 I1. unfold g'. rewrite is_var_mk. apply orb_true_iff. left. apply mem_atom_in. apply in_map. auto. }
+  assert (INR : forall t, In t (triples g) -> is_inst t = true -> is_role_reifiable m (trole t) = false).
+  { intros t I II. destruct (is_role_reifiable m (trole t)) eqn:R; auto.
+    pose proof (reifiable_not_inst m t (tsrc t) T (COL t I) R) as X. unfold inst_hit in X.
+    rewrite atom_eqb_refl, II in X. discriminate. }
+  assert (VM : forall x, is_var g x = true -> is_var g' x = true).
+  { intros x X. rewrite is_var_spec in X. apply orb_true_iff in X. destruct X as [X|X].
+    - apply mem_atom_true in X. destruct X as (b & Ib & E). apply in_map_iff in Ib. destruct Ib as (t & <- & It).
+      destruct (node_graph_has_inst g t NG It) as (ti & Ii & II & Ei).
+      rewrite (is_var_congr g' _ _ E), <- (is_var_congr g' _ _ Ei). apply SRC.
+      apply rtriples_keeps_unreified; auto.
+    - unfold g'. rewrite is_var_mk. apply orb_true_iff. right. unfold graph_top. destruct (gtop g); auto. discriminate. }
+  (* the two new edges of a pair *)
+  assert (PAIR : forall t v, In (t, v) (rpairs m (triples g) vs) ->
+            let '(c, sr, tr) := reif_row m (trole t) in
+            In (colonize (AStr v, sr, tsrc t)) (triples g') /\ is_edge g' (colonize (AStr v, sr, tsrc t)) = true /\
+            In (colonize (AStr v, tr, ttgt t)) (triples g') /\
+            (is_var g (ttgt t) = true -> is_edge g' (colonize (AStr v, tr, ttgt t)) = true)).
+  { intros t v I. destruct (rpairs_in _ _ _ _ _ I) as (It & Iv & R).
+    pose proof (rpairs_triples_in m g _ _ _ _ I) as PI.
+    pose proof (reif_row_facts m (trole t) T R) as F.
+    destruct (rexpand m g t v) as [[i n] o] eqn:RX. apply rexpand_cases in RX.
+    destruct (reif_row m (trole t)) as [[c sr] tr]. destruct F as (_ & F2 & F3).
+    destruct PI as (P1 & _ & P3).
+    assert (A : In (AStr v, sr, tsrc t) (rtriples m g (triples g) vs) /\ In (AStr v, tr, ttgt t) (rtriples m g (triples g) vs)).
+    { destruct RX as (_ & [(-> & -> & _)|(-> & -> & _)]); auto. }
+    destruct A as [A1 A2]. unfold g'. rewrite triples_mk.
+    split; [apply in_map; auto|]. split; [|split; [apply in_map; auto|]].
+    - apply is_edge_spec. rewrite is_inst_colonize, colonize_tgt, trole_mk, ttgt_mk. split; auto.
+      apply VM. apply src_is_var. auto.
+    - intros V. apply is_edge_spec. rewrite is_inst_colonize, colonize_tgt, trole_mk, ttgt_mk. split; auto. }
+  assert (OLD : forall x, reach g x -> reach g' x).
+  { apply reach_transport; auto. intros t I E. apply is_edge_spec in E. destruct E as [E1 E2].
+    destruct (is_role_reifiable m (trole t)) eqn:R.
+    - destruct (rpairs_total m (triples g) vs t LE I R) as [v Iv].
+      specialize (PAIR t v Iv). destruct (reif_row m (trole t)) as [[c sr] tr].
+      destruct PAIR as (K1 & D1 & K2 & D2). specialize (D2 E2).
+      pose proof (edge_bridge g' _ K1 D1) as [B1 B2]. pose proof (edge_bridge g' _ K2 D2) as [B3 B4].
+      rewrite colonize_src, colonize_tgt, tsrc_mk, ttgt_mk in *. split; auto.
+    - assert (K : In t (triples g')).
+      { unfold g'. rewrite triples_mk. rewrite <- (colonize_id t) by auto. apply in_map.
+        apply rtriples_keeps_unreified; auto. }
+      apply edge_bridge; auto. apply is_edge_spec. auto. }
+  intros x X. unfold g' in X. rewrite is_var_mk in X.
+  apply orb_true_iff in X. destruct X as [X|X].
+  - apply mem_atom_true in X. destruct X as (b & Ib & E). apply in_map_iff in Ib.
+    destruct Ib as (t' & <- & It'). apply reach_eq with (tsrc t'); [|rewrite atom_eqb_sym; auto].
+    apply rtriples_src in It'. destruct It' as [(t0 & I0 & ->)|(v0 & I0 & ->)].
+    + apply OLD. apply CN. apply src_is_var. auto.
+    + destruct (rpairs_all_names m (triples g) vs v0 L I0) as [t It].
+      destruct (rpairs_in _ _ _ _ _ It) as (I1 & _ & _).
+      specialize (PAIR t v0 It). destruct (reif_row m (trole t)) as [[c sr] tr].
+      destruct PAIR as (K1 & D1 & _). pose proof (edge_bridge g' _ K1 D1) as [_ B2].
+      rewrite colonize_src, colonize_tgt, tsrc_mk, ttgt_mk in B2. apply B2.
+      apply OLD. apply CN. apply src_is_var. auto.
+  - destruct (graph_top g) as [tp|] eqn:GT; simpl in X; [|discriminate].
+    rewrite orb_false_r in X. apply reach_eq with tp; [|rewrite atom_eqb_sym; auto].
+    apply reach_top. rewrite TOP. auto.
+Qed.
+
+(* ---- dereify_edges ---- *)
+Lemma dtriples_emits : forall (ag : dict atom agenda_entry) ts first d e,
+  In first ts -> dget atom_eqb (tsrc first) ag = Some (first, d, e) -> In d (dtriples ag ts).
+Proof.
+  intros ag ts. induction ts as [|t ts IH]; intros first d e I G; [destruct I|].
+  simpl. destruct I as [<-|I].
+  - rewrite G, triple_eqb_refl. left. auto.
+  - destruct (dget atom_eqb (tsrc t) ag) as [[[f0 d0] e0]|].
+    + destruct (triple_eqb t f0); [right|]; eapply IH; eauto.
+    + right. eapply IH; eauto.
+Qed.
+
+Lemma dereify_edges_connected : forall m g g', node_graph g -> table_inst_free m = true ->
+  connectedP g -> dereify_edges m g = Ok g' -> connectedP g'.
+Proof.
+  intros m g g' NG T CN H. pose proof (dereify_edges_top _ _ _ H) as TOP.
+  apply dereify_edges_pure in H. destruct H as (ag & AG & ->).
+  set (g' := mk_graph _ _ _ _) in *.
+  assert (COL : forall t, In t (triples g) -> has_colon (trole t) = true) by (intros; eapply node_graph_colon; eauto).
+  assert (TOPN : forall tp, graph_top g = Some tp -> dget atom_eqb tp ag = None).
+  { intros tp GT. rewrite (agenda_spec m g ag AG). apply collapsible_fixed_none.
+    unfold fixed_of, top_atom. rewrite GT. simpl. rewrite atom_eqb_refl. auto. }
+  assert (TGTN : forall t, In t (triples g) -> is_inst t = false -> dget atom_eqb (ttgt t) ag = None).
+  { intros t I N. rewrite (agenda_spec m g ag AG). apply collapsible_fixed_none. apply nonint_tgt_fixed; auto. }
+  assert (KEEP : forall t, In t (triples g) -> dget atom_eqb (tsrc t) ag = None -> In t (triples g')).
+  { intros t I N. unfold g'. rewrite triples_mk. rewrite <- (colonize_id t) by auto. apply in_map.
+    apply dereify_keeps_others; auto. }
+  assert (VK : forall x, is_var g x = true -> dget atom_eqb x ag = None -> is_var g' x = true).
+  { intros x X N. rewrite is_var_spec in X. apply orb_true_iff in X. destruct X as [X|X].
+    - apply mem_atom_true in X. destruct X as (b & Ib & E). apply in_map_iff in Ib. destruct Ib as (t & <- & It).
+      destruct (node_graph_has_inst g t NG It) as (ti & Ii & II & Ei).
+      assert (Exi : atom_eqb x (tsrc ti) = true) by (eapply atom_eqb_trans; eauto; rewrite atom_eqb_sym; auto).
+      rewrite (is_var_congr g' _ _ Exi). apply src_is_var. apply KEEP; auto.
+      rewrite <- (A_dget_congr ag _ _ Exi). auto.
+    - unfold g'. rewrite is_var_mk. apply orb_true_iff. right. unfold graph_top. destruct (gtop g); auto. discriminate. }
+  (* an agenda entry: its dereified triple is in g', joins the two neighbours *)
+  assert (ENTRY : forall v first d e, dget atom_eqb v ag = Some (first, d, e) ->
+            In (colonize d) (triples g') /\ is_inst (colonize d) = false /\
+            forall t, In t (triples g) -> is_inst t = false -> atom_eqb (tsrc t) v = true ->
+                      ttgt t = tsrc d \/ ttgt t = ttgt d).
+  { intros v first d e G. pose proof G as G0. rewrite (agenda_spec m g ag AG) in G.
+    apply collapsible_inv in G. destruct G as (i & o1 & o2 & second & _ & _ & O & _ & SW & D & V & _).
+    pose proof (dereify_ok_inv _ _ _ _ _ D) as (c & s & tt & IR & SRC).
+    assert (I1 : In o1 (others_of (triples g) v)) by (rewrite O; left; auto).
+    assert (I2 : In o2 (others_of (triples g) v)) by (rewrite O; right; left; auto).
+    apply others_of_in in I1. apply others_of_in in I2. destruct I1 as (A1 & B1 & C1), I2 as (A2 & B2 & C2).
+    assert (FI : In first (triples g) /\ atom_eqb (tsrc first) v = true).
+    { destruct SW as [(-> & _)|(-> & _)]; auto. }
+    destruct FI as [FI FS]. split; [|split].
+    - unfold g'. rewrite triples_mk. apply in_map. eapply dtriples_emits; eauto.
+      rewrite (A_dget_congr ag _ _ FS). eauto.
+    - rewrite is_inst_colonize. eapply table_inst_free_row in IR; eauto. tauto.
+    - intros t It Nt Et.
+      assert (Io : In t (others_of (triples g) v)).
+      { unfold others_of. apply filter_In. split; auto. rewrite Et, Nt. auto. }
+      rewrite O in Io.
+      destruct SW as [(-> & -> & _)|(-> & -> & _)]; destruct SRC as [[S1 S2]|[S1 S2]]; rewrite S1, S2;
+        destruct Io as [<-|[<-|[]]]; auto. }
+  assert (MAIN : forall x, reach g x ->
+            (dget atom_eqb x ag = None -> reach g' x) /\
+            (forall first d e, dget atom_eqb x ag = Some (first, d, e) -> reach g' (tsrc d))).
+  { intros x R. induction R as [tp GT|a b R IH E|t I E R IH|t I E R IH].
+    - split; [intros _; apply reach_top; congruence|]. intros f d e G. rewrite TOPN in G; auto. discriminate.
+    - destruct IH as [IH1 IH2]. rewrite <- (A_dget_congr ag _ _ E). split.
+      + intros N. eapply reach_eq; eauto.
+      + auto.
+    - apply is_edge_spec in E. destruct E as [E1 E2]. destruct IH as [IH1 IH2].
+      pose proof (TGTN t I E1) as TN. split; [intros _|intros f d e G; congruence].
+      destruct (dget atom_eqb (tsrc t) ag) as [[[f d] e]|] eqn:G.
+      + destruct (ENTRY _ _ _ _ G) as (K & NI & J). specialize (IH2 _ _ _ eq_refl).
+        destruct (J t I E1 (atom_eqb_refl _)) as [X|X]; rewrite X; auto.
+        assert (ED : is_edge g' (colonize d) = true).
+        { apply is_edge_spec. split; auto. rewrite colonize_tgt, <- X. apply VK; auto. }
+        pose proof (reach_fwd g' _ K ED) as F. rewrite colonize_src, colonize_tgt in F. auto.
+      + assert (ED : is_edge g' t = true) by (apply is_edge_spec; split; auto).
+        apply reach_fwd; auto.
+    - apply is_edge_spec in E. destruct E as [E1 E2]. destruct IH as [IH1 _].
+      pose proof (TGTN t I E1) as TN. specialize (IH1 TN). split.
+      + intros N. assert (ED : is_edge g' t = true) by (apply is_edge_spec; split; auto).
+        apply reach_bwd; auto.
+      + intros f d e G. destruct (ENTRY _ _ _ _ G) as (K & NI & J).
+        destruct (J t I E1 (atom_eqb_refl _)) as [X|X]; [rewrite <- X; auto|].
+        assert (ED : is_edge g' (colonize d) = true).
+        { apply is_edge_spec. split; auto. rewrite colonize_tgt, <- X. apply VK; auto. }
+        pose proof (reach_bwd g' _ K ED) as F. rewrite colonize_src, colonize_tgt in F. apply F. rewrite <- X. auto. }
+  intros x X.
+  assert (OLD : is_var g x = true /\ dget atom_eqb x ag = None).
+  { unfold g' in X. rewrite is_var_mk in X. apply orb_true_iff in X. destruct X as [X|X].
+    - apply mem_atom_true in X. destruct X as (b & Ib & E). apply in_map_iff in Ib.
+      destruct Ib as (t' & <- & It'). rewrite (is_var_congr g _ _ E), (A_dget_congr ag _ _ E).
+      apply dtriples_cases in It'. destruct It' as [[I N]|(v & first & epis & G)].
+      + split; auto. apply src_is_var. auto.
+      + destruct (agenda_entry_facts m g ag v first t' epis AG G) as (A & B & _). auto.
+    - destruct (graph_top g) as [tp|] eqn:GT; simpl in X; [|discriminate].
+      rewrite orb_false_r in X. rewrite (is_var_congr g _ _ X), (A_dget_congr ag _ _ X).
+      split; [apply graph_top_is_var; auto|apply TOPN; auto]. }
+  destruct OLD as [OV ON]. apply (MAIN x (CN x OV)). auto.
+Qed.
+
+(* ------------------------------------------------------------------ *)
+(** * Every composition (C12) *)
+
+Lemma apply_xform_ok : forall m x g, node_graph g -> connectedP g ->
+  table_inst_free m = true -> colon_inst (top_role m) = false ->
+  exists g', apply_xform m x g = Ok g' /\ node_graph g' /\ connectedP g' /\ graph_top g' = graph_top g.
+Proof.
+  intros m x g NG CN T C. destruct x; simpl.
+  - destruct (reify_edges_total m g) as [g' H]. exists g'. split; auto. split; [|split].
+    + eapply reify_edges_node_graph; eauto.
+    + eapply reify_edges_connected; eauto.
+    + eapply reify_edges_top; eauto.
+  - destruct (dereify_edges_total m g) as [g' H]. exists g'. split; auto. split; [|split].
+    + eapply dereify_edges_node_graph; eauto.
+    + eapply dereify_edges_connected; eauto.
+    + eapply dereify_edges_top; eauto.
+  - destruct (reify_attributes_total g) as [g' H]. exists g'. split; auto. split; [|split].
+    + eapply reify_attributes_node_graph; eauto.
+    + eapply reify_attributes_connected; eauto.
+    + eapply reify_attributes_top; eauto.
+  - destruct (indicate_branches_total m g (node_graph_vars_str g NG)) as [g' H]. exists g'. split; auto. split; [|split].
+    + eapply indicate_branches_node_graph; eauto.
+    + eapply indicate_branches_connected; eauto.
+    + eapply indicate_branches_top; eauto.
+Qed.
+
+Lemma run_xforms_ok : forall m prog g, node_graph g -> connectedP g ->
+  table_inst_free m = true -> colon_inst (top_role m) = false ->
+  exists g', run_xforms m prog g = Ok g' /\ node_graph g' /\ connectedP g' /\ graph_top g' = graph_top g.
+Proof.
+  intros m prog. induction prog as [|x prog IH]; intros g NG CN T C; simpl.
+  - exists g. auto.
+  - destruct (apply_xform_ok m x g NG CN T C) as (g1 & H1 & NG1 & CN1 & T1). rewrite H1. simpl.
+    destruct (IH g1 NG1 CN1 T C) as (g' & H' & NG' & CN' & T'). exists g'. repeat split; auto. congruence.
+Qed.
